@@ -1,1 +1,2306 @@
-(* placeholder; being written *)
+(** Proofs about [Model.Boosted] (property C11).
+    Part A: the 5-slot factor register refines a week -> factors map.
+    Part B: get_user_rewards_for_week against the documented formula.
+    Part C: one claim: window, frame, per-week money summary.
+    Part D: reachable states: progress / config / money invariants with a ghost ledger.
+    Part E: at most once; pool; undistributed; conservation. *)
+From MX Require Import Base.Prelude Gen.Params Model.Weekly Model.Boosted Proofs.WeeklyProofs.
+
+Local Notation MAXW := USER_MAX_CLAIM_WEEKS.
+Local Notation WK := EPOCHS_IN_WEEK.
+
+Lemma nslots_eq : NSLOTS = MAXW + 1.
+Proof. reflexivity. Qed.
+
+Lemma nslots_pos : 1 <= NSLOTS.
+Proof. rewrite nslots_eq. pose proof max_weeks_nonneg. lia. Qed.
+
+Lemma collect_offset_eq : COLLECT_OFFSET = MAXW + 1.
+Proof. reflexivity. Qed.
+
+Global Opaque NSLOTS COLLECT_OFFSET.
+
+(** ================================================================== Part A: the factor register *)
+
+Lemma nth_skipn_ {A} (d : nat) : forall (l : list A) i x, nth i (skipn d l) x = nth (d + i) l x.
+Proof.
+  induction d as [|d IH]; intros l i x; simpl; [reflexivity|].
+  destruct l as [|a l]; [destruct i; reflexivity | apply IH].
+Qed.
+
+Lemma nth_repeat_ {A} (a x : A) n i : (i < n)%nat -> nth i (repeat a n) x = a.
+Proof.
+  revert i. induction n as [|n IH]; intros i Hi; [lia|]. destruct i; simpl; [reflexivity | apply IH; lia].
+Qed.
+
+Lemma nth_firstn_ {A} (n : nat) : forall (l : list A) i x, (i < n)%nat -> nth i (firstn n l) x = nth i l x.
+Proof.
+  induction n as [|n IH]; intros l i x Hi; [lia|].
+  destruct l as [|a l]; [destruct i; reflexivity|]. destruct i; simpl; [reflexivity | apply IH; lia].
+Qed.
+
+(** the abstract meaning: an accepted-settings log [(week, factors)] in call order on top of the
+    factors of the very first call; the factors of week [w] are those of the last call made in a
+    week <= w (weeks of calls are non-decreasing), the first call's for earlier weeks *)
+Definition fac_at (f0 : factors) (log : list (Z * factors)) (w : Z) : factors :=
+  fold_left (fun acc ev => if fst ev <=? w then snd ev else acc) log f0.
+
+Lemma fac_at_snoc f0 log cw f w : fac_at f0 (log ++ [(cw, f)]) w = if cw <=? w then f else fac_at f0 log w.
+Proof. unfold fac_at. rewrite fold_left_app. reflexivity. Qed.
+
+Lemma fac_at_late f0 log L w : Forall (fun ev => fst ev <= L) log -> L <= w -> fac_at f0 log w = fac_at f0 log L.
+Proof.
+  unfold fac_at. revert f0. induction log as [|[k f] t IH]; intros f0 Hall Hw; simpl; [reflexivity|].
+  inversion Hall as [|? ? Hk Ht]; subst. simpl in Hk.
+  assert (E1 : (k <=? w) = true) by (apply Z.leb_le; lia).
+  assert (E2 : (k <=? L) = true) by (apply Z.leb_le; lia).
+  rewrite E1, E2. apply IH; assumption.
+Qed.
+
+(** slot [k] weeks back from [c_last] *)
+Definition slot (c : bconfig) (k : Z) : factors := nth (Z.to_nat (NSLOTS - 1 - k)) (c_slots c) fac0.
+
+Definition CInv (c : bconfig) (f0 : factors) (log : list (Z * factors)) : Prop :=
+  length (c_slots c) = Z.to_nat NSLOTS /\
+  Forall (fun ev => fst ev <= c_last c) log /\
+  forall k, 0 <= k < NSLOTS -> slot c k = fac_at f0 log (c_last c - k).
+
+Lemma cfg_new_inv cw f : CInv (cfg_new cw f) f [].
+Proof.
+  pose proof nslots_pos as HN. unfold CInv, cfg_new, slot; simpl.
+  split; [apply repeat_length|]. split; [constructor|].
+  intros k Hk. apply nth_repeat_. lia.
+Qed.
+
+Lemma last_slot_slot c : last_slot c = slot c 0.
+Proof. unfold last_slot, slot. rewrite Z.sub_0_r. reflexivity. Qed.
+
+(** one update (with or without new factors) keeps the refinement; the log grows by the accepted call *)
+Lemma cfg_update_inv c f0 log cw nf c' :
+  CInv c f0 log -> cfg_update c cw nf = Ok c' ->
+  c_last c <= cw /\ c_last c' = cw /\
+  CInv c' f0 (match nf with Some f => log ++ [(cw, f)] | None => log end).
+Proof.
+  intros (Hlen & Hall & Hsl) Hu. pose proof nslots_pos as HN. unfold cfg_update in Hu.
+  destruct (c_last c <=? cw) eqn:El; [|discriminate]. apply Z.leb_le in El. split; [exact El|].
+  set (d := Z.min (cw - c_last c) NSLOTS) in *.
+  assert (Hd : 0 <= d <= NSLOTS) by (unfold d; lia).
+  assert (Hlast : last_slot c = fac_at f0 log (c_last c)).
+  { rewrite last_slot_slot, Hsl by lia. f_equal. lia. }
+  destruct (d =? 0) eqn:Ed.
+  - apply Z.eqb_eq in Ed. assert (Hcw : cw = c_last c) by (unfold d in Ed; lia).
+    inversion Hu; subst c'; clear Hu. destruct nf as [f|].
+    + simpl. split; [symmetry; exact Hcw|]. unfold CInv; simpl.
+      split; [rewrite app_length, firstn_length_le by lia; simpl; lia|].
+      split; [apply Forall_app; split; [exact Hall | constructor; [simpl; lia | constructor]]|].
+      intros k Hk. unfold slot; simpl. rewrite fac_at_snoc.
+      destruct (Z.eq_dec k 0) as [->|Hk0].
+      * rewrite app_nth2 by (rewrite firstn_length_le by lia; lia).
+        rewrite firstn_length_le by lia. replace (Z.to_nat (NSLOTS - 1 - 0) - Z.to_nat (NSLOTS - 1))%nat with 0%nat by lia.
+        simpl. assert (E : (cw <=? c_last c - 0) = true) by (apply Z.leb_le; lia). rewrite E. reflexivity.
+      * rewrite app_nth1 by (rewrite firstn_length_le by lia; lia).
+        rewrite nth_firstn_ by lia.
+        assert (E : (cw <=? c_last c - k) = false) by (apply Z.leb_gt; lia). rewrite E.
+        apply (Hsl k Hk).
+    + split; [symmetry; exact Hcw|]. split; [exact Hlen|]. split; [exact Hall | exact Hsl].
+  - apply Z.eqb_neq in Ed. inversion Hu; subst c'; clear Hu. simpl. split; [reflexivity|].
+    set (latest := match nf with Some f => f | None => last_slot c end).
+    set (log' := match nf with Some f => log ++ [(cw, f)] | None => log end).
+    assert (Hall' : Forall (fun ev => fst ev <= cw) log').
+    { assert (H0 : Forall (fun ev => fst ev <= cw) log)
+        by (eapply Forall_impl; [|exact Hall]; simpl; intros; lia).
+      unfold log'. destruct nf; [apply Forall_app; split; [exact H0 | constructor; [simpl; lia | constructor]] | exact H0]. }
+    assert (Hfac : forall w, w < cw -> fac_at f0 log' w = fac_at f0 log w).
+    { intros w Hw. unfold log'. destruct nf; [|reflexivity]. rewrite fac_at_snoc.
+      assert (E : (cw <=? w) = false) by (apply Z.leb_gt; lia). rewrite E. reflexivity. }
+    assert (Hlatest : latest = fac_at f0 log' cw).
+    { unfold latest, log'. destruct nf as [f|].
+      - rewrite fac_at_snoc, Z.leb_refl. reflexivity.
+      - rewrite Hlast. symmetry. apply fac_at_late; [exact Hall | lia]. }
+    unfold CInv; simpl.
+    assert (Hl1 : length (skipn (Z.to_nat d) (c_slots c)) = (Z.to_nat NSLOTS - Z.to_nat d)%nat)
+      by (rewrite skipn_length, Hlen; reflexivity).
+    split; [rewrite !app_length, Hl1, repeat_length; simpl; lia|].
+    split; [exact Hall'|].
+    intros k Hk. unfold slot; simpl.
+    destruct (Z_lt_le_dec k d) as [Hkd|Hkd].
+    + (* the refilled part *)
+      rewrite app_nth2 by lia. rewrite Hl1.
+      destruct (Z.eq_dec k 0) as [->|Hk0].
+      * rewrite app_nth2 by (rewrite repeat_length; lia). rewrite repeat_length.
+        replace (Z.to_nat (NSLOTS - 1 - 0) - (Z.to_nat NSLOTS - Z.to_nat d) - Z.to_nat (d - 1))%nat with 0%nat by lia.
+        simpl. rewrite Z.sub_0_r. exact Hlatest.
+      * rewrite app_nth1 by (rewrite repeat_length; lia).
+        rewrite nth_repeat_ by lia. rewrite Hfac by lia. rewrite Hlast.
+        symmetry. apply fac_at_late; [exact Hall | unfold d in Hkd; lia].
+    + (* the shifted part: only when the register was not flushed completely *)
+      assert (Hdd : d = cw - c_last c) by (unfold d in *; lia).
+      rewrite app_nth1 by lia. rewrite nth_skipn_.
+      replace (Z.to_nat d + Z.to_nat (NSLOTS - 1 - k))%nat with (Z.to_nat (NSLOTS - 1 - (k - d))) by lia.
+      fold (slot c (k - d)). rewrite Hsl by lia. rewrite Hfac by lia. f_equal. lia.
+Qed.
+
+(** what the register answers for a week: exactly the abstract map, on exactly the last NSLOTS-1 completed weeks *)
+Lemma get_factors_spec c f0 log w :
+  CInv c f0 log ->
+  (c_last c - NSLOTS < w < c_last c -> get_factors_for_week c w = Ok (fac_at f0 log w)) /\
+  (forall fa, get_factors_for_week c w = Ok fa -> c_last c - NSLOTS < w < c_last c /\ fa = fac_at f0 log w).
+Proof.
+  intros (Hlen & Hall & Hsl). unfold get_factors_for_week. split.
+  - intros Hw. assert (E1 : (w <? c_last c) = true) by (apply Z.ltb_lt; lia).
+    assert (E2 : (c_last c - w <? NSLOTS) = true) by (apply Z.ltb_lt; lia). rewrite E1, E2.
+    f_equal. fold (slot c (c_last c - w)). rewrite Hsl by lia. f_equal. lia.
+  - intros fa Hg. destruct (w <? c_last c) eqn:E1; [|discriminate].
+    destruct (c_last c - w <? NSLOTS) eqn:E2; [|discriminate].
+    apply Z.ltb_lt in E1. apply Z.ltb_lt in E2. split; [lia|]. inversion Hg; subst.
+    fold (slot c (c_last c - w)). rewrite Hsl by lia. f_equal. lia.
+Qed.
+
+(** a whole life of the register: creation, then any sequence of touches (None) and accepted settings (Some) *)
+Fixpoint cfg_run (c : bconfig) (log : list (Z * factors)) (ops : list (Z * option factors))
+  : result (bconfig * list (Z * factors)) :=
+  match ops with
+  | [] => Ok (c, log)
+  | (cw, nf) :: t =>
+      do c' <- cfg_update c cw nf;
+      cfg_run c' (match nf with Some f => log ++ [(cw, f)] | None => log end) t
+  end.
+
+Lemma cfg_run_inv ops : forall c f0 log c' log',
+  CInv c f0 log -> cfg_run c log ops = Ok (c', log') -> CInv c' f0 log'.
+Proof.
+  induction ops as [|[cw nf] t IH]; intros c f0 log c' log' Hi Hr; simpl in Hr.
+  - inversion Hr; subst. exact Hi.
+  - apply bind_ok in Hr. destruct Hr as (c1 & Hu & Hr).
+    destruct (cfg_update_inv _ _ _ _ _ _ Hi Hu) as (_ & _ & Hi1). apply (IH _ _ _ _ _ Hi1 Hr).
+Qed.
+
+Lemma register_refines cw0 f0 ops c log w :
+  cfg_run (cfg_new cw0 f0) [] ops = Ok (c, log) ->
+  c_last c - NSLOTS < w < c_last c ->
+  get_factors_for_week c w = Ok (fac_at f0 log w) /\ last_slot c = fac_at f0 log (c_last c).
+Proof.
+  intros Hr Hw. pose proof (cfg_run_inv _ _ _ _ _ _ (cfg_new_inv cw0 f0) Hr) as Hi.
+  split; [apply (get_factors_spec _ _ _ _ Hi); exact Hw|].
+  destruct Hi as (_ & _ & Hsl). pose proof nslots_pos. rewrite last_slot_slot, Hsl by lia. f_equal. lia.
+Qed.
+
+(** ================================================================== Part B: the hook *)
+(** the documented amount, with the module's rounding (three floor divisions) *)
+Definition boosted_amount (fa : factors) (R f F e E : Z) : Z :=
+  Z.min (max_rewards fa R f F) ((by_energy fa R e E + by_tokens fa R f F) / (fa_ce fa + fa_cf fa)).
+
+Definition rsum (r : list (Z * Z)) : Z := fold_right (fun p acc => snd p + acc) 0 r.
+
+(** collect_and_get_rewards_for_week, explicitly *)
+Lemma collect_and_get_cases cw h s w h1 s1 tot :
+  b_collect_and_get cw h s w = Ok (h1, s1, tot) ->
+  (rget (w_rewards s) w <> [] /\ tot = rget (w_rewards s) w /\ h1 = h /\ s1 = s) \/
+  (rget (w_rewards s) w = [] /\ exists c c', bh_cfg h = Some c /\ cfg_update c cw None = Ok c' /\
+     h1 = set_rem (set_acc (set_cfg h (Some c')) w 0) w (aget (bh_acc h) w) /\
+     tot = [(RTOK, aget (bh_acc h) w)] /\ s1 = set_rewards s (rset (w_rewards s) w tot)).
+Proof.
+  unfold b_collect_and_get. destruct (rget (w_rewards s) w) as [|x l] eqn:Er.
+  - intros Heq. right. split; [reflexivity|]. apply bind_ok in Heq. destruct Heq as ([h' r] & Hc & Heq).
+    inversion Heq; subst; clear Heq. unfold b_collect in Hc. destruct (bh_cfg h) as [c|] eqn:Ec; [|discriminate].
+    apply bind_ok in Hc. destruct Hc as (c' & Hu & Hc). inversion Hc; subst; clear Hc.
+    exists c, c'. repeat split; assumption.
+  - intros Heq. inversion Heq; subst. left. split; [discriminate|]. repeat split.
+Qed.
+
+(** get_user_rewards_for_week, explicitly *)
+Lemma hook_cases pos cfg cw h s w e E h' s' r :
+  boosted_hook pos cfg cw h s w e E = Ok (h', s', r) ->
+  forall F, F = aget (bh_sup h) w ->
+  (h' = h /\ s' = s /\ r = [] /\
+     (E = 0 \/ F = 0 \/ exists fa, get_factors_for_week cfg w = Ok fa /\ (e < fa_mine fa \/ pos < fa_minf fa))) \/
+  (exists fa h1 t R,
+     E <> 0 /\ F <> 0 /\ get_factors_for_week cfg w = Ok fa /\ fa_mine fa <= e /\ fa_minf fa <= pos /\
+     b_collect_and_get cw h s w = Ok (h1, s', [(t, R)]) /\
+     ((r = [] /\ h' = h1 /\ (R = 0 \/ (R <> 0 /\ fa_ce fa + fa_cf fa <> 0 /\ boosted_amount fa R pos F e E <= 0))) \/
+      (R <> 0 /\ fa_ce fa + fa_cf fa <> 0 /\ 0 < boosted_amount fa R pos F e E /\
+       boosted_amount fa R pos F e E <= aget (bh_rem h1) w /\ r = [(t, boosted_amount fa R pos F e E)] /\
+       h' = set_rem h1 w (aget (bh_rem h1) w - boosted_amount fa R pos F e E)))).
+Proof.
+  unfold boosted_hook. intros Heq F HF. rewrite <- HF in Heq.
+  destruct ((E =? 0) || (F =? 0)) eqn:Ez.
+  - inversion Heq; subst. left. repeat split. apply orb_true_iff in Ez. destruct Ez as [Ez|Ez]; apply Z.eqb_eq in Ez; auto.
+  - apply orb_false_iff in Ez. destruct Ez as (E1 & E2). apply Z.eqb_neq in E1. apply Z.eqb_neq in E2.
+    apply bind_ok in Heq. destruct Heq as (fa & Hfa & Heq).
+    destruct ((e <? fa_mine fa) || (pos <? fa_minf fa)) eqn:Em.
+    + inversion Heq; subst. left. repeat split. right. right. exists fa. split; [exact Hfa|].
+      apply orb_true_iff in Em. destruct Em as [Em|Em]; apply Z.ltb_lt in Em; auto.
+    + apply orb_false_iff in Em. destruct Em as (M1 & M2). apply Z.ltb_ge in M1. apply Z.ltb_ge in M2.
+      apply bind_ok in Heq. destruct Heq as ([[h1 s1] tot] & Hc & Heq).
+      destruct tot as [|[t R] [|y l]]; try discriminate.
+      * (* an empty total is impossible: collect returns one payment, a stored total is non-empty *)
+        exfalso. destruct (collect_and_get_cases _ _ _ _ _ _ _ Hc) as [(Hne & Ht & _)|(_ & c & c' & _ & _ & _ & Ht & _)];
+          [apply Hne; symmetry; exact Ht | discriminate].
+      * right. exists fa, h1, t, R.
+        destruct (R =? 0) eqn:ER.
+        -- apply Z.eqb_eq in ER. inversion Heq; subst. repeat split; try assumption. left. repeat split. left. reflexivity.
+        -- apply Z.eqb_neq in ER. apply bind_ok in Heq. destruct Heq as (amt & Hd & Heq).
+           apply div_chk_ok in Hd. destruct Hd as (Hc0 & ->).
+           fold (boosted_amount fa R pos F e E) in Heq.
+           destruct (0 <? boosted_amount fa R pos F e E) eqn:Ep.
+           ++ apply Z.ltb_lt in Ep. apply bind_ok in Heq. destruct Heq as (rem & Hs & Heq).
+              apply sub_chk_ok in Hs. destruct Hs as (Hle & ->). inversion Heq; subst.
+              repeat split; try assumption. right. repeat split; assumption.
+           ++ apply Z.ltb_ge in Ep. inversion Heq; subst. repeat split; try assumption.
+              left. repeat split. right. repeat split; assumption.
+Qed.
+
+(** the amount against the documented rational value
+      min (maxF*R*f/F) (R*(cE*e/E + cF*f/F)/(cE+cF)):
+    never above it, and less than 1 below the cap or less than 1 + 2/(cE+cF) below the share (the
+    three floor divisions), all cross-multiplied *)
+Lemma boosted_amount_char fa R f F e E :
+  0 < F -> 0 < E -> 0 < fa_ce fa + fa_cf fa -> 0 <= fa_ce fa -> 0 <= fa_cf fa -> 0 <= fa_max fa ->
+  0 <= R -> 0 <= f -> 0 <= e ->
+  let x := boosted_amount fa R f F e E in
+  exists a be bt b,
+    x = Z.min a b /\
+    floor_of a (fa_max fa * R * f) F /\ floor_of be (R * fa_ce fa * e) E /\ floor_of bt (R * fa_cf fa * f) F /\
+    floor_of b (be + bt) (fa_ce fa + fa_cf fa) /\
+    0 <= x /\
+    x * F <= fa_max fa * R * f /\
+    x * ((fa_ce fa + fa_cf fa) * E * F) <= R * (fa_ce fa * e * F + fa_cf fa * f * E) /\
+    (fa_max fa * R * f < (x + 1) * F \/
+     R * (fa_ce fa * e * F + fa_cf fa * f * E) < ((x + 1) * (fa_ce fa + fa_cf fa) + 2) * (E * F)).
+Proof.
+  intros HF HE Hc Hce Hcf Hmx HR Hf He x. unfold boosted_amount, max_rewards, by_energy, by_tokens in x.
+  set (mx := fa_max fa) in *. set (ce := fa_ce fa) in *. set (cf := fa_cf fa) in *.
+  set (a := mx * R * f / F) in *. set (be := R * ce * e / E) in *. set (bt := R * cf * f / F) in *.
+  set (b := (be + bt) / (ce + cf)) in *.
+  exists a, be, bt, b.
+  assert (Ha : floor_of a (mx * R * f) F) by (apply floor_of_div; exact HF).
+  assert (Hbe : floor_of be (R * ce * e) E) by (apply floor_of_div; exact HE).
+  assert (Hbt : floor_of bt (R * cf * f) F) by (apply floor_of_div; exact HF).
+  assert (Hb : floor_of b (be + bt) (ce + cf)) by (apply floor_of_div; exact Hc).
+  assert (Ha0 : 0 <= a) by (apply div_nonneg; [nia | exact HF]).
+  assert (Hbe0 : 0 <= be) by (apply div_nonneg; [nia | exact HE]).
+  assert (Hbt0 : 0 <= bt) by (apply div_nonneg; [nia | exact HF]).
+  assert (Hb0 : 0 <= b) by (apply div_nonneg; [lia | exact Hc]).
+  clearbody a be bt b. unfold floor_of in *.
+  split; [reflexivity|]. split; [exact Ha|]. split; [exact Hbe|]. split; [exact Hbt|]. split; [exact Hb|].
+  assert (Hxa : x <= a) by (unfold x; lia). assert (Hxb : x <= b) by (unfold x; lia).
+  assert (Hx0 : 0 <= x) by (unfold x; lia).
+  assert (Hx : x = a \/ x = b) by (unfold x; lia).
+  clearbody x.
+  set (N1 := R * ce * e) in *. set (N2 := R * cf * f) in *. set (N0 := mx * R * f) in *.
+  assert (Hrhs : R * (ce * e * F + cf * f * E) = N1 * F + N2 * E) by (unfold N1, N2; ring).
+  rewrite Hrhs. clearbody N1 N2 N0.
+  split; [exact Hx0|]. split; [nia|].
+  assert (HEF : 0 < E * F) by nia.
+  assert (K1 : be * E * F <= N1 * F) by (apply Z.mul_le_mono_nonneg_r; lia).
+  assert (K2 : bt * F * E <= N2 * E) by (apply Z.mul_le_mono_nonneg_r; lia).
+  assert (K3 : b * (ce + cf) * (E * F) <= (be + bt) * (E * F)) by (apply Z.mul_le_mono_nonneg_r; lia).
+  split.
+  - assert (K4 : x * (ce + cf) * (E * F) <= b * (ce + cf) * (E * F)).
+    { apply Z.mul_le_mono_nonneg_r; [lia|]. apply Z.mul_le_mono_nonneg_r; lia. }
+    nia.
+  - destruct Hx as [->| ->]; [left; lia|]. right.
+    assert (L1 : N1 * F < (be + 1) * E * F) by (apply Z.mul_lt_mono_pos_r; lia).
+    assert (L2 : N2 * E < (bt + 1) * F * E) by (apply Z.mul_lt_mono_pos_r; lia).
+    assert (L3 : (be + bt) * (E * F) < (b + 1) * (ce + cf) * (E * F)) by (apply Z.mul_lt_mono_pos_r; lia).
+    nia.
+Qed.
+
+(** ------------------------------------------------------------------ one hook call: frame and money *)
+Definition acc_ (h : bhost) (w : Z) : Z := aget (bh_acc h) w.
+Definition rem_ (h : bhost) (w : Z) : Z := aget (bh_rem h) w.
+Definition rw_ (s : wstate) (w : Z) : list (Z * Z) := rget (w_rewards s) w.
+Definition msum (h : bhost) : Z := asum (bh_acc h) + asum (bh_rem h).
+Definition nd (h : bhost) : Prop := NoDup (akeys (bh_acc h)) /\ NoDup (akeys (bh_rem h)).
+
+(** everything of the module's storage except the pools of week [w] and the stored config *)
+Definition host_frame (w : Z) (h h' : bhost) : Prop :=
+  bh_sup h' = bh_sup h /\ bh_und h' = bh_und h /\ bh_lastcol h' = bh_lastcol h /\ bh_pct h' = bh_pct h /\
+  (forall w', w' <> w -> acc_ h' w' = acc_ h w' /\ rem_ h' w' = rem_ h w').
+
+(** the stored config is left alone or replaced by itself brought to the current week *)
+Definition cfg_step (cw : Z) (h h' : bhost) : Prop :=
+  bh_cfg h' = bh_cfg h \/ exists c c', bh_cfg h = Some c /\ cfg_update c cw None = Ok c' /\ bh_cfg h' = Some c'.
+
+Lemma host_frame_refl w h : host_frame w h h.
+Proof. unfold host_frame. repeat split. Qed.
+
+Lemma hook_effect pos cfg cw h s w e E h' s' r :
+  boosted_hook pos cfg cw h s w e E = Ok (h', s', r) ->
+  same_but_rewards s s' /\
+  (forall w', w' <> w -> rw_ s' w' = rw_ s w') /\
+  host_frame w h h' /\ cfg_step cw h h' /\
+  (rw_ s' w = rw_ s w \/ (rw_ s w = [] /\ rw_ s' w = [(RTOK, acc_ h w)] /\ acc_ h' w = 0)) /\
+  (rw_ s w <> [] -> acc_ h' w = acc_ h w) /\
+  (rw_ s' w = [] -> h' = h /\ s' = s /\ r = []) /\
+  0 <= rsum r /\
+  ((rw_ s w = [] -> rem_ h w = 0) ->
+     acc_ h' w + rem_ h' w + rsum r = acc_ h w + rem_ h w /\
+     (nd h -> nd h' /\ msum h' + rsum r = msum h)) /\
+  (0 <= acc_ h w -> 0 <= rem_ h w -> 0 <= acc_ h' w /\ 0 <= rem_ h' w).
+Proof.
+  intros Hh. destruct (hook_cases _ _ _ _ _ _ _ _ _ _ _ Hh _ eq_refl) as
+      [(-> & -> & -> & _)|(fa & h1 & t & R & _ & _ & _ & _ & _ & Hc & Hpay)].
+  - split; [apply sbr_refl|]. split; [reflexivity|]. split; [apply host_frame_refl|]. split; [left; reflexivity|].
+    split; [left; reflexivity|]. split; [reflexivity|]. split; [intros; repeat split|]. split; [simpl; lia|].
+    split; [intros _; split; [simpl; lia | intros Hn; split; [exact Hn | simpl; lia]] | intros; split; assumption].
+  - (* facts about the collect step: h -> h1, s -> s' *)
+    assert (Hcol :
+      same_but_rewards s s' /\ (forall w', w' <> w -> rw_ s' w' = rw_ s w') /\ host_frame w h h1 /\ cfg_step cw h h1 /\
+      rw_ s' w = [(t, R)] /\
+      ((rw_ s w = [(t, R)] /\ h1 = h) \/
+       (rw_ s w = [] /\ t = RTOK /\ R = acc_ h w /\ bh_acc h1 = aset (bh_acc h) w 0 /\ bh_rem h1 = aset (bh_rem h) w (acc_ h w)))).
+    { destruct (collect_and_get_cases _ _ _ _ _ _ _ Hc) as [(Hne & Ht & -> & ->)|(He & c & c' & Hcfg & Hu & -> & Ht & ->)].
+      - split; [apply sbr_refl|]. split; [reflexivity|]. split; [apply host_frame_refl|]. split; [left; reflexivity|].
+        unfold rw_. rewrite <- Ht. split; [reflexivity|]. left. split; reflexivity.
+      - inversion Ht; subst t R. split; [apply sbr_set_rewards|].
+        split; [intros w' Hw'; unfold rw_; simpl; apply rget_rset_other; congruence|].
+        split; [unfold host_frame, acc_, rem_; simpl; repeat split; intros; rewrite aget_aset_other by congruence; reflexivity|].
+        split; [right; exists c, c'; repeat split; assumption|].
+        split; [unfold rw_; simpl; apply rget_rset_same|].
+        right. repeat split; assumption. }
+    destruct Hcol as (Hsbr & Hoth & Hfr & Hcs & Hrw & Hcase).
+    (* facts about the payment step: h1 -> h' *)
+    assert (Hp : exists x, 0 <= x /\ rsum r = x /\ bh_acc h' = bh_acc h1 /\
+                           bh_sup h' = bh_sup h1 /\ bh_und h' = bh_und h1 /\ bh_lastcol h' = bh_lastcol h1 /\
+                           bh_pct h' = bh_pct h1 /\ bh_cfg h' = bh_cfg h1 /\
+                           ((x = 0 /\ h' = h1) \/
+                            (0 < x /\ x <= rem_ h1 w /\ bh_rem h' = aset (bh_rem h1) w (rem_ h1 w - x)))).
+    { destruct Hpay as [(-> & -> & _)|(_ & _ & Hpos & Hle & -> & ->)].
+      - exists 0. simpl. repeat split; try reflexivity; try lia. left. split; reflexivity.
+      - eexists. split; [|split; [simpl; rewrite Z.add_0_r; reflexivity|]]; [lia|]. simpl.
+        repeat split. right. repeat split; assumption. }
+    destruct Hp as (x & Hx0 & Hrs & Pacc & Psup & Pund & Plc & Ppct & Pcfg & Hpx).
+    assert (Hrem' : rem_ h' w = rem_ h1 w - x /\ (forall w', w' <> w -> rem_ h' w' = rem_ h1 w')).
+    { destruct Hpx as [(-> & ->)|(_ & _ & Hr)]; [split; [lia | reflexivity]|].
+      unfold rem_. rewrite Hr. split; [apply aget_aset_same | intros; apply aget_aset_other; congruence]. }
+    destruct Hrem' as (Hremw & Hremo).
+    assert (Hacc' : forall w', acc_ h' w' = acc_ h1 w') by (intros; unfold acc_; rewrite Pacc; reflexivity).
+    destruct Hfr as (f1 & f2 & f3 & f4 & f5).
+    split; [exact Hsbr|]. split; [exact Hoth|].
+    split; [unfold host_frame; repeat split; try congruence;
+            [rewrite Hacc'; apply (f5 w' H) | rewrite Hremo by exact H; apply (f5 w' H)]|].
+    split; [destruct Hcs as [Hcs|(c & c' & c1 & c2 & c3)]; [left; congruence | right; exists c, c'; repeat split; congruence]|].
+    rewrite Hrs.
+    destruct Hcase as [(Hst & ->)|(Hemp & -> & -> & Lacc & Lrem)].
+    + (* the total was already frozen *)
+      split; [left; congruence|]. split; [intros _; apply Hacc'|].
+      split; [intros Hn; rewrite Hrw in Hn; discriminate|]. split; [exact Hx0|].
+      split.
+      * intros _. rewrite Hacc', Hremw. split; [lia|]. intros (N1 & N2).
+        destruct Hpx as [(-> & ->)|(_ & _ & Hr)]; [split; [split; assumption | lia]|].
+        unfold nd, msum. rewrite Pacc, Hr. split; [split; [exact N1 | apply nodup_aset; exact N2]|].
+        rewrite asum_aset by exact N2. unfold rem_. lia.
+      * intros A0 M0. rewrite Hacc', Hremw. split; [exact A0|].
+        destruct Hpx as [(-> & _)|(_ & Hle & _)]; lia.
+    + (* first claim for the week: accumulated -> remaining *)
+      assert (A1 : acc_ h1 w = 0) by (unfold acc_; rewrite Lacc; apply aget_aset_same).
+      assert (M1 : rem_ h1 w = acc_ h w) by (unfold rem_; rewrite Lrem; apply aget_aset_same).
+      split; [right; split; [exact Hemp | split; [exact Hrw | rewrite Hacc'; exact A1]]|].
+      split; [intros Hn; contradiction|].
+      split; [intros Hn; rewrite Hrw in Hn; discriminate|]. split; [exact Hx0|].
+      split.
+      * intros Hm0. specialize (Hm0 Hemp). rewrite Hacc', Hremw, A1, M1. split; [lia|]. intros (N1 & N2).
+        assert (N1' : NoDup (akeys (bh_acc h1))) by (rewrite Lacc; apply nodup_aset; exact N1).
+        assert (N2' : NoDup (akeys (bh_rem h1))) by (rewrite Lrem; apply nodup_aset; exact N2).
+        assert (S1 : msum h1 = msum h).
+        { unfold msum. rewrite Lacc, Lrem, !asum_aset by assumption. unfold acc_, rem_ in *. lia. }
+        destruct Hpx as [(-> & ->)|(_ & _ & Hr)]; [split; [split; assumption | lia]|].
+        unfold nd. rewrite Pacc, Hr. split; [split; [exact N1' | apply nodup_aset; exact N2']|].
+        unfold msum in *. rewrite Pacc, Hr, asum_aset by exact N2'. unfold rem_ in *. lia.
+      * intros A0 M0. rewrite Hacc', Hremw, A1, M1. split; [lia|].
+        destruct Hpx as [(-> & _)|(_ & Hle & _)]; lia.
+Qed.
+
+(** ================================================================== Part C: one claim *)
+Lemma hook_sbr pos cfg cw h s w e E h' s' r :
+  boosted_hook pos cfg cw h s w e E = Ok (h', s', r) -> same_but_rewards s s'.
+Proof. intros Hh. apply (hook_effect _ _ _ _ _ _ _ _ _ _ _ Hh). Qed.
+
+(** boosted payments of one claim attributed to week [w] / in total *)
+Definition wpaid (det : list (Z * list (Z * Z))) (w : Z) : Z :=
+  fold_right (fun wr acc => (if fst wr =? w then rsum (snd wr) else 0) + acc) 0 det.
+
+Lemma rsum_app a b : rsum (a ++ b) = rsum a + rsum b.
+Proof. induction a as [|x a IH]; simpl; [reflexivity | rewrite IH; lia]. Qed.
+
+Lemma pay_total_cons w r t : pay_total ((w, r) :: t) = rsum r + pay_total t.
+Proof. unfold pay_total, flat_rewards. simpl. fold (rsum (r ++ concat (map snd t))). rewrite rsum_app. reflexivity. Qed.
+
+Lemma pay_total_nil : pay_total [] = 0.
+Proof. reflexivity. Qed.
+
+Lemma wpaid_notin det w : ~ In w (map fst det) -> wpaid det w = 0.
+Proof.
+  induction det as [|[w0 r] t IH]; simpl; intros Hn; [reflexivity|].
+  destruct (w0 =? w) eqn:E; [apply Z.eqb_eq in E; exfalso; apply Hn; left; exact E|].
+  rewrite IH; [lia | intros Hi; apply Hn; right; exact Hi].
+Qed.
+
+Definition untouched (w : Z) (h : bhost) (s : wstate) (h' : bhost) (s' : wstate) : Prop :=
+  acc_ h' w = acc_ h w /\ rem_ h' w = rem_ h w /\ rw_ s' w = rw_ s w.
+
+(** effect of a claim on the pool of one of the weeks it processes, [x] being what it pays for it *)
+Definition weff (w : Z) (h : bhost) (s : wstate) (h' : bhost) (s' : wstate) (x : Z) : Prop :=
+  0 <= x /\
+  (rw_ s' w = rw_ s w \/ (rw_ s w = [] /\ rw_ s' w = [(RTOK, acc_ h w)] /\ acc_ h' w = 0)) /\
+  (rw_ s w <> [] -> acc_ h' w = acc_ h w) /\
+  (rw_ s' w = [] -> acc_ h' w = acc_ h w /\ rem_ h' w = rem_ h w /\ x = 0) /\
+  ((rw_ s w = [] -> rem_ h w = 0) -> acc_ h' w + rem_ h' w + x = acc_ h w + rem_ h w) /\
+  (0 <= acc_ h w -> 0 <= rem_ h w -> 0 <= acc_ h' w /\ 0 <= rem_ h' w).
+
+Lemma weff_pre w h s h1 s1 h' s' x : untouched w h s h1 s1 -> weff w h1 s1 h' s' x -> weff w h s h' s' x.
+Proof. unfold untouched, weff. intros (-> & -> & ->) Hw. exact Hw. Qed.
+
+Lemma weff_post w h s h1 s1 h' s' x : weff w h s h1 s1 x -> untouched w h1 s1 h' s' -> weff w h s h' s' x.
+Proof. unfold untouched, weff. intros Hw (-> & -> & ->). exact Hw. Qed.
+
+Lemma hook_weff pos cfg cw h s w e E h' s' r :
+  boosted_hook pos cfg cw h s w e E = Ok (h', s', r) -> weff w h s h' s' (rsum r).
+Proof.
+  intros Hh. destruct (hook_effect _ _ _ _ _ _ _ _ _ _ _ Hh) as (_ & _ & _ & _ & H1 & H2 & H3 & H4 & H5 & H6).
+  unfold weff. split; [exact H4|]. split; [exact H1|]. split; [exact H2|].
+  split; [intros Hn; destruct (H3 Hn) as (-> & -> & ->); repeat split|].
+  split; [intros Hm; apply (H5 Hm) | exact H6].
+Qed.
+
+(** preservation of any property of the stored config that survives bringing it to the current week *)
+Definition cfg_pres (cw : Z) (h h' : bhost) : Prop :=
+  forall P : option bconfig -> Prop,
+    (forall c c', cfg_update c cw None = Ok c' -> P (Some c) -> P (Some c')) -> P (bh_cfg h) -> P (bh_cfg h').
+
+Lemma cfg_step_pres cw h h' : cfg_step cw h h' -> cfg_pres cw h h'.
+Proof.
+  intros [Hc|(c & c' & H1 & H2 & H3)] P HP H0; [rewrite Hc; exact H0|].
+  rewrite H3. apply (HP c c' H2). rewrite <- H1. exact H0.
+Qed.
+
+Lemma claim_weeks_money pos cfg cw n : forall h s p h' s' p' det,
+  0 <= en_tok (pr_en p) ->
+  claim_weeks bhost (boosted_hook pos cfg cw) n h s p = Ok (h', s', p', det) ->
+  same_but_rewards s s' /\ map fst det = zseq (pr_week p) n /\
+  bh_sup h' = bh_sup h /\ bh_und h' = bh_und h /\ bh_lastcol h' = bh_lastcol h /\ bh_pct h' = bh_pct h /\
+  cfg_pres cw h h' /\
+  (forall w, ~ In w (zseq (pr_week p) n) -> untouched w h s h' s' /\ wpaid det w = 0) /\
+  (forall w, In w (zseq (pr_week p) n) -> weff w h s h' s' (wpaid det w)) /\
+  ((forall w, In w (zseq (pr_week p) n) -> rw_ s w = [] -> rem_ h w = 0) ->
+   nd h -> nd h' /\ msum h' + pay_total det = msum h).
+Proof.
+  induction n as [|n IH]; intros h s p h' s' p' det Ht; simpl claim_weeks.
+  - intros Heq; inversion Heq; subst. split; [apply sbr_refl|]. split; [reflexivity|].
+    repeat (split; [reflexivity|]). split; [intros P _ H0; exact H0|].
+    split; [intros w _; split; [repeat split | reflexivity]|]. split; [intros w []|].
+    intros _ Hn. split; [exact Hn | rewrite pay_total_nil; lia].
+  - intros Heq. apply bind_ok in Heq. destruct Heq as ([[[h1 s1] p1] r] & Hs & Heq).
+    apply bind_ok in Heq. destruct Heq as ([[[h2 s2] p2] rs] & Hr & Heq). inversion Heq; subst; clear Heq.
+    unfold claim_single in Hs. apply bind_ok in Hs. destruct Hs as ([[hx sx] rx] & Hh & Hs). inversion Hs; subst; clear Hs.
+    rewrite advance_week_adv in Hr by assumption.
+    assert (Ht1 : 0 <= en_tok (pr_en (adv p 1))) by (rewrite adv_tok; exact Ht).
+    destruct (IH _ _ _ _ _ _ _ Ht1 Hr) as (I1 & I2 & I3 & I4 & I5 & I6 & I7 & I8 & I9 & I10). clear IH.
+    rewrite adv_week in *.
+    destruct (hook_effect _ _ _ _ _ _ _ _ _ _ _ Hh) as (E1 & E2 & E3 & E4 & _ & _ & _ & _ & E9 & _).
+    pose proof (hook_weff _ _ _ _ _ _ _ _ _ _ _ Hh) as Ew.
+    destruct E3 as (f1 & f2 & f3 & f4 & f5).
+    assert (Hnot0 : ~ In (pr_week p) (zseq (pr_week p + 1) n)) by (rewrite zseq_in; lia).
+    assert (Hun1 : forall w, w <> pr_week p -> untouched w h s h1 s1).
+    { intros w Hw. unfold untouched. destruct (f5 w Hw) as (a1 & a2). split; [exact a1|]. split; [exact a2 | apply E2; exact Hw]. }
+    split; [eapply sbr_trans; eassumption|]. split; [simpl; rewrite I2; reflexivity|].
+    split; [congruence|]. split; [congruence|]. split; [congruence|]. split; [congruence|].
+    split; [intros P HP H0; apply (I7 P HP); apply (cfg_step_pres _ _ _ E4 P HP H0)|].
+    split; [|split].
+    + intros w Hn. simpl in Hn. assert (Hw : w <> pr_week p) by (intros ->; apply Hn; left; reflexivity).
+      assert (Hn2 : ~ In w (zseq (pr_week p + 1) n)) by (intros Hi; apply Hn; right; exact Hi).
+      destruct (I8 w Hn2) as ((u1 & u2 & u3) & Hz). destruct (Hun1 w Hw) as (v1 & v2 & v3).
+      split; [unfold untouched; repeat split; congruence|].
+      simpl. destruct (pr_week p =? w) eqn:E; [apply Z.eqb_eq in E; congruence | lia].
+    + intros w Hin. simpl in Hin. simpl wpaid. destruct Hin as [<-|Hin].
+      * rewrite Z.eqb_refl. destruct (I8 _ Hnot0) as (Hu & ->). rewrite Z.add_0_r.
+        apply (weff_post _ _ _ _ _ _ _ _ Ew Hu).
+      * assert (Hw : w <> pr_week p) by (intros ->; contradiction).
+        destruct (pr_week p =? w) eqn:E; [apply Z.eqb_eq in E; congruence|]. simpl.
+        apply (weff_pre _ _ _ _ _ _ _ _ (Hun1 w Hw) (I9 w Hin)).
+    + intros Hm Hn. rewrite pay_total_cons.
+      assert (Hm0 : rw_ s (pr_week p) = [] -> rem_ h (pr_week p) = 0) by (apply Hm; left; reflexivity).
+      destruct (E9 Hm0) as (_ & Hnd). destruct (Hnd Hn) as (Hn1 & Hs1).
+      assert (Hm1 : forall w, In w (zseq (pr_week p + 1) n) -> rw_ s1 w = [] -> rem_ h1 w = 0).
+      { intros w Hin Hrw. assert (Hw : w <> pr_week p) by (intros ->; contradiction).
+        destruct (Hun1 w Hw) as (_ & v2 & v3). rewrite v2. apply Hm; [right; exact Hin | rewrite <- v3; exact Hrw]. }
+      destruct (I10 Hm1 Hn1) as (Hn2 & Hs2). split; [exact Hn2 | lia].
+Qed.
+
+(** ------------------------------------------------------------------ the module call claim_boosted_yields_rewards *)
+Definition claim_range (p : progress) (cw : Z) : list Z := zseq (first_claim_week p cw) (nr_claim_weeks p cw).
+
+Lemma claim_range_window p cw w : pr_week p <= cw -> In w (claim_range p cw) -> cw - MAXW <= w < cw /\ pr_week p <= w.
+Proof.
+  pose proof max_weeks_nonneg. unfold claim_range, first_claim_week, nr_claim_weeks. rewrite zseq_in. lia.
+Qed.
+
+(** the global part of a user touch changes the frozen totals only by dropping the entry of the week
+    that left the claim window *)
+Definition rw_weak (cw : Z) (s s' : wstate) : Prop :=
+  forall w, rw_ s' w = rw_ s w \/ (rw_ s' w = [] /\ w = cleared_week cw).
+
+Lemma rw_weak_refl cw s : rw_weak cw s s.
+Proof. intros w. left. reflexivity. Qed.
+
+Lemma uue_weak s cw cur op s1 : update_user_energy s cw cur op = Ok s1 -> rw_weak cw s s1.
+Proof.
+  intros Hu w. destruct (update_user_energy_frame _ _ _ _ _ Hu) as (_ & _ & _ & Hr).
+  destruct (Z.eq_dec w (cleared_week cw)) as [->|Hne]; [|left; apply Hr; exact Hne].
+  destruct (update_user_energy_rewards _ _ _ _ _ Hu (cleared_week cw)) as [H|H]; [left; exact H | right; split; [exact H | reflexivity]].
+Qed.
+
+Lemma store_progress_rw s u cw cur w : rw_ (store_progress s u cw cur) w = rw_ s w.
+Proof. unfold rw_. rewrite store_progress_rewards. reflexivity. Qed.
+
+(** what one boosted claim does: [rng] = the weeks it processes *)
+Definition claim_summary (cw : Z) (h : bhost) (s : wstate) (h' : bhost) (s' : wstate)
+  (det : list (Z * list (Z * Z))) (rng : list Z) : Prop :=
+  map fst det = rng /\
+  bh_sup h' = bh_sup h /\ bh_und h' = bh_und h /\ bh_lastcol h' = bh_lastcol h /\ bh_pct h' = bh_pct h /\
+  cfg_pres cw h h' /\
+  (forall w, ~ In w rng -> acc_ h' w = acc_ h w /\ rem_ h' w = rem_ h w /\ wpaid det w = 0 /\
+                          (rw_ s' w = rw_ s w \/ (rw_ s' w = [] /\ w = cleared_week cw))) /\
+  (forall w, In w rng -> weff w h s h' s' (wpaid det w)) /\
+  ((forall w, In w rng -> rw_ s w = [] -> rem_ h w = 0) -> nd h -> nd h' /\ msum h' + pay_total det = msum h).
+
+Lemma weff_rw w h s h' s' s0 s0' x : rw_ s w = rw_ s0 w -> rw_ s' w = rw_ s0' w -> weff w h s0 h' s0' x -> weff w h s h' s' x.
+Proof. unfold weff. intros -> ->. tauto. Qed.
+
+Lemma claim_boosted_summary h s u pos cw cur h' s' det :
+  (forall p, pfind (w_prog s) u = Some p -> 0 <= en_tok (pr_en p)) ->
+  claim_boosted h s u pos cw cur = Ok (h', s', det) ->
+  (bh_cfg h = None /\ h' = h /\ s' = s /\ det = []) \/
+  (exists c cfg s1,
+     bh_cfg h = Some c /\ cfg_update c cw None = Ok cfg /\
+     update_user_energy s cw cur (pfind (w_prog s) u) = Ok s1 /\
+     w_prog s' = progress_after (w_prog s) u cw cur /\ w_last s' = cw /\ w_energy s' = w_energy s1 /\
+     match pfind (w_prog s) u with
+     | None => det = [] /\ h' = h /\ s' = store_progress s1 u cw cur
+     | Some p => pr_week p <= cw /\
+         exists s2, s' = store_progress s2 u cw cur /\
+         claim_weeks bhost (boosted_hook pos cfg cw) (nr_claim_weeks p cw) h s1 (adv p (first_claim_week p cw - pr_week p))
+           = Ok (h', s2, adv p (cw - pr_week p), det)
+     end /\
+     claim_summary cw h s h' s' det (match pfind (w_prog s) u with Some p => claim_range p cw | None => [] end)).
+Proof.
+  intros Hwf. unfold claim_boosted, try_get_cfg. destruct (bh_cfg h) as [c|] eqn:Ec.
+  - intros Heq. right. apply bind_ok in Heq. destruct Heq as (oc & Hoc & Heq).
+    apply bind_ok in Hoc. destruct Hoc as (cfg & Hu & Hoc). inversion Hoc; subst oc; clear Hoc.
+    destruct (claim_multi_spec bhost _ (hook_sbr pos cfg cw) _ _ _ _ _ _ _ _ Hwf Heq) as (s1 & s2 & Hue & Hsbr & Hs' & Hpa & Hm).
+    destruct (update_user_energy_frame _ _ _ _ _ Hue) as (_ & Hl1 & _).
+    pose proof (uue_weak _ _ _ _ _ Hue) as Hwk.
+    exists c, cfg, s1. split; [reflexivity|]. split; [exact Hu|]. split; [exact Hue|]. split; [exact Hpa|].
+    assert (Hlast : w_last s' = cw).
+    { rewrite Hs'. destruct Hsbr as (_ & _ & _ & f4 & _). unfold store_progress. destruct (0 <? en_amount cur); simpl; congruence. }
+    split; [exact Hlast|].
+    assert (Hen : w_energy s' = w_energy s1).
+    { rewrite Hs', store_progress_energy. destruct Hsbr as (_ & f2 & _). exact f2. }
+    split; [exact Hen|].
+    destruct (pfind (w_prog s) u) as [p|] eqn:Ep.
+    + destruct Hm as (Hle & Hmap & Hcw). split; [split; [exact Hle | exists s2; split; [exact Hs' | exact Hcw]]|].
+      assert (Ht : 0 <= en_tok (pr_en (adv p (first_claim_week p cw - pr_week p)))) by (rewrite adv_tok; apply Hwf; reflexivity).
+      destruct (claim_weeks_money _ _ _ _ _ _ _ _ _ _ _ Ht Hcw) as (_ & M2 & M3 & M4 & M5 & M6 & M7 & M8 & M9 & M10).
+      assert (Hst : pr_week (adv p (first_claim_week p cw - pr_week p)) = first_claim_week p cw) by (rewrite adv_week; lia).
+      rewrite Hst in *. fold (claim_range p cw) in *.
+      assert (Hnc : forall w, In w (claim_range p cw) -> w <> cleared_week cw).
+      { intros w Hin. apply (claim_range_window _ _ _ Hle) in Hin. unfold cleared_week. lia. }
+      assert (Hrw1 : forall w, In w (claim_range p cw) -> rw_ s1 w = rw_ s w).
+      { intros w Hin. destruct (Hwk w) as [H|(_ & H)]; [exact H | exfalso; apply (Hnc w Hin H)]. }
+      unfold claim_summary. split; [exact M2|]. repeat (split; [assumption|]).
+      split; [|split].
+      * intros w Hn. destruct (M8 w Hn) as ((u1 & u2 & u3) & Hz). split; [exact u1|]. split; [exact u2|]. split; [exact Hz|].
+        rewrite Hs', store_progress_rw, u3. apply Hwk.
+      * intros w Hin. apply (weff_rw _ _ _ _ _ s1 s2); [symmetry; apply Hrw1; exact Hin | rewrite Hs'; apply store_progress_rw | apply M9; exact Hin].
+      * intros Hm0 Hn. apply M10; [|exact Hn]. intros w Hin Hr. apply Hm0; [exact Hin | rewrite <- Hrw1 by exact Hin; exact Hr].
+    + destruct Hm as (-> & -> & ->). split; [repeat split; exact Hs'|].
+      unfold claim_summary. split; [reflexivity|]. repeat (split; [reflexivity|]).
+      split; [intros P _ H0; exact H0|]. split; [|split].
+      * intros w _. split; [reflexivity|]. split; [reflexivity|]. split; [reflexivity|]. rewrite Hs', store_progress_rw. apply Hwk.
+      * intros w [].
+      * intros _ Hn. split; [exact Hn | rewrite pay_total_nil; lia].
+  - intros Heq. simpl in Heq. inversion Heq; subst. left. repeat split.
+Qed.
+
+(** ================================================================== Part D: reachable states *)
+(** ------------------------------------------------------------------ ghost ledger *)
+Record bghost := mkG {
+  g_cuts : list (Z * Z);        (* week -> sum of the cuts take_reward_slice moved into its pool *)
+  g_paid : list (Z * Z);        (* week -> sum of the boosted payments made for it *)
+  g_swept : list (Z * Z);       (* week -> what collectUndistributedBoostedRewards took from it *)
+  g_tcuts : Z; g_tpaid : Z; g_tswept : Z;                     (* the same, over all weeks *)
+  g_fac : option (factors * list (Z * factors))               (* first accepted factors, later accepted (week, factors) *)
+}.
+Definition bg0 : bghost := mkG [] [] [] 0 0 0 None.
+
+Definition add_at (l : list (Z * Z)) (k x : Z) : list (Z * Z) := aset l k (aget l k + x).
+Definition add_all (l : list (Z * Z)) (es : list (Z * Z)) : list (Z * Z) :=
+  fold_right (fun p acc => add_at acc (fst p) (snd p)) l es.
+Definition psum_at (es : list (Z * Z)) (w : Z) : Z :=
+  fold_right (fun p acc => (if fst p =? w then snd p else 0) + acc) 0 es.
+Definition total (es : list (Z * Z)) : Z := fold_right (fun p acc => snd p + acc) 0 es.
+Definition det_entries (det : list (Z * list (Z * Z))) : list (Z * Z) := map (fun wr => (fst wr, rsum (snd wr))) det.
+
+Lemma aget_add_at l k x w : aget (add_at l k x) w = aget l w + (if k =? w then x else 0).
+Proof.
+  unfold add_at. rewrite aget_aset_pt. destruct (k =? w) eqn:E; [apply Z.eqb_eq in E; subst; reflexivity | lia].
+Qed.
+
+Lemma aget_add_all es : forall l w, aget (add_all l es) w = aget l w + psum_at es w.
+Proof.
+  induction es as [|[k x] t IH]; intros l w; simpl; [lia|]. rewrite aget_add_at, IH. lia.
+Qed.
+
+Lemma psum_det det w : psum_at (det_entries det) w = wpaid det w.
+Proof. induction det as [|[k r] t IH]; simpl; [reflexivity | rewrite IH; reflexivity]. Qed.
+
+Definition gcuts (g : bghost) (w : Z) : Z := aget (g_cuts g) w.
+Definition gpaid (g : bghost) (w : Z) : Z := aget (g_paid g) w.
+Definition gswept (g : bghost) (w : Z) : Z := aget (g_swept g) w.
+
+Definition bcur_week (s : bst) : Z := (b_epoch s - b_first s) / WK + 1.
+
+Lemma current_week_b s cw : current_week s = Ok cw -> cw = bcur_week s /\ b_first s <= b_epoch s.
+Proof.
+  unfold current_week, week_for_epoch, bcur_week. destruct (b_first s <=? b_epoch s) eqn:E; [|discriminate].
+  apply Z.leb_le in E. intros Heq; inversion Heq; split; [reflexivity | exact E].
+Qed.
+
+Lemma bcur_week_pos s : b_first s <= b_epoch s -> 1 <= bcur_week s.
+Proof.
+  intros H. unfold bcur_week. pose proof week_pos. pose proof (Z.div_pos (b_epoch s - b_first s) WK). lia.
+Qed.
+
+Definition fac_event (op : bop) (cw : Z) (gf : option (factors * list (Z * factors))) :=
+  match op with
+  | BSetFactors _ f => match gf with None => Some (f, []) | Some (f0, log) => Some (f0, log ++ [(cw, f)]) end
+  | _ => gf
+  end.
+
+Definition gupd (g : bghost) (op : bop) (cw : Z) (out : bout) : bghost :=
+  mkG (add_at (g_cuts g) cw (o_cut out)) (add_all (g_paid g) (det_entries (o_det out))) (add_all (g_swept g) (o_swept out))
+      (g_tcuts g + o_cut out) (g_tpaid g + o_b out) (g_tswept g + total (o_swept out))
+      (fac_event op cw (g_fac g)).
+
+Definition bgstep (sg : bst * bghost) (op : bop) : bst * bghost :=
+  match step (fst sg) op with
+  | Ok (s', out) => (s', gupd (snd sg) op (bcur_week (fst sg)) out)
+  | Err _ => sg
+  end.
+Definition bgrun (sg : bst * bghost) (ops : list bop) : bst * bghost := fold_left bgstep ops sg.
+
+Lemma bgrun_fst ops : forall s g, fst (bgrun (s, g) ops) = run s ops.
+Proof.
+  unfold bgrun, run. induction ops as [|op t IH]; intros s g; simpl; [reflexivity|].
+  unfold bgstep at 2, step_total at 2. simpl. destruct (step s op) as [[s' o]|]; apply IH.
+Qed.
+
+(** ------------------------------------------------------------------ the money invariant *)
+Record MInv (cw : Z) (h : bhost) (rw : Z -> list (Z * Z)) (g : bghost) : Prop := mkM {
+  m_nn : forall w, 0 <= acc_ h w /\ 0 <= rem_ h w;
+  m_und : bh_und h = g_tswept g /\ 0 <= bh_und h;
+  m_gnn : forall w, 0 <= gpaid g w /\ 0 <= gswept g w;
+  m_nd : nd h;
+  m_week : forall w, gcuts g w = acc_ h w + rem_ h w + gpaid g w + gswept g w;
+  m_glob : msum h + bh_und h + g_tpaid g = g_tcuts g;
+  m_fut : forall w, rw w <> [] -> w < cw;
+  m_win : forall w, cw - MAXW <= w -> rw w = [] -> rem_ h w = 0 /\ gpaid g w = 0;
+  m_frozen : forall w, rw w <> [] -> rw w = [(RTOK, gcuts g w)] /\ acc_ h w = 0;
+  m_swept : forall w, gswept g w <> 0 -> 1 <= w <= bh_lastcol h;
+  m_lastcol : 0 <= bh_lastcol h /\ (bh_lastcol h = 0 \/ bh_lastcol h + MAXW + 1 <= cw);
+  m_done : forall w, 1 <= w <= bh_lastcol h -> acc_ h w = 0 /\ rem_ h w = 0
+}.
+
+Lemma m_window_unswept cw h rw g w : MInv cw h rw g -> cw - MAXW <= w -> gswept g w = 0 /\ ~ (1 <= w <= bh_lastcol h).
+Proof.
+  intros M Hw. destruct (m_lastcol _ _ _ _ M) as (L0 & L1).
+  assert (Hn : ~ (1 <= w <= bh_lastcol h)) by lia. split; [|exact Hn].
+  destruct (Z.eq_dec (gswept g w) 0) as [E|E]; [exact E|]. exfalso. apply Hn. apply (m_swept _ _ _ _ M w E).
+Qed.
+
+Lemma MInv_init cw : MInv cw init_bh (fun _ => []) bg0.
+Proof.
+  constructor; simpl; unfold acc_, rem_, gcuts, gpaid, gswept, msum, nd; simpl; intros; try lia; try (split; lia); try congruence;
+    try (split; constructor).
+Qed.
+
+(** time only moves the window *)
+Lemma MInv_advance cw cw' h rw g : cw <= cw' -> MInv cw h rw g -> MInv cw' h rw g.
+Proof.
+  intros Hle M. destruct M. constructor; try assumption.
+  - intros w Hw. specialize (m_fut0 w Hw). lia.
+  - intros w Hw. apply m_win0. lia.
+  - lia.
+Qed.
+
+(** dropping the frozen total of a week that left the window *)
+Lemma MInv_weaken cw h rw rw' g :
+  (forall w, rw' w = rw w \/ (rw' w = [] /\ w < cw - MAXW)) -> MInv cw h rw g -> MInv cw h rw' g.
+Proof.
+  intros Hw M. destruct M. constructor; try assumption.
+  - intros w Hn. destruct (Hw w) as [E|(E & _)]; [rewrite E in Hn; apply m_fut0; exact Hn | contradiction].
+  - intros w Hc Hn. destruct (Hw w) as [E|(_ & E)]; [rewrite E in Hn; apply m_win0; assumption | lia].
+  - intros w Hn. destruct (Hw w) as [E|(E & _)]; [rewrite E in *; apply m_frozen0; exact Hn | contradiction].
+Qed.
+
+Lemma rw_weak_MInv cw h s s' g : rw_weak cw s s' -> MInv cw h (rw_ s) g -> MInv cw h (rw_ s') g.
+Proof.
+  intros Hw. apply MInv_weaken. intros w. destruct (Hw w) as [E|(E & ->)]; [left; exact E | right; split; [exact E | unfold cleared_week; lia]].
+Qed.
+
+(** only the module's money storage matters *)
+Lemma MInv_ext cw h h' rw g :
+  bh_acc h' = bh_acc h -> bh_rem h' = bh_rem h -> bh_und h' = bh_und h -> bh_lastcol h' = bh_lastcol h ->
+  MInv cw h rw g -> MInv cw h' rw g.
+Proof.
+  intros E1 E2 E3 E4 M. destruct M. unfold acc_, rem_, msum, nd in *.
+  constructor; unfold acc_, rem_, msum, nd; rewrite ?E1, ?E2, ?E3, ?E4; assumption.
+Qed.
+
+Lemma MInv_gext cw h rw g g' :
+  (forall w, gcuts g' w = gcuts g w) -> (forall w, gpaid g' w = gpaid g w) -> (forall w, gswept g' w = gswept g w) ->
+  g_tcuts g' = g_tcuts g -> g_tpaid g' = g_tpaid g -> g_tswept g' = g_tswept g ->
+  MInv cw h rw g -> MInv cw h rw g'.
+Proof.
+  intros E1 E2 E3 E4 E5 E6 M. destruct M.
+  constructor; intros; rewrite ?E1, ?E2, ?E3, ?E4, ?E5, ?E6; auto.
+  rewrite E3 in H. auto.
+Qed.
+
+Definition g_cut (g : bghost) (cw x : Z) : bghost :=
+  mkG (add_at (g_cuts g) cw x) (g_paid g) (g_swept g) (g_tcuts g + x) (g_tpaid g) (g_tswept g) (g_fac g).
+Definition g_pay (g : bghost) (det : list (Z * list (Z * Z))) : bghost :=
+  mkG (g_cuts g) (add_all (g_paid g) (det_entries det)) (g_swept g) (g_tcuts g) (g_tpaid g + pay_total det) (g_tswept g) (g_fac g).
+Definition g_sweep (g : bghost) (l : list (Z * Z)) : bghost :=
+  mkG (g_cuts g) (g_paid g) (add_all (g_swept g) l) (g_tcuts g) (g_tpaid g) (g_tswept g + total l) (g_fac g).
+
+(** take_reward_slice *)
+Lemma slice_spec h cw full h' base cut :
+  0 <= full -> 0 <= bh_pct h -> take_reward_slice h cw full = Ok (h', base, cut) ->
+  0 <= cut /\
+  cut = (if (bh_pct h =? 0) || (match bh_cfg h with None => true | Some _ => false end) then 0
+         else full * bh_pct h / BOOSTED_MAX_PERCENT) /\
+  ((cut = 0 /\ h' = h) \/ (0 < cut /\ h' = set_acc h cw (acc_ h cw + cut))) /\ base = full - cut.
+Proof.
+  intros Hf Hp. unfold take_reward_slice.
+  destruct ((bh_pct h =? 0) || match bh_cfg h with None => true | Some _ => false end).
+  - intros Heq; inversion Heq; subst. split; [lia|]. split; [reflexivity|]. split; [left; split; reflexivity | lia].
+  - set (c := full * bh_pct h / BOOSTED_MAX_PERCENT).
+    assert (Hc : 0 <= c). { unfold c. apply Z.div_pos; [nia | vm_compute; reflexivity]. }
+    destruct (0 <? c) eqn:E.
+    + apply Z.ltb_lt in E. intros Heq. apply bind_ok in Heq. destruct Heq as (b & Hs & Heq). apply sub_chk_ok in Hs.
+      inversion Heq; subst. split; [lia|]. split; [reflexivity|]. split; [right; split; [exact E | reflexivity] | lia].
+    + apply Z.ltb_ge in E. intros Heq; inversion Heq; subst. assert (c = 0) by lia.
+      split; [lia|]. split; [reflexivity|]. split; [left; split; [assumption | reflexivity] | lia].
+Qed.
+
+Lemma M_slice cw h rw g h' cut :
+  MInv cw h rw g -> 1 <= cw -> 0 <= cut ->
+  ((cut = 0 /\ h' = h) \/ (0 < cut /\ h' = set_acc h cw (acc_ h cw + cut))) ->
+  MInv cw h' rw (g_cut g cw cut).
+Proof.
+  intros M Hcw Hc Hcase.
+  assert (Hacc : forall w, acc_ h' w = acc_ h w + (if cw =? w then cut else 0)).
+  { intros w. destruct Hcase as [(-> & ->)|(_ & ->)]; [destruct (cw =? w); lia|].
+    unfold acc_; simpl. rewrite aget_aset_pt. destruct (cw =? w) eqn:E; [apply Z.eqb_eq in E; subst; reflexivity | lia]. }
+  assert (Hrem : bh_rem h' = bh_rem h) by (destruct Hcase as [(_ & ->)|(_ & ->)]; reflexivity).
+  assert (Hund : bh_und h' = bh_und h) by (destruct Hcase as [(_ & ->)|(_ & ->)]; reflexivity).
+  assert (Hlc : bh_lastcol h' = bh_lastcol h) by (destruct Hcase as [(_ & ->)|(_ & ->)]; reflexivity).
+  assert (Hnd : nd h' /\ msum h' = msum h + cut).
+  { destruct (m_nd _ _ _ _ M) as (N1 & N2). destruct Hcase as [(-> & ->)|(_ & ->)]; [split; [split; assumption | lia]|].
+    unfold nd, msum; simpl. split; [split; [apply nodup_aset; exact N1 | exact N2]|].
+    rewrite asum_aset by exact N1. unfold acc_. lia. }
+  assert (Hgc : forall w, gcuts (g_cut g cw cut) w = gcuts g w + (if cw =? w then cut else 0))
+    by (intros w; unfold gcuts; simpl; apply aget_add_at).
+  destruct M. unfold rem_ in *. pose proof max_weeks_nonneg as HMX.
+  assert (Hlt : forall w, 1 <= w <= bh_lastcol h -> (cw =? w) = false) by (intros w Hw; apply Z.eqb_neq; lia).
+  constructor; unfold rem_, gpaid, gswept; simpl; rewrite ?Hrem, ?Hund, ?Hlc; try assumption.
+  - intros w. rewrite Hacc. destruct (m_nn0 w). split; [destruct (cw =? w); lia | assumption].
+  - apply Hnd.
+  - intros w. rewrite Hacc, Hgc. specialize (m_week0 w). unfold gpaid, gswept in m_week0. lia.
+  - destruct Hnd as (_ & ->). lia.
+  - intros w Hn. destruct (m_frozen0 w Hn) as (F1 & F2). specialize (m_fut0 w Hn).
+    assert (E : (cw =? w) = false) by (apply Z.eqb_neq; lia). rewrite Hacc, Hgc, E, !Z.add_0_r. split; assumption.
+  - intros w Hw. rewrite Hacc, (Hlt w Hw), Z.add_0_r. apply m_done0. exact Hw.
+Qed.
+
+(** one boosted claim *)
+Lemma M_claim cw h s h' s' det rng g :
+  MInv cw h (rw_ s) g -> claim_summary cw h s h' s' det rng -> (forall w, In w rng -> cw - MAXW <= w < cw) ->
+  MInv cw h' (rw_ s') (g_pay g det).
+Proof.
+  intros M (S1 & S2 & S3 & S4 & S5 & S6 & Sout & Sin & Ssum) Hrng.
+  assert (Hgp : forall w, gpaid (g_pay g det) w = gpaid g w + wpaid det w).
+  { intros w. unfold gpaid; simpl. rewrite aget_add_all, psum_det. reflexivity. }
+  assert (Hm0 : forall w, In w rng -> rw_ s w = [] -> rem_ h w = 0).
+  { intros w Hin Hr. apply (m_win _ _ _ _ M w); [apply Hrng; exact Hin | exact Hr]. }
+  destruct (Ssum Hm0 (m_nd _ _ _ _ M)) as (Hnd' & Hms).
+  assert (Hdec : forall w, In w rng \/ ~ In w rng) by (intros w; destruct (in_dec Z.eq_dec w rng); auto).
+  pose proof max_weeks_nonneg as HMX.
+  assert (Hgc : forall w, gcuts (g_pay g det) w = gcuts g w) by reflexivity.
+  assert (Hgs : forall w, gswept (g_pay g det) w = gswept g w) by reflexivity.
+  constructor; simpl; intros; rewrite ?Hgc, ?Hgs, ?Hgp.
+  - destruct (Hdec w) as [Hin|Hn].
+    + destruct (Sin w Hin) as (_ & _ & _ & _ & _ & W6). destruct (m_nn _ _ _ _ M w). apply W6; assumption.
+    + destruct (Sout w Hn) as (-> & -> & _). apply (m_nn _ _ _ _ M).
+  - rewrite S3. apply (m_und _ _ _ _ M).
+  - destruct (m_gnn _ _ _ _ M w) as (G1 & G2). split; [|exact G2].
+    destruct (Hdec w) as [Hin|Hn]; [destruct (Sin w Hin) as (W1 & _); lia | destruct (Sout w Hn) as (_ & _ & -> & _); lia].
+  - exact Hnd'.
+  - pose proof (m_week _ _ _ _ M w) as Hw. destruct (Hdec w) as [Hin|Hn].
+    + destruct (Sin w Hin) as (_ & _ & _ & _ & W5 & _). specialize (W5 (Hm0 w Hin)). lia.
+    + destruct (Sout w Hn) as (-> & -> & -> & _). lia.
+  - rewrite S3. pose proof (m_glob _ _ _ _ M). lia.
+  - rename H into Hne. destruct (Hdec w) as [Hin|Hn]; [apply Hrng; exact Hin|].
+    destruct (Sout w Hn) as (_ & _ & _ & [E|(E & _)]); [rewrite E in Hne; apply (m_fut _ _ _ _ M w Hne) | contradiction].
+  - rename H into Hc. rename H0 into He. destruct (Hdec w) as [Hin|Hn].
+    + destruct (Sin w Hin) as (_ & W2 & _ & W4 & _). destruct (W4 He) as (_ & -> & ->).
+      destruct W2 as [E|(_ & E & _)]; [|rewrite E in He; discriminate]. rewrite E in He.
+      destruct (m_win _ _ _ _ M w Hc He) as (-> & ->). split; lia.
+    + destruct (Sout w Hn) as (_ & -> & -> & [E|(_ & E)]); [|unfold cleared_week in E; lia].
+      rewrite E in He. destruct (m_win _ _ _ _ M w Hc He) as (-> & ->). split; lia.
+  - rename H into Hne. destruct (Hdec w) as [Hin|Hn].
+    + destruct (Sin w Hin) as (_ & W2 & W3 & _). destruct W2 as [E|(E0 & E1 & E2)].
+      * rewrite E in *. destruct (m_frozen _ _ _ _ M w Hne) as (F1 & F2). split; [exact F1|]. rewrite (W3 Hne). exact F2.
+      * split; [|exact E2]. rewrite E1. f_equal. f_equal.
+        destruct (Hrng w Hin) as (Hlo & _).
+        destruct (m_win _ _ _ _ M w Hlo E0) as (R0 & P0). destruct (m_window_unswept _ _ _ _ w M Hlo) as (Sw0 & _).
+        pose proof (m_week _ _ _ _ M w). lia.
+    + destruct (Sout w Hn) as (A & _ & _ & [E|(E & _)]); [|contradiction]. rewrite E in *. rewrite A. apply (m_frozen _ _ _ _ M w Hne).
+  - rewrite S4. apply (m_swept _ _ _ _ M w H).
+  - rewrite S4. apply (m_lastcol _ _ _ _ M).
+  - rename H into Hw. rewrite S4 in Hw. assert (Hn : ~ In w rng).
+    { intros Hin. destruct (Hrng w Hin) as (Hlo & _). destruct (m_window_unswept _ _ _ _ w M Hlo) as (_ & Hx). apply Hx. exact Hw. }
+    destruct (Sout w Hn) as (-> & -> & _). apply (m_done _ _ _ _ M w Hw).
+Qed.
+
+(** collectUndistributedBoostedRewards: the sweep loop *)
+Definition in_rng (a : Z) (n : nat) (w : Z) : bool := (a <=? w) && (w <? a + Z.of_nat n).
+
+Lemma in_rng_0 a w : in_rng a 0 w = false.
+Proof.
+  unfold in_rng. destruct (a <=? w) eqn:E1; [|reflexivity]. apply Z.leb_le in E1. apply Z.ltb_ge. simpl. lia.
+Qed.
+
+Lemma in_rng_S a n w : in_rng a (S n) w = (a =? w) || in_rng (a + 1) n w.
+Proof.
+  unfold in_rng. rewrite Nat2Z.inj_succ. destruct (a =? w) eqn:E.
+  - apply Z.eqb_eq in E. subst w. apply andb_true_iff. split; [apply Z.leb_le | apply Z.ltb_lt]; lia.
+  - apply Z.eqb_neq in E. rewrite orb_false_l. replace (a + 1 + Z.of_nat n) with (a + Z.succ (Z.of_nat n)) by lia.
+    destruct (w <? a + Z.succ (Z.of_nat n)); rewrite ?andb_true_r, ?andb_false_r; [|reflexivity].
+    destruct (a <=? w) eqn:E1; destruct (a + 1 <=? w) eqn:E2; try reflexivity;
+      try (apply Z.leb_le in E1); try (apply Z.leb_gt in E1); try (apply Z.leb_le in E2); try (apply Z.leb_gt in E2); lia.
+Qed.
+
+Lemma psum_at_zseq (f : Z -> Z) n : forall a w,
+  psum_at (map (fun k => (k, f k)) (zseq a n)) w = if in_rng a n w then f w else 0.
+Proof.
+  induction n as [|n IH]; intros a w.
+  - rewrite in_rng_0. reflexivity.
+  - rewrite in_rng_S. cbn [zseq map psum_at fold_right fst snd]. fold (psum_at (map (fun k => (k, f k)) (zseq (a + 1) n)) w).
+    rewrite IH. destruct (a =? w) eqn:E.
+    + apply Z.eqb_eq in E. subst w. assert (E1 : in_rng (a + 1) n a = false).
+      { unfold in_rng. assert (E2 : (a + 1 <=? a) = false) by (apply Z.leb_gt; lia). rewrite E2. reflexivity. }
+      rewrite E1. simpl. lia.
+    + simpl. reflexivity.
+Qed.
+
+Lemma sweep_spec n : forall a h h' l, sweep n a h = (h', l) ->
+  l = map (fun k => (k, rem_ h k + acc_ h k)) (zseq a n) /\
+  (forall w, acc_ h' w = if in_rng a n w then 0 else acc_ h w) /\
+  (forall w, rem_ h' w = if in_rng a n w then 0 else rem_ h w) /\
+  bh_und h' = bh_und h + total l /\ bh_sup h' = bh_sup h /\ bh_lastcol h' = bh_lastcol h /\ bh_pct h' = bh_pct h /\
+  bh_cfg h' = bh_cfg h /\ (nd h -> nd h' /\ msum h' + total l = msum h).
+Proof.
+  induction n as [|n IH]; intros a h h' l; simpl sweep.
+  - intros Heq; inversion Heq; subst. split; [reflexivity|].
+    split; [intros w; rewrite in_rng_0; reflexivity|]. split; [intros w; rewrite in_rng_0; reflexivity|].
+    simpl. repeat (split; [lia || reflexivity|]). intros Hn. split; [exact Hn | lia].
+  - set (x := aget (bh_rem h) a + aget (bh_acc h) a).
+    set (h1 := set_und (set_acc (set_rem h a 0) a 0) (bh_und h + x)).
+    destruct (sweep n (a + 1) h1) as [h2 l2] eqn:Es. intros Heq; inversion Heq; subst h' l; clear Heq.
+    destruct (IH _ _ _ _ Es) as (I1 & I2 & I3 & I4 & I5 & I6 & I7 & I8 & I9). clear IH.
+    assert (A1 : forall w, acc_ h1 w = if a =? w then 0 else acc_ h w)
+      by (intros w; unfold acc_, h1; simpl; apply aget_aset_pt).
+    assert (R1 : forall w, rem_ h1 w = if a =? w then 0 else rem_ h w)
+      by (intros w; unfold rem_, h1; simpl; apply aget_aset_pt).
+    pose proof (in_rng_S a n) as Hb.
+    split.
+    { simpl. f_equal. rewrite I1. apply map_ext_in. intros k Hk. apply zseq_in in Hk.
+      rewrite A1, R1. assert (E : (a =? k) = false) by (apply Z.eqb_neq; lia). rewrite E. reflexivity. }
+    split; [intros w; rewrite I2, Hb, A1; destruct (a =? w); destruct (in_rng (a + 1) n w); reflexivity|].
+    split; [intros w; rewrite I3, Hb, R1; destruct (a =? w); destruct (in_rng (a + 1) n w); reflexivity|].
+    split; [rewrite I4; unfold h1; simpl; unfold x; lia|].
+    split; [rewrite I5; reflexivity|]. split; [rewrite I6; reflexivity|]. split; [rewrite I7; reflexivity|].
+    split; [rewrite I8; reflexivity|].
+    intros (N1 & N2).
+    assert (Hn1 : nd h1) by (unfold nd, h1; simpl; split; apply nodup_aset; assumption).
+    assert (Hs1 : msum h1 + x = msum h).
+    { unfold msum, h1; simpl. rewrite !asum_aset by assumption. unfold x. lia. }
+    destruct (I9 Hn1) as (Hn2 & Hs2). split; [exact Hn2|]. simpl. unfold x in *. unfold rem_, acc_. lia.
+Qed.
+
+Lemma total_psum_nonneg l : (forall w, 0 <= psum_at l w) -> Forall (fun p => 0 <= snd p) l -> 0 <= total l.
+Proof. intros _ Hall. induction l as [|[k x] t IH]; simpl; [lia|]. inversion Hall; subst. simpl in *. specialize (IH H2). lia. Qed.
+
+Lemma M_sweep cw h rw g h' l first last :
+  MInv cw h rw g -> first = bh_lastcol h + 1 -> last = cw - (MAXW + 1) -> first <= last ->
+  sweep (Z.to_nat (last - first + 1)) first h = (h', l) ->
+  MInv cw (set_lastcol h' last) rw (g_sweep g l).
+Proof.
+  intros M Hf Hl Hle Hs. pose proof max_weeks_nonneg as HMX.
+  destruct (sweep_spec _ _ _ _ _ Hs) as (S1 & S2 & S3 & S4 & _ & S6 & _ & _ & S9).
+  set (n := Z.to_nat (last - first + 1)) in *.
+  assert (Hin : forall w, in_rng first n w = true <-> first <= w <= last).
+  { intros w. unfold in_rng. rewrite andb_true_iff, Z.leb_le, Z.ltb_lt. unfold n. lia. }
+  assert (Hps : forall w, psum_at l w = if in_rng first n w then rem_ h w + acc_ h w else 0)
+    by (intros w; rewrite S1; apply (psum_at_zseq (fun k => rem_ h k + acc_ h k))).
+  assert (Hgs : forall w, gswept (g_sweep g l) w = gswept g w + psum_at l w)
+    by (intros w; unfold gswept; simpl; apply aget_add_all).
+  assert (Hgc : forall w, gcuts (g_sweep g l) w = gcuts g w) by reflexivity.
+  assert (Hgp : forall w, gpaid (g_sweep g l) w = gpaid g w) by reflexivity.
+  assert (Hacc : forall w, acc_ (set_lastcol h' last) w = acc_ h' w) by reflexivity.
+  assert (Hrem : forall w, rem_ (set_lastcol h' last) w = rem_ h' w) by reflexivity.
+  assert (Htot : 0 <= total l).
+  { rewrite S1. clear - M. induction (zseq first n) as [|k t IH]; simpl; [lia|]. destruct (m_nn _ _ _ _ M k). lia. }
+  destruct (m_lastcol _ _ _ _ M) as (L0 & L1).
+  destruct (S9 (m_nd _ _ _ _ M)) as (Hnd & Hms).
+  constructor; simpl; intros; rewrite ?Hgc, ?Hgs, ?Hgp, ?Hacc, ?Hrem, ?S2, ?S3, ?Hps.
+  - destruct (m_nn _ _ _ _ M w). destruct (in_rng first n w); split; lia.
+  - destruct (m_und _ _ _ _ M) as (U1 & U2). rewrite S4. split; lia.
+  - destruct (m_gnn _ _ _ _ M w) as (G1 & G2). destruct (m_nn _ _ _ _ M w). split; [exact G1|]. destruct (in_rng first n w); lia.
+  - exact Hnd.
+  - pose proof (m_week _ _ _ _ M w). destruct (in_rng first n w); lia.
+  - unfold msum in *. simpl. rewrite S4. pose proof (m_glob _ _ _ _ M). unfold msum in *. lia.
+  - apply (m_fut _ _ _ _ M w H).
+  - destruct (in_rng first n w) eqn:E; [apply Hin in E; lia|]. apply (m_win _ _ _ _ M w H H0).
+  - destruct (m_frozen _ _ _ _ M w H) as (F1 & F2). split; [exact F1|]. destruct (in_rng first n w); [reflexivity | exact F2].
+  - rewrite Hgs, Hps in H. destruct (in_rng first n w) eqn:E.
+    + apply Hin in E. lia.
+    + assert (Hx : gswept g w <> 0) by lia. pose proof (m_swept _ _ _ _ M w Hx). lia.
+  - split; lia.
+  - destruct (in_rng first n w) eqn:E; [split; reflexivity|].
+    assert (Hw : 1 <= w <= bh_lastcol h).
+    { destruct (Z_le_gt_dec first w) as [Hge|Hlt]; [|lia]. exfalso. assert (in_rng first n w = true) by (apply Hin; lia). congruence. }
+    apply (m_done _ _ _ _ M w Hw).
+Qed.
+
+(** ------------------------------------------------------------------ progress / config invariants *)
+Definition TInv (cw : Z) (w : wstate) : Prop := Forall (prog_ok cw) (w_prog w) /\ w_last w <= cw.
+
+Definition CI (cw : Z) (oc : option bconfig) (gf : option (factors * list (Z * factors))) : Prop :=
+  match oc, gf with
+  | None, None => True
+  | Some c, Some (f0, log) => CInv c f0 log /\ c_last c <= cw
+  | _, _ => False
+  end.
+
+(** all invariants at a given current week *)
+Definition LInv (cw : Z) (h : bhost) (w : wstate) (g : bghost) : Prop :=
+  1 <= cw /\ TInv cw w /\ CI cw (bh_cfg h) (g_fac g) /\ MInv cw h (rw_ w) g /\ 0 <= bh_pct h <= BOOSTED_MAX_PERCENT.
+
+Lemma T_find cw w u p : TInv cw w -> pfind (w_prog w) u = Some p -> 0 <= en_tok (pr_en p) /\ pr_week p <= cw.
+Proof. intros (Hall & _) Hf. apply pfind_in in Hf. rewrite Forall_forall in Hall. apply (Hall _ Hf). Qed.
+
+Lemma T_after cw w w' u cur : TInv cw w -> 0 <= en_tok cur ->
+  w_prog w' = progress_after (w_prog w) u cw cur -> w_last w' = cw -> TInv cw w'.
+Proof.
+  intros (Hall & _) Ht Hp Hl. split; [|lia]. rewrite Hp. apply Forall_progress_after; [exact Hall|].
+  unfold prog_ok; simpl. split; [exact Ht | lia].
+Qed.
+
+Lemma CI_pres cw h h' gf : cfg_pres cw h h' -> CI cw (bh_cfg h) gf -> CI cw (bh_cfg h') gf.
+Proof.
+  intros Hp. apply (Hp (fun oc => CI cw oc gf)). intros c c' Hu. unfold CI. destruct gf as [[f0 log]|]; [|tauto].
+  intros (Hi & _). destruct (cfg_update_inv _ _ _ _ _ _ Hi Hu) as (_ & Hl & Hi'). split; [exact Hi' | lia].
+Qed.
+
+Lemma uep_spec s u cw cur s' : update_energy_and_progress s u cw cur = Ok s' ->
+  w_prog s' = progress_after (w_prog s) u cw cur /\ w_last s' = cw /\ rw_weak cw s s'.
+Proof.
+  unfold update_energy_and_progress. intros Heq. apply bind_ok in Heq. destruct Heq as (s1 & Hu & Heq). inversion Heq; subst; clear Heq.
+  destruct (update_user_energy_frame _ _ _ _ _ Hu) as (u1 & u2 & _).
+  split; [rewrite store_progress_prog, u1; reflexivity|].
+  split; [unfold store_progress; destruct (0 <? en_amount cur); simpl; exact u2|].
+  intros w. rewrite store_progress_rw. apply (uue_weak _ _ _ _ _ Hu).
+Qed.
+
+Lemma clear_spec s u cw ep rem mn s' : clear_user_energy s u cw ep rem mn = Ok s' ->
+  s' = s \/ (w_prog s' = pdel (w_prog s) u /\ w_last s' = cw /\ rw_weak cw s s').
+Proof.
+  unfold clear_user_energy. destruct (mn <=? rem); [intros Heq; inversion Heq; left; reflexivity|].
+  intros Heq. apply bind_ok in Heq. destruct Heq as (s1 & Hu & Heq). inversion Heq; subst; clear Heq. right.
+  destruct (update_user_energy_frame _ _ _ _ _ Hu) as (u1 & u2 & _).
+  split; [simpl; rewrite u1; reflexivity|]. split; [simpl; exact u2|].
+  intros w. unfold rw_; simpl. apply (uue_weak _ _ _ _ _ Hu).
+Qed.
+
+Lemma L_gext cw h w g g' :
+  (forall x, gcuts g' x = gcuts g x) -> (forall x, gpaid g' x = gpaid g x) -> (forall x, gswept g' x = gswept g x) ->
+  g_tcuts g' = g_tcuts g -> g_tpaid g' = g_tpaid g -> g_tswept g' = g_tswept g -> g_fac g' = g_fac g ->
+  LInv cw h w g -> LInv cw h w g'.
+Proof.
+  intros E1 E2 E3 E4 E5 E6 E7 (L1 & L2 & L3 & L4 & L5). split; [exact L1|]. split; [exact L2|].
+  split; [rewrite E7; exact L3|]. split; [apply (MInv_gext _ _ _ g); assumption | exact L5].
+Qed.
+
+Lemma L_slice cw h w g full h' base cut :
+  LInv cw h w g -> 0 <= full -> take_reward_slice h cw full = Ok (h', base, cut) -> LInv cw h' w (g_cut g cw cut).
+Proof.
+  intros (L1 & L2 & L3 & L4 & L5) Hf Hs. destruct (slice_spec _ _ _ _ _ _ Hf (proj1 L5) Hs) as (Hc & _ & Hcase & _).
+  assert (Hfr : bh_cfg h' = bh_cfg h /\ bh_pct h' = bh_pct h) by (destruct Hcase as [(_ & ->)|(_ & ->)]; split; reflexivity).
+  destruct Hfr as (F1 & F2). split; [exact L1|]. split; [exact L2|]. split; [rewrite F1; exact L3|].
+  split; [apply (M_slice _ _ _ _ _ _ L4 L1 Hc Hcase) | rewrite F2; exact L5].
+Qed.
+
+Lemma L_claim cw h w g u pos cur h' w' det :
+  LInv cw h w g -> 0 <= en_tok cur -> claim_boosted h w u pos cw cur = Ok (h', w', det) -> LInv cw h' w' (g_pay g det).
+Proof.
+  intros (L1 & L2 & L3 & L4 & L5) Ht Hc.
+  assert (Hwf : forall p, pfind (w_prog w) u = Some p -> 0 <= en_tok (pr_en p)) by (intros p Hp; apply (T_find _ _ _ _ L2 Hp)).
+  destruct (claim_boosted_summary _ _ _ _ _ _ _ _ _ Hwf Hc) as [(_ & -> & -> & ->)|(c & cfg & s1 & _ & _ & _ & Hpa & Hl & _ & Hm & Hsum)].
+  - split; [exact L1|]. split; [exact L2|]. split; [exact L3|]. split; [|exact L5].
+    apply (MInv_gext _ _ _ g); try reflexivity; [simpl; rewrite pay_total_nil; lia | exact L4].
+  - split; [exact L1|]. split; [apply (T_after _ _ _ _ _ L2 Ht Hpa Hl)|].
+    destruct Hsum as (S1 & S2 & S3 & S4 & S5 & S6 & Srest).
+    split; [apply (CI_pres _ _ _ _ S6 L3)|]. split; [|rewrite S5; exact L5].
+    apply (M_claim _ _ _ _ _ _ _ _ L4 (conj S1 (conj S2 (conj S3 (conj S4 (conj S5 (conj S6 Srest))))))).
+    intros x Hin. destruct (pfind (w_prog w) u) as [p|] eqn:Ep; [|destruct Hin].
+    destruct Hm as (Hle & _). apply (claim_range_window _ _ _ Hle Hin).
+Qed.
+
+Lemma L_sup cw h w g k v : LInv cw h w g -> LInv cw (set_sup h k v) w g.
+Proof.
+  intros (L1 & L2 & L3 & L4 & L5). split; [exact L1|]. split; [exact L2|]. split; [exact L3|].
+  split; [apply (MInv_ext _ h); try reflexivity; exact L4 | exact L5].
+Qed.
+
+Lemma L_weak cw h w w' g : LInv cw h w g -> TInv cw w' -> rw_weak cw w w' -> LInv cw h w' g.
+Proof.
+  intros (L1 & L2 & L3 & L4 & L5) HT Hw. split; [exact L1|]. split; [exact HT|]. split; [exact L3|].
+  split; [apply (rw_weak_MInv _ _ _ _ _ Hw L4) | exact L5].
+Qed.
+
+Lemma L_uep cw h w g u cur w' :
+  LInv cw h w g -> 0 <= en_tok cur -> update_energy_and_progress w u cw cur = Ok w' -> LInv cw h w' g.
+Proof.
+  intros L Ht Hu. destruct (uep_spec _ _ _ _ _ Hu) as (U1 & U2 & U3).
+  apply (L_weak _ _ _ _ _ L); [|exact U3]. destruct L as (_ & L2 & _). apply (T_after _ _ _ _ _ L2 Ht U1 U2).
+Qed.
+
+Lemma L_clear cw h h0 w g u ep posa w' :
+  LInv cw h w g -> clear_if_needed h0 w u cw ep posa = Ok w' -> LInv cw h w' g.
+Proof.
+  intros L Hc. unfold clear_if_needed in Hc. apply bind_ok in Hc. destruct Hc as (oc & _ & Hc).
+  destruct oc as [cfg|]; [|inversion Hc; subst; exact L].
+  destruct (clear_spec _ _ _ _ _ _ _ Hc) as [->|(C1 & C2 & C3)]; [exact L|].
+  apply (L_weak _ _ _ _ _ L); [|exact C3]. destruct L as (_ & (Hall & _) & _).
+  split; [rewrite C1; apply Forall_pdel; exact Hall | lia].
+Qed.
+
+Lemma L_advance cw cw' h w g : cw <= cw' -> LInv cw h w g -> LInv cw' h w g.
+Proof.
+  intros Hle (L1 & (T1 & T2) & L3 & L4 & L5). split; [lia|].
+  split; [split; [eapply Forall_impl; [|exact T1]; intros up Hp; apply (prog_ok_mono cw); assumption | lia]|].
+  split; [|split; [apply (MInv_advance cw); assumption | exact L5]].
+  unfold CI in *. destruct (bh_cfg h); destruct (g_fac g) as [[f0 log]|]; try assumption. destruct L3; split; [assumption | lia].
+Qed.
+
+(** ------------------------------------------------------------------ every reachable state *)
+Definition BInv (s : bst) (g : bghost) : Prop :=
+  b_first s <= b_epoch s /\ LInv (bcur_week s) (b_h s) (b_w s) g.
+
+Lemma BInv_init epoch : BInv (init_b epoch) bg0.
+Proof.
+  split; [simpl; lia|]. unfold LInv. simpl.
+  assert (Hcw : bcur_week (init_b epoch) = 1).
+  { unfold bcur_week; simpl. rewrite Z.sub_diag. pose proof week_pos. rewrite Z.div_0_l by lia. reflexivity. }
+  rewrite Hcw. split; [lia|]. split; [split; [constructor | simpl; lia]|]. split; [exact I|].
+  split; [apply (MInv_init 1) | simpl; split; [lia | vm_compute; discriminate]].
+Qed.
+
+Ltac gx := intros; unfold gcuts, gpaid, gswept; simpl; rewrite ?aget_add_at, ?aget_add_all; simpl;
+           try (destruct (_ =? _)); lia.
+
+Lemma wf_in_ok cur pos full supply : wf_in cur pos full supply = true ->
+  0 <= en_tok cur /\ 0 <= pos /\ 0 <= full /\ 0 <= supply.
+Proof.
+  unfold wf_in. rewrite !andb_true_iff, !Z.leb_le. tauto.
+Qed.
+
+Lemma step_inv s g op s' out :
+  BInv s g -> step s op = Ok (s', out) -> BInv s' (gupd g op (bcur_week s) out).
+Proof.
+  intros (Htime & L) Hs. pose proof (bcur_week_pos s Htime) as Hpos.
+  destruct op; simpl in Hs.
+  - (* BAdvance *)
+    unfold ep_advance in Hs. destruct (0 <=? n) eqn:En; [|discriminate]. apply Z.leb_le in En. inversion Hs; subst; clear Hs.
+    split; [simpl; lia|]. simpl b_h; simpl b_w.
+    assert (Hle : bcur_week s <= bcur_week (mkB (b_h s) (b_w s) (b_first s) (b_epoch s + n))).
+    { unfold bcur_week; simpl. pose proof week_pos.
+      pose proof (Z.div_le_mono (b_epoch s - b_first s) (b_epoch s + n - b_first s) WK). lia. }
+    apply (L_advance _ _ _ _ _ Hle). apply (L_gext _ _ _ g); try gx; [reflexivity | exact L].
+  - (* BEnter *)
+    unfold ep_enter in Hs. destruct pre; [|discriminate]. destruct (wf_in cur pos full supply) eqn:Ew; [|discriminate].
+    apply wf_in_ok in Ew. destruct Ew as (W1 & W2 & W3 & W4).
+    apply bind_ok in Hs. destruct Hs as (cw & Hcw & Hs). destruct (current_week_b _ _ Hcw) as (-> & _).
+    apply bind_ok in Hs. destruct Hs as ([[h1 w1] det] & Hc & Hs).
+    apply bind_ok in Hs. destruct Hs as ([[h2 bs] cut] & Hsl & Hs).
+    apply bind_ok in Hs. destruct Hs as (w2 & Hu & Hs). inversion Hs; subst; clear Hs.
+    split; [exact Htime|]. change (bcur_week (with_hw s (set_sup h2 (bcur_week s) supply) w2)) with (bcur_week s). simpl b_h; simpl b_w.
+    pose proof (L_claim _ _ _ _ _ _ _ _ _ _ L W1 Hc) as L1.
+    pose proof (L_slice _ _ _ _ _ _ _ _ L1 W3 Hsl) as L2.
+    pose proof (L_uep _ _ _ _ _ _ _ (L_sup _ _ _ _ (bcur_week s) supply L2) W1 Hu) as L3.
+    apply (L_gext _ _ _ _ _) with (8 := L3); try gx; reflexivity.
+  - (* BClaim *)
+    unfold ep_claim in Hs. destruct pre; [|discriminate]. destruct (wf_in cur pos full supply) eqn:Ew; [|discriminate].
+    apply wf_in_ok in Ew. destruct Ew as (W1 & W2 & W3 & W4).
+    apply bind_ok in Hs. destruct Hs as (cw & Hcw & Hs). destruct (current_week_b _ _ Hcw) as (-> & _).
+    apply bind_ok in Hs. destruct Hs as ([[h1 bs] cut] & Hsl & Hs).
+    apply bind_ok in Hs. destruct Hs as ([[h2 w1] det] & Hc & Hs). inversion Hs; subst; clear Hs.
+    split; [exact Htime|]. change (bcur_week (with_hw s (set_sup h2 (bcur_week s) supply) w1)) with (bcur_week s). simpl b_h; simpl b_w.
+    pose proof (L_slice _ _ _ _ _ _ _ _ L W3 Hsl) as L1.
+    pose proof (L_claim _ _ _ _ _ _ _ _ _ _ L1 W1 Hc) as L2.
+    pose proof (L_sup _ _ _ _ (bcur_week s) supply L2) as L3.
+    apply (L_gext _ _ _ _ _) with (8 := L3); try gx; reflexivity.
+  - (* BCompound *)
+    unfold ep_compound in Hs. destruct pre; [|discriminate]. destruct (wf_in cur pos full supply) eqn:Ew; [|discriminate].
+    apply wf_in_ok in Ew. destruct Ew as (W1 & W2 & W3 & W4).
+    apply bind_ok in Hs. destruct Hs as (cw & Hcw & Hs). destruct (current_week_b _ _ Hcw) as (-> & _).
+    apply bind_ok in Hs. destruct Hs as ([[h1 bs] cut] & Hsl & Hs).
+    apply bind_ok in Hs. destruct Hs as ([[h2 w1] det] & Hc & Hs).
+    apply bind_ok in Hs. destruct Hs as (w2 & Hu & Hs). inversion Hs; subst; clear Hs.
+    split; [exact Htime|]. change (bcur_week (with_hw s (set_sup h2 (bcur_week s) supply) w2)) with (bcur_week s). simpl b_h; simpl b_w.
+    pose proof (L_slice _ _ _ _ _ _ _ _ L W3 Hsl) as L1.
+    pose proof (L_claim _ _ _ _ _ _ _ _ _ _ L1 W1 Hc) as L2.
+    pose proof (L_uep _ _ _ _ _ _ _ (L_sup _ _ _ _ (bcur_week s) supply L2) W1 Hu) as L3.
+    apply (L_gext _ _ _ _ _) with (8 := L3); try gx; reflexivity.
+  - (* BExit *)
+    unfold ep_exit in Hs. destruct pre; [|discriminate].
+    destruct (wf_in cur pos full supply && (0 <=? posa)) eqn:Ew; [|discriminate].
+    apply andb_true_iff in Ew. destruct Ew as (Ew & _).
+    apply wf_in_ok in Ew. destruct Ew as (W1 & W2 & W3 & W4).
+    apply bind_ok in Hs. destruct Hs as (cw & Hcw & Hs). destruct (current_week_b _ _ Hcw) as (-> & _).
+    apply bind_ok in Hs. destruct Hs as ([[h1 bs] cut] & Hsl & Hs).
+    apply bind_ok in Hs. destruct Hs as ([[h2 w1] det] & Hc & Hs).
+    apply bind_ok in Hs. destruct Hs as (w2 & Hu & Hs). inversion Hs; subst; clear Hs.
+    split; [exact Htime|]. change (bcur_week (with_hw s (set_sup h2 (bcur_week s) supply) w2)) with (bcur_week s). simpl b_h; simpl b_w.
+    pose proof (L_slice _ _ _ _ _ _ _ _ L W3 Hsl) as L1.
+    pose proof (L_claim _ _ _ _ _ _ _ _ _ _ L1 W1 Hc) as L2.
+    pose proof (L_clear _ _ _ _ _ _ _ _ _ (L_sup _ _ _ _ (bcur_week s) supply L2) Hu) as L3.
+    apply (L_gext _ _ _ _ _) with (8 := L3); try gx; reflexivity.
+  - (* BMerge *)
+    unfold ep_merge in Hs. destruct pre; [|discriminate]. destruct (wf_in cur pos 0 0) eqn:Ew; [|discriminate].
+    apply wf_in_ok in Ew. destruct Ew as (W1 & W2 & W3 & W4).
+    apply bind_ok in Hs. destruct Hs as (cw & Hcw & Hs). destruct (current_week_b _ _ Hcw) as (-> & _).
+    apply bind_ok in Hs. destruct Hs as ([[h1 w1] det] & Hc & Hs). inversion Hs; subst; clear Hs.
+    split; [exact Htime|]. change (bcur_week (with_hw s h1 w1)) with (bcur_week s). simpl b_h; simpl b_w.
+    pose proof (L_claim _ _ _ _ _ _ _ _ _ _ L W1 Hc) as L1.
+    apply (L_gext _ _ _ _ _) with (8 := L1); try gx; reflexivity.
+  - (* BClaimBoosted *)
+    unfold ep_claim_boosted in Hs. destruct pre; [|discriminate]. destruct (wf_in cur pos full supply) eqn:Ew; [|discriminate].
+    apply wf_in_ok in Ew. destruct Ew as (W1 & W2 & W3 & W4). destruct (negb (pos =? 0)); [|discriminate].
+    apply bind_ok in Hs. destruct Hs as (cw & Hcw & Hs). destruct (current_week_b _ _ Hcw) as (-> & _).
+    apply bind_ok in Hs. destruct Hs as ([[h1 bs] cut] & Hsl & Hs).
+    apply bind_ok in Hs. destruct Hs as ([[h2 w1] det] & Hc & Hs). inversion Hs; subst; clear Hs.
+    split; [exact Htime|]. change (bcur_week (with_hw s (set_sup h2 (bcur_week s) supply) w1)) with (bcur_week s). simpl b_h; simpl b_w.
+    pose proof (L_slice _ _ _ _ _ _ _ _ L W3 Hsl) as L1.
+    pose proof (L_claim _ _ _ _ _ _ _ _ _ _ L1 W1 Hc) as L2.
+    pose proof (L_sup _ _ _ _ (bcur_week s) supply L2) as L3.
+    apply (L_gext _ _ _ _ _) with (8 := L3); try gx; reflexivity.
+  - (* BSettle *)
+    unfold ep_settle in Hs. destruct pre; [|discriminate]. destruct (0 <=? full) eqn:Ef; [|discriminate]. apply Z.leb_le in Ef.
+    apply bind_ok in Hs. destruct Hs as (cw & Hcw & Hs). destruct (current_week_b _ _ Hcw) as (-> & _).
+    apply bind_ok in Hs. destruct Hs as ([[h1 bs] cut] & Hsl & Hs). inversion Hs; subst; clear Hs.
+    split; [exact Htime|]. change (bcur_week (with_hw s h1 (b_w s))) with (bcur_week s). simpl b_h; simpl b_w.
+    pose proof (L_slice _ _ _ _ _ _ _ _ L Ef Hsl) as L1.
+    apply (L_gext _ _ _ _ _) with (8 := L1); try gx; reflexivity.
+  - (* BSetPct *)
+    unfold ep_set_pct in Hs. destruct (admin c); [|discriminate].
+    destruct ((0 <=? p) && (p <=? BOOSTED_MAX_PERCENT)) eqn:Ep; [|discriminate].
+    apply andb_true_iff in Ep. destruct Ep as (P1 & P2). apply Z.leb_le in P1. apply Z.leb_le in P2.
+    destruct (0 <=? full) eqn:Ef; [|discriminate]. apply Z.leb_le in Ef.
+    apply bind_ok in Hs. destruct Hs as (cw & Hcw & Hs). destruct (current_week_b _ _ Hcw) as (-> & _).
+    apply bind_ok in Hs. destruct Hs as ([[h1 bs] cut] & Hsl & Hs). inversion Hs; subst; clear Hs.
+    split; [exact Htime|]. change (bcur_week (with_hw s (set_pct h1 p) (b_w s))) with (bcur_week s). simpl b_h; simpl b_w.
+    pose proof (L_slice _ _ _ _ _ _ _ _ L Ef Hsl) as (L1 & L2 & L3 & L4 & L5).
+    assert (L' : LInv (bcur_week s) (set_pct h1 p) (b_w s) (g_cut g (bcur_week s) cut)).
+    { split; [exact L1|]. split; [exact L2|]. split; [exact L3|]. split; [apply (MInv_ext _ h1); try reflexivity; exact L4 | simpl; lia]. }
+    apply (L_gext _ _ _ _ _) with (8 := L'); try gx; reflexivity.
+  - (* BSetFactors *)
+    unfold ep_set_factors in Hs. destruct (admin c); [|discriminate].
+    destruct ((0 <=? fa_max f) && (0 <=? fa_ce f) && (0 <=? fa_cf f)); [|discriminate].
+    destruct ((0 <? fa_mine f) && (0 <? fa_minf f)); [|discriminate].
+    apply bind_ok in Hs. destruct Hs as (cw & Hcw & Hs). destruct (current_week_b _ _ Hcw) as (-> & _).
+    apply bind_ok in Hs. destruct Hs as (c' & Hu & Hs). inversion Hs; subst; clear Hs.
+    split; [exact Htime|]. change (bcur_week (with_hw s (set_cfg (b_h s) (Some c')) (b_w s))) with (bcur_week s). simpl b_h; simpl b_w.
+    destruct L as (L1 & L2 & L3 & L4 & L5).
+    split; [exact L1|]. split; [exact L2|]. split; [|split; [|exact L5]].
+    + simpl. unfold CI in *. destruct (bh_cfg (b_h s)) as [cfg|]; destruct (g_fac g) as [[f0 log]|]; try contradiction.
+      * destruct L3 as (Hi & _). destruct (cfg_update_inv _ _ _ _ _ _ Hi Hu) as (_ & Hl & Hi'). split; [exact Hi' | lia].
+      * inversion Hu; subst. split; [apply cfg_new_inv | simpl; lia].
+    + apply (MInv_ext _ (b_h s)); try reflexivity. apply (MInv_gext _ _ _ g); try gx. exact L4.
+  - (* BCollect *)
+    unfold ep_collect in Hs. destruct (admin c); [|discriminate].
+    apply bind_ok in Hs. destruct Hs as (cw & Hcw & Hs). destruct (current_week_b _ _ Hcw) as (-> & _).
+    destruct (COLLECT_OFFSET <? bcur_week s) eqn:Eo; [|discriminate]. apply Z.ltb_lt in Eo. rewrite collect_offset_eq in *.
+    destruct (bcur_week s - (MAXW + 1) <? bh_lastcol (b_h s) + 1) eqn:El.
+    + inversion Hs; subst; clear Hs. split; [exact Htime|]. apply (L_gext _ _ _ g); try gx; [reflexivity | exact L].
+    + apply Z.ltb_ge in El.
+      destruct (sweep (Z.to_nat (bcur_week s - (MAXW + 1) - (bh_lastcol (b_h s) + 1) + 1)) (bh_lastcol (b_h s) + 1) (b_h s)) as [h1 l] eqn:Esw.
+      inversion Hs; subst; clear Hs. split; [exact Htime|].
+      change (bcur_week (with_hw s (set_lastcol h1 (bcur_week s - (MAXW + 1))) (b_w s))) with (bcur_week s). simpl b_h; simpl b_w.
+      destruct L as (L1 & L2 & L3 & L4 & L5).
+      destruct (sweep_spec _ _ _ _ _ Esw) as (_ & _ & _ & _ & _ & _ & S7 & S8 & _).
+      split; [exact L1|]. split; [exact L2|]. split; [simpl; rewrite S8; exact L3|]. split; [|simpl; rewrite S7; exact L5].
+      pose proof (M_sweep _ _ _ _ _ _ _ _ L4 eq_refl eq_refl El Esw) as M'.
+      apply (MInv_gext _ _ _ (g_sweep g l)); try gx. exact M'.
+  - (* BUpdateEnergy *)
+    unfold ep_update_energy in Hs. destruct (0 <=? en_tok cur) eqn:Et; [|discriminate]. apply Z.leb_le in Et.
+    apply bind_ok in Hs. destruct Hs as (cw & Hcw & Hs). destruct (current_week_b _ _ Hcw) as (-> & _).
+    apply bind_ok in Hs. destruct Hs as (w' & Hu & Hs). inversion Hs; subst; clear Hs.
+    split; [exact Htime|]. change (bcur_week (with_hw s (b_h s) w')) with (bcur_week s). simpl b_h; simpl b_w.
+    unfold update_energy_for_user in Hu. destruct (match pfind (w_prog (b_w s)) u with Some p => pr_week p =? bcur_week s | None => true end); [|discriminate].
+    pose proof (L_uep _ _ _ _ _ _ _ L Et Hu) as L1.
+    apply (L_gext _ _ _ g); try gx; [reflexivity | exact L1].
+Qed.
+
+Lemma bgstep_inv s g op : BInv s g -> BInv (fst (bgstep (s, g) op)) (snd (bgstep (s, g) op)).
+Proof.
+  intros Hi. unfold bgstep; simpl. destruct (step s op) as [[s' out]|] eqn:Es; simpl; [|exact Hi].
+  apply (step_inv _ _ _ _ _ Hi Es).
+Qed.
+
+Lemma bgrun_inv ops : forall s g, BInv s g -> BInv (fst (bgrun (s, g) ops)) (snd (bgrun (s, g) ops)).
+Proof.
+  unfold bgrun. induction ops as [|op t IH]; intros s g Hi; simpl; [exact Hi|].
+  destruct (bgstep (s, g) op) as [s1 g1] eqn:E. apply IH.
+  pose proof (bgstep_inv s g op Hi) as H1. rewrite E in H1. exact H1.
+Qed.
+
+Lemma reach_inv epoch ops : BInv (fst (bgrun (init_b epoch, bg0) ops)) (snd (bgrun (init_b epoch, bg0) ops)).
+Proof. apply bgrun_inv. apply BInv_init. Qed.
+
+(** ================================================================== Part E: the property's clauses *)
+(** ------------------------------------------------------------------ at most once per (user, week) *)
+(** whose boosted rewards an operation settles, with which energy entry and which position amount *)
+Definition claim_of (op : bop) : option (Z * en * Z) :=
+  match op with
+  | BEnter _ u cur pos _ _ | BClaim _ u cur pos _ _ | BCompound _ u cur pos _ _ | BExit _ u cur pos _ _ _
+  | BMerge _ u cur pos | BClaimBoosted _ u cur pos _ _ => Some (u, cur, pos)
+  | _ => None
+  end.
+
+(** the (user, week) pairs a successful operation processes *)
+Definition bevents (op : bop) (out : bout) : list (Z * Z) :=
+  match claim_of op with
+  | Some (u, _, _) => map (fun wr => (u, fst wr)) (o_det out)
+  | None => []
+  end.
+
+Fixpoint brun_log (s : bst) (ops : list bop) : list (Z * Z) :=
+  match ops with
+  | [] => []
+  | op :: t => match step s op with
+               | Ok (s', out) => bevents op out ++ brun_log s' t
+               | Err _ => brun_log s t
+               end
+  end.
+
+(** the first week a user can still be paid for *)
+Definition from_l (l : list (Z * progress)) (cw u : Z) : Z :=
+  match pfind l u with Some p => pr_week p | None => cw end.
+Definition bclaimable_from (s : bst) (u : Z) : Z := from_l (w_prog (b_w s)) (bcur_week s) u.
+
+Lemma from_after l u cw cur u' : from_l (progress_after l u cw cur) cw u' = if u =? u' then cw else from_l l cw u'.
+Proof.
+  unfold from_l. rewrite progress_after_find. destruct (u =? u'); [|reflexivity]. destruct (0 <? en_amount cur); reflexivity.
+Qed.
+
+Lemma from_pdel l u cw u' : from_l (pdel l u) cw u' = if u =? u' then cw else from_l l cw u'.
+Proof.
+  unfold from_l. destruct (u =? u') eqn:E.
+  - apply Z.eqb_eq in E. subst. rewrite pfind_pdel_same. reflexivity.
+  - apply Z.eqb_neq in E. rewrite pfind_pdel_other by exact E. reflexivity.
+Qed.
+
+Lemma from_le l cw u : Forall (prog_ok cw) l -> from_l l cw u <= cw.
+Proof.
+  intros Hall. unfold from_l. destruct (pfind l u) as [p|] eqn:Ep; [|lia].
+  apply pfind_in in Ep. rewrite Forall_forall in Hall. apply (Hall _ Ep).
+Qed.
+
+Lemma claim_boosted_prog cw h w u pos cur h' w' det :
+  TInv cw w -> claim_boosted h w u pos cw cur = Ok (h', w', det) ->
+  NoDup (map fst det) /\
+  ((det = [] /\ w_prog w' = w_prog w) \/
+   (w_prog w' = progress_after (w_prog w) u cw cur /\
+    forall x, In x (map fst det) -> from_l (w_prog w) cw u <= x < cw /\ cw - MAXW <= x)).
+Proof.
+  intros HT Hc.
+  assert (Hwf : forall p, pfind (w_prog w) u = Some p -> 0 <= en_tok (pr_en p)) by (intros p Hp; apply (T_find _ _ _ _ HT Hp)).
+  destruct (claim_boosted_summary _ _ _ _ _ _ _ _ _ Hwf Hc) as [(_ & -> & -> & ->)|(c & cfg & s1 & _ & _ & _ & Hpa & _ & _ & Hm & (S1 & _))].
+  - split; [constructor|]. left. split; reflexivity.
+  - rewrite S1. unfold from_l. destruct (pfind (w_prog w) u) as [p|] eqn:Ep.
+    + split; [apply zseq_nodup|]. right. split; [exact Hpa|]. intros x Hin. destruct Hm as (Hle & _).
+      destruct (claim_range_window _ _ _ Hle Hin). lia.
+    + split; [constructor|]. right. split; [exact Hpa|]. intros x [].
+Qed.
+
+Lemma chain_once cw l l1 l' u cur (ws : list Z) :
+  Forall (prog_ok cw) l ->
+  ((ws = [] /\ l1 = l) \/ (l1 = progress_after l u cw cur /\ forall x, In x ws -> from_l l cw u <= x < cw /\ cw - MAXW <= x)) ->
+  (l' = l1 \/ l' = progress_after l1 u cw cur \/ l' = pdel l1 u) ->
+  (forall u', from_l l cw u' <= from_l l' cw u') /\ (forall x, In x ws -> from_l l cw u <= x < from_l l' cw u).
+Proof.
+  intros Hall H1 H2.
+  assert (Hle : forall u', from_l l cw u' <= cw) by (intros; apply from_le; exact Hall).
+  assert (F1 : forall u', from_l l cw u' <= from_l l1 cw u').
+  { intros u'. destruct H1 as [(_ & ->)|(-> & _)]; [lia|]. rewrite from_after. destruct (u =? u'); [apply Hle | lia]. }
+  assert (F2 : forall u', from_l l1 cw u' <= from_l l' cw u' /\ (from_l l1 cw u = cw -> from_l l' cw u = cw)).
+  { intros u'. destruct H2 as [->|[->| ->]]; [split; [lia | tauto]| |].
+    - rewrite !from_after, Z.eqb_refl. split; [|reflexivity]. destruct (u =? u'); [|lia].
+      destruct H1 as [(_ & ->)|(-> & _)]; [apply Hle | rewrite from_after; destruct (u =? u'); [lia | apply Hle]].
+    - rewrite !from_pdel, Z.eqb_refl. split; [|reflexivity]. destruct (u =? u'); [|lia].
+      destruct H1 as [(_ & ->)|(-> & _)]; [apply Hle | rewrite from_after; destruct (u =? u'); [lia | apply Hle]]. }
+  split; [intros u'; specialize (F1 u'); destruct (F2 u'); lia|].
+  intros x Hin. destruct H1 as [(-> & _)|(-> & Hr)]; [destruct Hin|].
+  destruct (Hr x Hin) as (Hx & _). destruct (F2 u) as (_ & Hk). rewrite from_after, Z.eqb_refl in Hk. rewrite (Hk eq_refl). exact Hx.
+Qed.
+
+Lemma events_map (u : Z) (det : list (Z * list (Z * Z))) (x w : Z) :
+  In (x, w) (map (fun wr : Z * list (Z * Z) => (u, fst wr)) det) <-> x = u /\ In w (map fst det).
+Proof.
+  rewrite !in_map_iff. split.
+  - intros ([w0 r] & Heq & Hin). simpl in Heq. inversion Heq. split; [reflexivity|]. exists (w0, r). split; [simpl; congruence | exact Hin].
+  - intros (Hx & ([w0 r] & Heq & Hin)). simpl in Heq. exists (w0, r). split; [simpl; congruence | exact Hin].
+Qed.
+
+Lemma events_nodup (u : Z) (det : list (Z * list (Z * Z))) : NoDup (map fst det) -> NoDup (map (fun wr : Z * list (Z * Z) => (u, fst wr)) det).
+Proof.
+  induction det as [|[w r] t IH]; simpl; intros Hnd; [constructor|]. inversion Hnd; subst.
+  constructor; [|apply IH; assumption]. intros Hin. apply events_map in Hin. destruct Hin as (_ & Hin). contradiction.
+Qed.
+
+Lemma clear_prog h0 w u cw ep posa w' : clear_if_needed h0 w u cw ep posa = Ok w' ->
+  w_prog w' = w_prog w \/ w_prog w' = pdel (w_prog w) u.
+Proof.
+  unfold clear_if_needed. intros Hc. apply bind_ok in Hc. destruct Hc as (oc & _ & Hc).
+  destruct oc as [cfg|]; [|inversion Hc; left; reflexivity].
+  destruct (clear_spec _ _ _ _ _ _ _ Hc) as [->|(C1 & _)]; [left; reflexivity | right; exact C1].
+Qed.
+
+Lemma step_claimable s g op s' out :
+  BInv s g -> step s op = Ok (s', out) ->
+  (forall u, bclaimable_from s u <= bclaimable_from s' u) /\
+  (forall u w, In (u, w) (bevents op out) -> bclaimable_from s u <= w < bclaimable_from s' u) /\
+  NoDup (bevents op out).
+Proof.
+  intros (Htime & L) Hs. destruct L as (Hpos & HT & _). pose proof HT as (Hall & _).
+  assert (Hsame : forall l', bcur_week s' = bcur_week s -> w_prog (b_w s') = l' -> bevents op out = [] ->
+                  (forall u', from_l (w_prog (b_w s)) (bcur_week s) u' <= from_l l' (bcur_week s) u') ->
+                  (forall u, bclaimable_from s u <= bclaimable_from s' u) /\
+                  (forall u w, In (u, w) (bevents op out) -> bclaimable_from s u <= w < bclaimable_from s' u) /\
+                  NoDup (bevents op out)).
+  { intros l' Hw Hl He Hf. rewrite He. unfold bclaimable_from. rewrite Hw, Hl. split; [exact Hf|]. split; [intros u w []|constructor]. }
+  assert (Hchain : forall (u : Z) (cur : en) (det : list (Z * list (Z * Z))) l1 l', bcur_week s' = bcur_week s -> w_prog (b_w s') = l' ->
+            bevents op out = map (fun wr : Z * list (Z * Z) => (u, fst wr)) det ->
+            NoDup (map fst det) ->
+            ((det = [] /\ l1 = w_prog (b_w s)) \/
+             (l1 = progress_after (w_prog (b_w s)) u (bcur_week s) cur /\
+              forall x, In x (map fst det) -> from_l (w_prog (b_w s)) (bcur_week s) u <= x < bcur_week s /\ bcur_week s - MAXW <= x)) ->
+            (l' = l1 \/ l' = progress_after l1 u (bcur_week s) cur \/ l' = pdel l1 u) ->
+            (forall u, bclaimable_from s u <= bclaimable_from s' u) /\
+            (forall u w, In (u, w) (bevents op out) -> bclaimable_from s u <= w < bclaimable_from s' u) /\
+            NoDup (bevents op out)).
+  { intros u cur det l1 l' Hw Hl He Hnd H1 H2. rewrite He. unfold bclaimable_from. rewrite Hw, Hl.
+    assert (H1' : (map fst det = [] /\ l1 = w_prog (b_w s)) \/
+             (l1 = progress_after (w_prog (b_w s)) u (bcur_week s) cur /\
+              forall x, In x (map fst det) -> from_l (w_prog (b_w s)) (bcur_week s) u <= x < bcur_week s /\ bcur_week s - MAXW <= x)).
+    { destruct H1 as [(-> & E)|H1]; [left; split; [reflexivity | exact E] | right; exact H1]. }
+    destruct (chain_once _ _ _ _ _ _ _ Hall H1' H2) as (C1 & C2).
+    split; [exact C1|]. split; [|apply events_nodup; exact Hnd].
+    intros x w Hin. apply events_map in Hin. destruct Hin as (-> & Hin). apply (C2 w Hin). }
+  destruct op; simpl in Hs.
+  - (* BAdvance *)
+    unfold ep_advance in Hs. destruct (0 <=? n) eqn:En; [|discriminate]. apply Z.leb_le in En. inversion Hs; subst; clear Hs.
+    assert (Hle : bcur_week s <= bcur_week (mkB (b_h s) (b_w s) (b_first s) (b_epoch s + n))).
+    { unfold bcur_week; simpl. pose proof week_pos.
+      pose proof (Z.div_le_mono (b_epoch s - b_first s) (b_epoch s + n - b_first s) WK). lia. }
+    split; [|split; [intros u w [] | constructor]]. intros u. unfold bclaimable_from, from_l; simpl.
+    destruct (pfind (w_prog (b_w s)) u); lia.
+  - unfold ep_enter in Hs. destruct pre; [|discriminate]. destruct (wf_in cur pos full supply); [|discriminate].
+    apply bind_ok in Hs. destruct Hs as (cw & Hcw & Hs). destruct (current_week_b _ _ Hcw) as (-> & _).
+    apply bind_ok in Hs. destruct Hs as ([[h1 w1] det] & Hc & Hs).
+    apply bind_ok in Hs. destruct Hs as ([[h2 bs] cut] & Hsl & Hs).
+    apply bind_ok in Hs. destruct Hs as (w2 & Hu & Hs). inversion Hs; subst; clear Hs.
+    destruct (claim_boosted_prog _ _ _ _ _ _ _ _ _ HT Hc) as (Hnd & Hp). destruct (uep_spec _ _ _ _ _ Hu) as (U1 & _).
+    apply (Hchain u cur det (w_prog w1) _ eq_refl eq_refl eq_refl Hnd).
+    + destruct Hp as [(E1 & E2)|(E1 & E2)]; [left; split; [exact E1 | exact E2] | right; split; [exact E1 | exact E2]].
+    + right. left. exact U1.
+  - unfold ep_claim in Hs. destruct pre; [|discriminate]. destruct (wf_in cur pos full supply); [|discriminate].
+    apply bind_ok in Hs. destruct Hs as (cw & Hcw & Hs). destruct (current_week_b _ _ Hcw) as (-> & _).
+    apply bind_ok in Hs. destruct Hs as ([[h1 bs] cut] & Hsl & Hs).
+    apply bind_ok in Hs. destruct Hs as ([[h2 w1] det] & Hc & Hs). inversion Hs; subst; clear Hs.
+    destruct (claim_boosted_prog _ _ _ _ _ _ _ _ _ HT Hc) as (Hnd & Hp).
+    apply (Hchain u cur det (w_prog w1) _ eq_refl eq_refl eq_refl Hnd); [|left; reflexivity].
+    destruct Hp as [(E1 & E2)|(E1 & E2)]; [left; split; [exact E1 | exact E2] | right; split; [exact E1 | exact E2]].
+  - unfold ep_compound in Hs. destruct pre; [|discriminate]. destruct (wf_in cur pos full supply); [|discriminate].
+    apply bind_ok in Hs. destruct Hs as (cw & Hcw & Hs). destruct (current_week_b _ _ Hcw) as (-> & _).
+    apply bind_ok in Hs. destruct Hs as ([[h1 bs] cut] & Hsl & Hs).
+    apply bind_ok in Hs. destruct Hs as ([[h2 w1] det] & Hc & Hs).
+    apply bind_ok in Hs. destruct Hs as (w2 & Hu & Hs). inversion Hs; subst; clear Hs.
+    destruct (claim_boosted_prog _ _ _ _ _ _ _ _ _ HT Hc) as (Hnd & Hp). destruct (uep_spec _ _ _ _ _ Hu) as (U1 & _).
+    apply (Hchain u cur det (w_prog w1) _ eq_refl eq_refl eq_refl Hnd); [|right; left; exact U1].
+    destruct Hp as [(E1 & E2)|(E1 & E2)]; [left; split; [exact E1 | exact E2] | right; split; [exact E1 | exact E2]].
+  - unfold ep_exit in Hs. destruct pre; [|discriminate]. destruct (wf_in cur pos full supply && (0 <=? posa)); [|discriminate].
+    apply bind_ok in Hs. destruct Hs as (cw & Hcw & Hs). destruct (current_week_b _ _ Hcw) as (-> & _).
+    apply bind_ok in Hs. destruct Hs as ([[h1 bs] cut] & Hsl & Hs).
+    apply bind_ok in Hs. destruct Hs as ([[h2 w1] det] & Hc & Hs).
+    apply bind_ok in Hs. destruct Hs as (w2 & Hu & Hs). inversion Hs; subst; clear Hs.
+    destruct (claim_boosted_prog _ _ _ _ _ _ _ _ _ HT Hc) as (Hnd & Hp).
+    apply (Hchain u cur det (w_prog w1) _ eq_refl eq_refl eq_refl Hnd).
+    + destruct Hp as [(E1 & E2)|(E1 & E2)]; [left; split; [exact E1 | exact E2] | right; split; [exact E1 | exact E2]].
+    + destruct (clear_prog _ _ _ _ _ _ _ Hu) as [E|E]; [left; exact E | right; right; exact E].
+  - unfold ep_merge in Hs. destruct pre; [|discriminate]. destruct (wf_in cur pos 0 0); [|discriminate].
+    apply bind_ok in Hs. destruct Hs as (cw & Hcw & Hs). destruct (current_week_b _ _ Hcw) as (-> & _).
+    apply bind_ok in Hs. destruct Hs as ([[h1 w1] det] & Hc & Hs). inversion Hs; subst; clear Hs.
+    destruct (claim_boosted_prog _ _ _ _ _ _ _ _ _ HT Hc) as (Hnd & Hp).
+    apply (Hchain u cur det (w_prog w1) _ eq_refl eq_refl eq_refl Hnd); [|left; reflexivity].
+    destruct Hp as [(E1 & E2)|(E1 & E2)]; [left; split; [exact E1 | exact E2] | right; split; [exact E1 | exact E2]].
+  - unfold ep_claim_boosted in Hs. destruct pre; [|discriminate]. destruct (wf_in cur pos full supply); [|discriminate].
+    destruct (negb (pos =? 0)); [|discriminate].
+    apply bind_ok in Hs. destruct Hs as (cw & Hcw & Hs). destruct (current_week_b _ _ Hcw) as (-> & _).
+    apply bind_ok in Hs. destruct Hs as ([[h1 bs] cut] & Hsl & Hs).
+    apply bind_ok in Hs. destruct Hs as ([[h2 w1] det] & Hc & Hs). inversion Hs; subst; clear Hs.
+    destruct (claim_boosted_prog _ _ _ _ _ _ _ _ _ HT Hc) as (Hnd & Hp).
+    apply (Hchain u cur det (w_prog w1) _ eq_refl eq_refl eq_refl Hnd); [|left; reflexivity].
+    destruct Hp as [(E1 & E2)|(E1 & E2)]; [left; split; [exact E1 | exact E2] | right; split; [exact E1 | exact E2]].
+  - unfold ep_settle in Hs. destruct pre; [|discriminate]. destruct (0 <=? full); [|discriminate].
+    apply bind_ok in Hs. destruct Hs as (cw & Hcw & Hs).
+    apply bind_ok in Hs. destruct Hs as ([[h1 bs] cut] & Hsl & Hs). inversion Hs; subst; clear Hs.
+    apply (Hsame _ eq_refl eq_refl eq_refl). intros; simpl; lia.
+  - unfold ep_set_pct in Hs. destruct (admin c); [|discriminate]. destruct ((0 <=? p) && (p <=? BOOSTED_MAX_PERCENT)); [|discriminate].
+    destruct (0 <=? full); [|discriminate].
+    apply bind_ok in Hs. destruct Hs as (cw & Hcw & Hs).
+    apply bind_ok in Hs. destruct Hs as ([[h1 bs] cut] & Hsl & Hs). inversion Hs; subst; clear Hs.
+    apply (Hsame _ eq_refl eq_refl eq_refl). intros; simpl; lia.
+  - unfold ep_set_factors in Hs. destruct (admin c); [|discriminate].
+    destruct ((0 <=? fa_max f) && (0 <=? fa_ce f) && (0 <=? fa_cf f)); [|discriminate].
+    destruct ((0 <? fa_mine f) && (0 <? fa_minf f)); [|discriminate].
+    apply bind_ok in Hs. destruct Hs as (cw & Hcw & Hs).
+    apply bind_ok in Hs. destruct Hs as (c' & Hu & Hs). inversion Hs; subst; clear Hs.
+    apply (Hsame _ eq_refl eq_refl eq_refl). intros; simpl; lia.
+  - unfold ep_collect in Hs. destruct (admin c); [|discriminate].
+    apply bind_ok in Hs. destruct Hs as (cw & Hcw & Hs).
+    destruct (COLLECT_OFFSET <? cw); [|discriminate].
+    destruct (cw - COLLECT_OFFSET <? bh_lastcol (b_h s) + 1).
+    + inversion Hs; subst; clear Hs. apply (Hsame _ eq_refl eq_refl eq_refl). intros; simpl; lia.
+    + destruct (sweep _ _ _) as [h1 l]. inversion Hs; subst; clear Hs. apply (Hsame _ eq_refl eq_refl eq_refl). intros; simpl; lia.
+  - unfold ep_update_energy in Hs. destruct (0 <=? en_tok cur); [|discriminate].
+    apply bind_ok in Hs. destruct Hs as (cw & Hcw & Hs). destruct (current_week_b _ _ Hcw) as (-> & _).
+    apply bind_ok in Hs. destruct Hs as (w' & Hu & Hs). inversion Hs; subst; clear Hs.
+    unfold update_energy_for_user in Hu. destruct (match pfind (w_prog (b_w s)) u with Some p => pr_week p =? bcur_week s | None => true end); [|discriminate].
+    destruct (uep_spec _ _ _ _ _ Hu) as (U1 & _).
+    apply (Hsame _ eq_refl U1 eq_refl). intros u'. rewrite from_after. destruct (u =? u'); [apply from_le; exact Hall | lia].
+Qed.
+
+(** over any history: every (user, week) is processed by at most one boosted settlement *)
+Lemma brun_log_once ops : forall s g, BInv s g ->
+  (forall u w, In (u, w) (brun_log s ops) -> bclaimable_from s u <= w) /\ NoDup (brun_log s ops).
+Proof.
+  induction ops as [|op t IH]; intros s g Hi; simpl.
+  - split; [intros u w [] | constructor].
+  - destruct (step s op) as [[s' out]|] eqn:Es; [|apply (IH s g Hi)].
+    destruct (step_claimable _ _ _ _ _ Hi Es) as (Hmono & Hev & Hnd).
+    destruct (IH s' _ (step_inv _ _ _ _ _ Hi Es)) as (IH1 & IH2).
+    split.
+    + intros u w Hin. apply in_app_or in Hin. destruct Hin as [Hin|Hin].
+      * apply (Hev _ _ Hin).
+      * specialize (IH1 _ _ Hin). specialize (Hmono u). lia.
+    + apply NoDup_app_disjoint; [exact Hnd | exact IH2|].
+      intros [u w] Hin Hin2. specialize (Hev _ _ Hin). specialize (IH1 _ _ Hin2). lia.
+Qed.
+
+(** ------------------------------------------------------------------ an operation that settles boosted rewards, taken apart *)
+(** [h0]: the module storage the claim runs on (the state's, possibly after this operation's own slice went
+    into the running week); [h1, w1]: right after the claim *)
+Definition slice_rel (cw : Z) (h h0 : bhost) : Prop :=
+  bh_rem h0 = bh_rem h /\ bh_sup h0 = bh_sup h /\ bh_cfg h0 = bh_cfg h /\ bh_und h0 = bh_und h /\
+  bh_lastcol h0 = bh_lastcol h /\ bh_pct h0 = bh_pct h /\ (forall w, w <> cw -> acc_ h0 w = acc_ h w).
+
+Lemma slice_rel_refl cw h : slice_rel cw h h.
+Proof. unfold slice_rel. repeat split. Qed.
+
+Lemma slice_rel_of cw h full h' b cut : take_reward_slice h cw full = Ok (h', b, cut) -> slice_rel cw h h'.
+Proof.
+  unfold take_reward_slice. destruct ((bh_pct h =? 0) || match bh_cfg h with None => true | Some _ => false end).
+  - intros Heq; inversion Heq; subst. apply slice_rel_refl.
+  - destruct (0 <? full * bh_pct h / BOOSTED_MAX_PERCENT).
+    + intros Heq. apply bind_ok in Heq. destruct Heq as (x & _ & Heq). inversion Heq; subst.
+      unfold slice_rel, acc_; simpl. repeat split. intros w Hw. apply aget_aset_other. congruence.
+    + intros Heq; inversion Heq; subst. apply slice_rel_refl.
+Qed.
+
+Lemma step_claim_decomp s op s' out u cur pos :
+  step s op = Ok (s', out) -> claim_of op = Some (u, cur, pos) ->
+  let cw := bcur_week s in
+  exists h0 h1 w1,
+    0 <= en_tok cur /\ 0 <= pos /\ slice_rel cw (b_h s) h0 /\
+    claim_boosted h0 (b_w s) u pos cw cur = Ok (h1, w1, o_det out) /\
+    o_b out = pay_total (o_det out) /\ o_swept out = [] /\
+    b_first s' = b_first s /\ b_epoch s' = b_epoch s /\
+    bh_rem (b_h s') = bh_rem h1 /\ bh_und (b_h s') = bh_und h1 /\ bh_lastcol (b_h s') = bh_lastcol h1 /\
+    (forall w, w <> cw -> acc_ (b_h s') w = acc_ h1 w /\ aget (bh_sup (b_h s')) w = aget (bh_sup h1) w) /\
+    rw_weak cw w1 (b_w s') /\
+    (forall w, w <> cw -> w <> cleared_week cw -> aget (w_energy (b_w s')) w = aget (w_energy w1) w).
+Proof.
+  intros Hs Hc. destruct op; try discriminate; simpl in Hc; inversion Hc; subst; clear Hc; simpl in Hs.
+  - (* BEnter *)
+    unfold ep_enter in Hs. destruct pre; [|discriminate]. destruct (wf_in cur pos full supply) eqn:Ew; [|discriminate].
+    apply wf_in_ok in Ew. destruct Ew as (W1 & W2 & W3 & W4).
+    apply bind_ok in Hs. destruct Hs as (cw & Hcw & Hs). destruct (current_week_b _ _ Hcw) as (-> & _).
+    apply bind_ok in Hs. destruct Hs as ([[h1 w1] det] & Hc & Hs).
+    apply bind_ok in Hs. destruct Hs as ([[h2 bs] cut] & Hsl & Hs).
+    apply bind_ok in Hs. destruct Hs as (w2 & Hu & Hs). inversion Hs; subst; clear Hs.
+    destruct (slice_rel_of _ _ _ _ _ _ Hsl) as (r1 & r2 & r3 & r4 & r5 & r6 & r7).
+    exists (b_h s), h1, w1. simpl. split; [exact W1|]. split; [exact W2|]. split; [apply slice_rel_refl|]. split; [exact Hc|].
+    repeat (split; [reflexivity || assumption|]).
+    split; [intros w Hw; unfold acc_; simpl; split; [apply (r7 w Hw) | rewrite aget_aset_other by congruence; rewrite r2; reflexivity]|].
+    unfold update_energy_and_progress in Hu. apply bind_ok in Hu. destruct Hu as (s1 & Hue & Heq). inversion Heq; subst; clear Heq.
+    split; [intros w; rewrite store_progress_rw; apply (uue_weak _ _ _ _ _ Hue)|].
+    intros w Hw1 Hw2. rewrite store_progress_energy. destruct (update_user_energy_frame _ _ _ _ _ Hue) as (_ & _ & He & _). apply He; assumption.
+  - (* BClaim *)
+    unfold ep_claim in Hs. destruct pre; [|discriminate]. destruct (wf_in cur pos full supply) eqn:Ew; [|discriminate].
+    apply wf_in_ok in Ew. destruct Ew as (W1 & W2 & W3 & W4).
+    apply bind_ok in Hs. destruct Hs as (cw & Hcw & Hs). destruct (current_week_b _ _ Hcw) as (-> & _).
+    apply bind_ok in Hs. destruct Hs as ([[h1 bs] cut] & Hsl & Hs).
+    apply bind_ok in Hs. destruct Hs as ([[h2 w1] det] & Hc & Hs). inversion Hs; subst; clear Hs.
+    exists h1, h2, w1. simpl. split; [exact W1|]. split; [exact W2|]. split; [apply (slice_rel_of _ _ _ _ _ _ Hsl)|]. split; [exact Hc|].
+    repeat (split; [reflexivity|]).
+    split; [intros w Hw; unfold acc_; simpl; split; [reflexivity | apply aget_aset_other; congruence]|].
+    split; [apply rw_weak_refl | intros; reflexivity].
+  - (* BCompound *)
+    unfold ep_compound in Hs. destruct pre; [|discriminate]. destruct (wf_in cur pos full supply) eqn:Ew; [|discriminate].
+    apply wf_in_ok in Ew. destruct Ew as (W1 & W2 & W3 & W4).
+    apply bind_ok in Hs. destruct Hs as (cw & Hcw & Hs). destruct (current_week_b _ _ Hcw) as (-> & _).
+    apply bind_ok in Hs. destruct Hs as ([[h1 bs] cut] & Hsl & Hs).
+    apply bind_ok in Hs. destruct Hs as ([[h2 w1] det] & Hc & Hs).
+    apply bind_ok in Hs. destruct Hs as (w2 & Hu & Hs). inversion Hs; subst; clear Hs.
+    exists h1, h2, w1. simpl. split; [exact W1|]. split; [exact W2|]. split; [apply (slice_rel_of _ _ _ _ _ _ Hsl)|]. split; [exact Hc|].
+    repeat (split; [reflexivity|]).
+    split; [intros w Hw; unfold acc_; simpl; split; [reflexivity | apply aget_aset_other; congruence]|].
+    unfold update_energy_and_progress in Hu. apply bind_ok in Hu. destruct Hu as (s1 & Hue & Heq). inversion Heq; subst; clear Heq.
+    split; [intros w; rewrite store_progress_rw; apply (uue_weak _ _ _ _ _ Hue)|].
+    intros w Hw1 Hw2. rewrite store_progress_energy. destruct (update_user_energy_frame _ _ _ _ _ Hue) as (_ & _ & He & _). apply He; assumption.
+  - (* BExit *)
+    unfold ep_exit in Hs. destruct pre; [|discriminate]. destruct (wf_in cur pos full supply && (0 <=? posa)) eqn:Ew; [|discriminate].
+    apply andb_true_iff in Ew. destruct Ew as (Ew & _). apply wf_in_ok in Ew. destruct Ew as (W1 & W2 & W3 & W4).
+    apply bind_ok in Hs. destruct Hs as (cw & Hcw & Hs). destruct (current_week_b _ _ Hcw) as (-> & _).
+    apply bind_ok in Hs. destruct Hs as ([[h1 bs] cut] & Hsl & Hs).
+    apply bind_ok in Hs. destruct Hs as ([[h2 w1] det] & Hc & Hs).
+    apply bind_ok in Hs. destruct Hs as (w2 & Hu & Hs). inversion Hs; subst; clear Hs.
+    exists h1, h2, w1. simpl. split; [exact W1|]. split; [exact W2|]. split; [apply (slice_rel_of _ _ _ _ _ _ Hsl)|]. split; [exact Hc|].
+    repeat (split; [reflexivity|]).
+    split; [intros w Hw; unfold acc_; simpl; split; [reflexivity | apply aget_aset_other; congruence]|].
+    unfold clear_if_needed in Hu. apply bind_ok in Hu. destruct Hu as (oc & _ & Hu).
+    destruct oc as [cfg|]; [|inversion Hu; subst; split; [apply rw_weak_refl | intros; reflexivity]].
+    unfold clear_user_energy in Hu. destruct (fa_minf (last_slot cfg) <=? posa); [inversion Hu; subst; split; [apply rw_weak_refl | intros; reflexivity]|].
+    apply bind_ok in Hu. destruct Hu as (s1 & Hue & Heq). inversion Heq; subst; clear Heq.
+    split; [intros w; unfold rw_; simpl; apply (uue_weak _ _ _ _ _ Hue)|].
+    intros w Hw1 Hw2. simpl. destruct (update_user_energy_frame _ _ _ _ _ Hue) as (_ & _ & He & _). apply He; assumption.
+  - (* BMerge *)
+    unfold ep_merge in Hs. destruct pre; [|discriminate]. destruct (wf_in cur pos 0 0) eqn:Ew; [|discriminate].
+    apply wf_in_ok in Ew. destruct Ew as (W1 & W2 & W3 & W4).
+    apply bind_ok in Hs. destruct Hs as (cw & Hcw & Hs). destruct (current_week_b _ _ Hcw) as (-> & _).
+    apply bind_ok in Hs. destruct Hs as ([[h1 w1] det] & Hc & Hs). inversion Hs; subst; clear Hs.
+    exists (b_h s), h1, w1. simpl. split; [exact W1|]. split; [exact W2|]. split; [apply slice_rel_refl|]. split; [exact Hc|].
+    repeat (split; [reflexivity|]). split; [intros; split; reflexivity|]. split; [apply rw_weak_refl | intros; reflexivity].
+  - (* BClaimBoosted *)
+    unfold ep_claim_boosted in Hs. destruct pre; [|discriminate]. destruct (wf_in cur pos full supply) eqn:Ew; [|discriminate].
+    apply wf_in_ok in Ew. destruct Ew as (W1 & W2 & W3 & W4). destruct (negb (pos =? 0)); [|discriminate].
+    apply bind_ok in Hs. destruct Hs as (cw & Hcw & Hs). destruct (current_week_b _ _ Hcw) as (-> & _).
+    apply bind_ok in Hs. destruct Hs as ([[h1 bs] cut] & Hsl & Hs).
+    apply bind_ok in Hs. destruct Hs as ([[h2 w1] det] & Hc & Hs). inversion Hs; subst; clear Hs.
+    exists h1, h2, w1. simpl. split; [exact W1|]. split; [exact W2|]. split; [apply (slice_rel_of _ _ _ _ _ _ Hsl)|]. split; [exact Hc|].
+    repeat (split; [reflexivity|]).
+    split; [intros w Hw; unfold acc_; simpl; split; [reflexivity | apply aget_aset_other; congruence]|].
+    split; [apply rw_weak_refl | intros; reflexivity].
+Qed.
+
+(** ------------------------------------------------------------------ the per-week formula at the endpoints *)
+(** every entry of the breakdown is one hook call on the week's own, so far untouched, data *)
+Lemma claim_weeks_calls pos cfg cw n : forall h s p h' s' p' det,
+  0 <= en_tok (pr_en p) ->
+  claim_weeks bhost (boosted_hook pos cfg cw) n h s p = Ok (h', s', p', det) ->
+  forall w r, In (w, r) det ->
+    exists hi si hi' si',
+      boosted_hook pos cfg cw hi si w (energy_at p w) (aget (w_energy s) w) = Ok (hi', si', r) /\
+      bh_sup hi = bh_sup h /\ acc_ hi w = acc_ h w /\ rem_ hi w = rem_ h w /\ rw_ si w = rw_ s w /\
+      rw_ s' w = rw_ si' w /\ acc_ h' w = acc_ hi' w /\ rem_ h' w = rem_ hi' w.
+Proof.
+  induction n as [|n IH]; intros h s p h' s' p' det Ht; simpl claim_weeks.
+  - intros Heq; inversion Heq; subst. intros w r [].
+  - intros Heq. apply bind_ok in Heq. destruct Heq as ([[[h1 s1] p1] r0] & Hs & Heq).
+    apply bind_ok in Heq. destruct Heq as ([[[h2 s2] p2] rs] & Hr & Heq). inversion Heq; subst; clear Heq.
+    unfold claim_single in Hs. apply bind_ok in Hs. destruct Hs as ([[hx sx] rx] & Hh & Hs). inversion Hs; subst; clear Hs.
+    rewrite advance_week_adv in Hr by assumption.
+    assert (Ht1 : 0 <= en_tok (pr_en (adv p 1))) by (rewrite adv_tok; exact Ht).
+    destruct (claim_weeks_money _ _ _ _ _ _ _ _ _ _ _ Ht1 Hr) as (M1 & M2 & M3 & _ & _ & _ & _ & M8 & _).
+    destruct (hook_effect _ _ _ _ _ _ _ _ _ _ _ Hh) as (E1 & E2 & (f1 & _ & _ & _ & f5) & _).
+    rewrite adv_week in *.
+    intros w r [Heq|Hin].
+    + inversion Heq; subst w r; clear Heq.
+      assert (Hn : ~ In (pr_week p) (zseq (pr_week p + 1) n)) by (rewrite zseq_in; lia).
+      destruct (M8 _ Hn) as ((u1 & u2 & u3) & _).
+      exists h, s, h1, s1. rewrite <- en_amount_energy_at. split; [exact Hh|]. repeat (split; [reflexivity|]).
+      split; [exact u3|]. split; [exact u1 | exact u2].
+    + assert (Hw : In w (zseq (pr_week p + 1) n)) by (rewrite <- M2; apply (in_map fst) in Hin; exact Hin).
+      assert (Hne : w <> pr_week p) by (apply zseq_in in Hw; lia).
+      destruct (IH _ _ _ _ _ _ _ Ht1 Hr w r Hin) as (hi & si & hi' & si' & C1 & C2 & C3 & C4 & C5 & C6 & C7 & C8).
+      exists hi, si, hi', si'. rewrite energy_at_adv in C1. destruct E1 as (_ & e2 & _). rewrite e2 in C1.
+      split; [exact C1|]. split; [congruence|]. destruct (f5 w Hne) as (a1 & a2).
+      split; [congruence|]. split; [congruence|]. split; [rewrite C5; apply E2; exact Hne|].
+      split; [exact C6|]. split; [exact C7 | exact C8].
+Qed.
+
+(** what is paid for one processed week, in the property's own terms *)
+Definition week_payment (s s' : bst) (pos : Z) (cfg : bconfig) (p : progress) (w : Z) (r : list (Z * Z)) : Prop :=
+  let e := energy_at p w in let E := view_total_energy s w in let F := view_sup s w in
+  ((E = 0 \/ F = 0) /\ r = []) \/
+  (exists fa, E <> 0 /\ F <> 0 /\ get_factors_for_week cfg w = Ok fa /\
+     (((e < fa_mine fa \/ pos < fa_minf fa) /\ r = []) \/
+      (fa_mine fa <= e /\ fa_minf fa <= pos /\
+       exists R, view_total_rewards s' w = [(RTOK, R)] /\
+         (view_total_rewards s w = [] -> R = view_acc s w) /\
+         (view_total_rewards s w <> [] -> view_total_rewards s w = [(RTOK, R)]) /\
+         ((R = 0 /\ r = []) \/
+          (R <> 0 /\ fa_ce fa + fa_cf fa <> 0 /\
+           let x := Z.min (fa_max fa * R * pos / F)
+                          ((R * fa_ce fa * e / E + R * fa_cf fa * pos / F) / (fa_ce fa + fa_cf fa)) in
+           ((x <= 0 /\ r = []) \/ (0 < x /\ r = [(RTOK, x)]))))))).
+
+Lemma step_formula s g op s' out u cur pos :
+  BInv s g -> step s op = Ok (s', out) -> claim_of op = Some (u, cur, pos) ->
+  (o_det out = [] /\ (bh_cfg (b_h s) = None \/ view_progress s u = None \/
+                      exists p, view_progress s u = Some p /\ pr_week p = bcur_week s)) \/
+  (exists p c cfg,
+     view_progress s u = Some p /\ bh_cfg (b_h s) = Some c /\ cfg_update c (bcur_week s) None = Ok cfg /\
+     map fst (o_det out) = claim_range p (bcur_week s) /\
+     forall w r, In (w, r) (o_det out) ->
+       pr_week p <= w /\ bcur_week s - MAXW <= w < bcur_week s /\ week_payment s s' pos cfg p w r).
+Proof.
+  intros Hi Hs Hc. pose proof Hi as (Htime & Hpos & HT & HC & HM & Hpct).
+  destruct (step_claim_decomp _ _ _ _ _ _ _ Hs Hc) as (h0 & h1 & w1 & W1 & W2 & Hrel & Hcb & _ & _ & _ & _ & D1 & _ & _ & D4 & D5 & _).
+  set (cw := bcur_week s) in *.
+  destruct Hrel as (r1 & r2 & r3 & r4 & r5 & r6 & r7).
+  assert (Hwf : forall p, pfind (w_prog (b_w s)) u = Some p -> 0 <= en_tok (pr_en p)) by (intros p Hp; apply (T_find _ _ _ _ HT Hp)).
+  destruct (claim_boosted_summary _ _ _ _ _ _ _ _ _ Hwf Hcb) as [(Hn & _ & _ & Hd)|(c & cfg & s1 & Hcfg & Hu & Hue & _ & _ & _ & Hm & (S1 & _))].
+  - left. split; [exact Hd|]. left. rewrite <- r3. exact Hn.
+  - unfold view_progress. destruct (pfind (w_prog (b_w s)) u) as [p|] eqn:Ep.
+    + right. destruct Hm as (Hle & s2 & Hs2 & Hcw). exists p, c, cfg. split; [reflexivity|]. split; [rewrite <- r3; exact Hcfg|].
+      split; [exact Hu|]. split; [exact S1|].
+      intros w r Hin.
+      assert (Hwin : In w (claim_range p cw)) by (rewrite <- S1; apply (in_map fst) in Hin; exact Hin).
+      destruct (claim_range_window _ _ _ Hle Hwin) as (Hw1 & Hw2). split; [exact Hw2|]. split; [exact Hw1|].
+      assert (Ht : 0 <= en_tok (pr_en (adv p (first_claim_week p cw - pr_week p)))) by (rewrite adv_tok; apply Hwf; reflexivity).
+      destruct (claim_weeks_calls _ _ _ _ _ _ _ _ _ _ _ Ht Hcw w r Hin) as (hi & si & hi' & si' & C1 & C2 & C3 & C4 & C5 & C6 & C7 & C8).
+      rewrite energy_at_adv in C1.
+      (* the week's data as seen by the views of the pre-state *)
+      destruct (update_user_energy_frame _ _ _ _ _ Hue) as (_ & _ & He & Hrw).
+      assert (Hnc : w <> cleared_week cw) by (unfold cleared_week; lia).
+      assert (HE : aget (w_energy s1) w = view_total_energy s w) by (apply He; [lia | exact Hnc]).
+      assert (HF : aget (bh_sup hi) w = view_sup s w) by (unfold view_sup; rewrite C2, r2; reflexivity).
+      assert (HRW : rw_ si w = view_total_rewards s w) by (rewrite C5; unfold rw_, view_total_rewards; apply Hrw; exact Hnc).
+      assert (HA : acc_ hi w = view_acc s w) by (rewrite C3; unfold view_acc; apply r7; lia).
+      assert (HRW' : view_total_rewards s' w = rw_ si' w).
+      { unfold view_total_rewards. fold (rw_ (b_w s') w). destruct (D5 w) as [E|(_ & E)]; [|contradiction].
+        rewrite E, Hs2, store_progress_rw. exact C6. }
+      rewrite HE in C1. unfold week_payment. fold cw.
+      destruct (hook_cases _ _ _ _ _ _ _ _ _ _ _ C1 _ eq_refl) as
+        [(_ & _ & -> & [Hz|[Hz|(fa & Hfa & Hlow)]])|(fa & hm & t & R & N1 & N2 & Hfa & G1 & G2 & Hcg & Hpay)].
+      * left. split; [left; exact Hz | reflexivity].
+      * left. split; [right; rewrite <- HF; exact Hz | reflexivity].
+      * destruct (Z.eq_dec (view_total_energy s w) 0) as [Z1|Z1]; [left; split; [left; exact Z1 | reflexivity]|].
+        destruct (Z.eq_dec (view_sup s w) 0) as [Z2|Z2]; [left; split; [right; exact Z2 | reflexivity]|].
+        right. exists fa. split; [exact Z1|]. split; [exact Z2|]. split; [exact Hfa|]. left. split; [exact Hlow | reflexivity].
+      * right. exists fa. rewrite HF in *. split; [exact N1|]. split; [exact N2|]. split; [exact Hfa|]. right.
+        split; [exact G1|]. split; [exact G2|].
+        (* the frozen total: token and amount *)
+        destruct (hook_effect _ _ _ _ _ _ _ _ _ _ _ C1) as (_ & _ & _ & _ & Hfz & _).
+        assert (Hsi' : rw_ si' w = [(t, R)]).
+        { destruct (collect_and_get_cases _ _ _ _ _ _ _ Hcg) as [(_ & Htt & _ & ->)|(_ & c0 & c0' & _ & _ & _ & Htt & ->)].
+          - symmetry. exact Htt.
+          - unfold rw_; simpl. rewrite rget_rset_same. reflexivity. }
+        assert (HtR : t = RTOK /\ (view_total_rewards s w = [] -> R = view_acc s w) /\
+                      (view_total_rewards s w <> [] -> view_total_rewards s w = [(RTOK, R)])).
+        { destruct Hfz as [E|(E0 & E1 & _)].
+          - rewrite Hsi', HRW in E. assert (Hne : rw_ (b_w s) w <> []) by (unfold rw_, view_total_rewards in *; rewrite <- E; discriminate).
+            destruct (m_frozen _ _ _ _ HM w Hne) as (F1 & _). unfold view_total_rewards, rw_ in *. rewrite F1 in E. inversion E; subst.
+            split; [reflexivity|]. split; [intros Hx; rewrite Hx in F1; discriminate | intros _; exact F1].
+          - rewrite Hsi' in E1. inversion E1; subst. rewrite HRW in E0. split; [reflexivity|].
+            split; [intros _; exact HA | intros Hx; contradiction]. }
+        destruct HtR as (-> & HR1 & HR2).
+        exists R. split; [rewrite HRW'; exact Hsi'|]. split; [exact HR1|]. split; [exact HR2|].
+        unfold boosted_amount, max_rewards, by_energy, by_tokens in Hpay.
+        destruct Hpay as [(-> & _ & [HR0|(HR0 & Hc0 & Hx)])|(HR0 & Hc0 & Hx & _ & -> & _)].
+        -- left. split; [exact HR0 | reflexivity].
+        -- right. split; [exact HR0|]. split; [exact Hc0|]. left. split; [exact Hx | reflexivity].
+        -- right. split; [exact HR0|]. split; [exact Hc0|]. right. split; [exact Hx | reflexivity].
+    + left. destruct Hm as (-> & _). split; [reflexivity|]. right. left. reflexivity.
+Qed.
+
+(** ------------------------------------------------------------------ collectUndistributedBoostedRewards *)
+Lemma collect_char s c s' out :
+  ep_collect s c = Ok (s', out) ->
+  let cw := bcur_week s in let first := view_lastcol s + 1 in let last := cw - (MAXW + 1) in
+  c = ADMIN /\ MAXW + 1 < cw /\ b_first s <= b_epoch s /\
+  b_w s' = b_w s /\ b_first s' = b_first s /\ b_epoch s' = b_epoch s /\
+  bh_sup (b_h s') = bh_sup (b_h s) /\ bh_pct (b_h s') = bh_pct (b_h s) /\ bh_cfg (b_h s') = bh_cfg (b_h s) /\
+  o_b out = 0 /\ o_det out = [] /\ o_cut out = 0 /\
+  ((last < first /\ s' = s /\ o_swept out = []) \/
+   (first <= last /\ view_lastcol s' = last /\
+    o_swept out = map (fun w => (w, view_rem s w + view_acc s w)) (zseq first (Z.to_nat (last - first + 1))) /\
+    view_und s' = view_und s + total (o_swept out) /\
+    (forall w, first <= w <= last -> view_acc s' w = 0 /\ view_rem s' w = 0) /\
+    (forall w, ~ (first <= w <= last) -> view_acc s' w = view_acc s w /\ view_rem s' w = view_rem s w))).
+Proof.
+  unfold ep_collect. intros Hs. unfold admin in Hs. destruct (c =? ADMIN) eqn:Ec; [|discriminate]. apply Z.eqb_eq in Ec.
+  apply bind_ok in Hs. destruct Hs as (cw & Hcw & Hs). destruct (current_week_b _ _ Hcw) as (-> & Htime).
+  destruct (COLLECT_OFFSET <? bcur_week s) eqn:Eo; [|discriminate]. apply Z.ltb_lt in Eo. rewrite collect_offset_eq in *.
+  simpl. split; [exact Ec|]. split; [exact Eo|]. split; [exact Htime|]. unfold view_lastcol.
+  destruct (bcur_week s - (MAXW + 1) <? bh_lastcol (b_h s) + 1) eqn:El.
+  - apply Z.ltb_lt in El. inversion Hs; subst; clear Hs. repeat (split; [reflexivity|]). left. repeat split. exact El.
+  - apply Z.ltb_ge in El.
+    destruct (sweep (Z.to_nat (bcur_week s - (MAXW + 1) - (bh_lastcol (b_h s) + 1) + 1)) (bh_lastcol (b_h s) + 1) (b_h s)) as [h1 l] eqn:Esw.
+    inversion Hs; subst; clear Hs. simpl.
+    destruct (sweep_spec _ _ _ _ _ Esw) as (S1 & S2 & S3 & S4 & S5 & S6 & S7 & S8 & _).
+    repeat (split; [reflexivity || assumption|]). right. split; [exact El|]. split; [reflexivity|].
+    split; [exact S1|]. split; [unfold view_und; simpl; exact S4|].
+    set (n := Z.to_nat (bcur_week s - (MAXW + 1) - (bh_lastcol (b_h s) + 1) + 1)) in *.
+    assert (Hin : forall w, in_rng (bh_lastcol (b_h s) + 1) n w = true <-> bh_lastcol (b_h s) + 1 <= w <= bcur_week s - (MAXW + 1)).
+    { intros w. unfold in_rng. rewrite andb_true_iff, Z.leb_le, Z.ltb_lt. unfold n. lia. }
+    split; intros w Hw; unfold view_acc, view_rem; simpl; fold (acc_ h1 w) (rem_ h1 w); rewrite S2, S3.
+    + apply Hin in Hw. rewrite Hw. split; reflexivity.
+    + destruct (in_rng (bh_lastcol (b_h s) + 1) n w) eqn:E; [apply Hin in E; contradiction | split; reflexivity].
+Qed.
+
+(** a second collect in the same week moves nothing *)
+Lemma collect_idem s c s' out : ep_collect s c = Ok (s', out) -> ep_collect s' c = Ok (s', out0).
+Proof.
+  intros Hs. destruct (collect_char _ _ _ _ Hs) as (Hc & Ho & Ht & E1 & E2 & E3 & _ & _ & _ & _ & _ & _ & Hcase).
+  assert (Hcw : bcur_week s' = bcur_week s) by (unfold bcur_week; rewrite E2, E3; reflexivity).
+  assert (Hl : bcur_week s - (MAXW + 1) < view_lastcol s' + 1).
+  { destruct Hcase as [(Hlt & -> & _)|(_ & -> & _)]; lia. }
+  unfold ep_collect, admin. rewrite Hc, Z.eqb_refl. unfold current_week, week_for_epoch. rewrite E2, E3.
+  assert (Ele : (b_first s <=? b_epoch s) = true) by (apply Z.leb_le; exact Ht). rewrite Ele. simpl bind.
+  fold (bcur_week s). rewrite collect_offset_eq.
+  assert (Eo : (MAXW + 1 <? bcur_week s) = true) by (apply Z.ltb_lt; exact Ho). rewrite Eo.
+  unfold view_lastcol in Hl.
+  assert (El : (bcur_week s - (MAXW + 1) <? bh_lastcol (b_h s') + 1) = true) by (apply Z.ltb_lt; exact Hl). rewrite El. reflexivity.
+Qed.
+
+Lemma collect_perm s c : c <> ADMIN -> ep_collect s c = Err EPerm.
+Proof. intros Hc. unfold ep_collect, admin. destruct (c =? ADMIN) eqn:E; [apply Z.eqb_eq in E; contradiction | reflexivity]. Qed.
+
+(** the admin's collect never aborts once there is a week outside the window *)
+Lemma collect_total s : b_first s <= b_epoch s -> MAXW + 1 < bcur_week s -> exists s' out, ep_collect s ADMIN = Ok (s', out).
+Proof.
+  intros Ht Ho. unfold ep_collect, admin. rewrite Z.eqb_refl. unfold current_week, week_for_epoch.
+  assert (Ele : (b_first s <=? b_epoch s) = true) by (apply Z.leb_le; exact Ht). rewrite Ele. simpl bind.
+  fold (bcur_week s). rewrite collect_offset_eq.
+  assert (Eo : (MAXW + 1 <? bcur_week s) = true) by (apply Z.ltb_lt; exact Ho). rewrite Eo.
+  destruct (bcur_week s - (MAXW + 1) <? bh_lastcol (b_h s) + 1); [eexists; eexists; reflexivity|].
+  destruct (sweep _ _ _) as [h1 l]. eexists; eexists; reflexivity.
+Qed.
+
+(** operations that do not settle a user *)
+Lemma step_noclaim s op s' out :
+  step s op = Ok (s', out) -> claim_of op = None ->
+  o_det out = [] /\ o_b out = 0 /\ rw_weak (bcur_week s) (b_w s) (b_w s') /\
+  ((exists c, op = BCollect c /\ ep_collect s c = Ok (s', out)) \/
+   (o_swept out = [] /\ bh_lastcol (b_h s') = bh_lastcol (b_h s) /\ bh_und (b_h s') = bh_und (b_h s) /\
+    bh_rem (b_h s') = bh_rem (b_h s) /\ forall w, w <> bcur_week s -> acc_ (b_h s') w = acc_ (b_h s) w)).
+Proof.
+  intros Hs Hc. destruct op; try discriminate; simpl in Hs.
+  - unfold ep_advance in Hs. destruct (0 <=? n); [|discriminate]. inversion Hs; subst. simpl.
+    repeat (split; [reflexivity || apply rw_weak_refl|]). right. repeat split.
+  - unfold ep_settle in Hs. destruct pre; [|discriminate]. destruct (0 <=? full); [|discriminate].
+    apply bind_ok in Hs. destruct Hs as (cw & Hcw & Hs). destruct (current_week_b _ _ Hcw) as (-> & _).
+    apply bind_ok in Hs. destruct Hs as ([[h1 bs] cut] & Hsl & Hs). inversion Hs; subst; clear Hs. simpl.
+    destruct (slice_rel_of _ _ _ _ _ _ Hsl) as (r1 & r2 & r3 & r4 & r5 & r6 & r7).
+    repeat (split; [reflexivity || apply rw_weak_refl|]). right. repeat split; assumption.
+  - unfold ep_set_pct in Hs. destruct (admin c); [|discriminate]. destruct ((0 <=? p) && (p <=? BOOSTED_MAX_PERCENT)); [|discriminate].
+    destruct (0 <=? full); [|discriminate].
+    apply bind_ok in Hs. destruct Hs as (cw & Hcw & Hs). destruct (current_week_b _ _ Hcw) as (-> & _).
+    apply bind_ok in Hs. destruct Hs as ([[h1 bs] cut] & Hsl & Hs). inversion Hs; subst; clear Hs. simpl.
+    destruct (slice_rel_of _ _ _ _ _ _ Hsl) as (r1 & r2 & r3 & r4 & r5 & r6 & r7).
+    repeat (split; [reflexivity || apply rw_weak_refl|]). right. repeat split; assumption.
+  - unfold ep_set_factors in Hs. destruct (admin c); [|discriminate].
+    destruct ((0 <=? fa_max f) && (0 <=? fa_ce f) && (0 <=? fa_cf f)); [|discriminate].
+    destruct ((0 <? fa_mine f) && (0 <? fa_minf f)); [|discriminate].
+    apply bind_ok in Hs. destruct Hs as (cw & Hcw & Hs).
+    apply bind_ok in Hs. destruct Hs as (c' & Hu & Hs). inversion Hs; subst; clear Hs. simpl.
+    repeat (split; [reflexivity || apply rw_weak_refl|]). right. repeat split.
+  - destruct (collect_char _ _ _ _ Hs) as (_ & _ & _ & E1 & _ & _ & _ & _ & _ & B1 & B2 & _).
+    split; [exact B2|]. split; [exact B1|]. split; [rewrite E1; apply rw_weak_refl|]. left. exists c. split; [reflexivity | exact Hs].
+  - unfold ep_update_energy in Hs. destruct (0 <=? en_tok cur); [|discriminate].
+    apply bind_ok in Hs. destruct Hs as (cw & Hcw & Hs). destruct (current_week_b _ _ Hcw) as (-> & _).
+    apply bind_ok in Hs. destruct Hs as (w' & Hu & Hs). inversion Hs; subst; clear Hs. simpl.
+    unfold update_energy_for_user in Hu. destruct (match pfind (w_prog (b_w s)) u with Some p => pr_week p =? bcur_week s | None => true end); [|discriminate].
+    destruct (uep_spec _ _ _ _ _ Hu) as (_ & _ & U3).
+    split; [reflexivity|]. split; [reflexivity|]. split; [exact U3|]. right. repeat split.
+Qed.
+
+(** ------------------------------------------------------------------ sweeps along a history *)
+Lemma BInv_wf s g u p : BInv s g -> pfind (w_prog (b_w s)) u = Some p -> 0 <= en_tok (pr_en p).
+Proof. intros (_ & _ & HT & _) Hp. apply (T_find _ _ _ _ HT Hp). Qed.
+
+Lemma step_sweeps s g op s' out :
+  BInv s g -> step s op = Ok (s', out) ->
+  view_lastcol s <= view_lastcol s' /\
+  (forall w, In w (map fst (o_swept out)) ->
+     view_lastcol s < w <= view_lastcol s' /\ w <= bcur_week s - MAXW - 1 /\ exists c, op = BCollect c) /\
+  NoDup (map fst (o_swept out)).
+Proof.
+  intros Hi Hs. destruct (claim_of op) as [[[u cur] pos]|] eqn:Ec.
+  - destruct (step_claim_decomp _ _ _ _ _ _ _ Hs Ec) as (h0 & h1 & w1 & _ & _ & Hrel & Hcb & _ & Hsw & _ & _ & _ & _ & D3 & _).
+    destruct Hrel as (_ & _ & _ & _ & r5 & _).
+    assert (Hwf : forall p, pfind (w_prog (b_w s)) u = Some p -> 0 <= en_tok (pr_en p)) by (intros p Hp; apply (BInv_wf _ _ _ _ Hi Hp)).
+    assert (Hl : bh_lastcol h1 = bh_lastcol h0).
+    { destruct (claim_boosted_summary _ _ _ _ _ _ _ _ _ Hwf Hcb) as [(_ & -> & _)|(c & cfg & s1 & _ & _ & _ & _ & _ & _ & _ & (_ & _ & _ & S4 & _))]; [reflexivity | exact S4]. }
+    rewrite Hsw. unfold view_lastcol. rewrite D3, Hl, r5. split; [lia|]. split; [intros w []|constructor].
+  - destruct (step_noclaim _ _ _ _ Hs Ec) as (_ & _ & _ & [(c & -> & Hc)|(Hsw & Hl & _)]).
+    + destruct (collect_char _ _ _ _ Hc) as (_ & Ho & _ & _ & _ & _ & _ & _ & _ & _ & _ & _ & Hcase).
+      destruct Hcase as [(_ & -> & ->)|(Hle & Hl & Hsw & _)].
+      * split; [lia|]. split; [intros w []|constructor].
+      * rewrite Hsw, map_map. simpl. rewrite map_id. rewrite Hl. split; [lia|]. split; [|apply zseq_nodup].
+        intros w Hin. apply zseq_in in Hin. split; [lia|]. split; [lia | exists c; reflexivity].
+    + rewrite Hsw. unfold view_lastcol. rewrite Hl. split; [lia|]. split; [intros w []|constructor].
+Qed.
+
+Fixpoint bsweep_log (s : bst) (ops : list bop) : list Z :=
+  match ops with
+  | [] => []
+  | op :: t => match step s op with
+               | Ok (s', out) => map fst (o_swept out) ++ bsweep_log s' t
+               | Err _ => bsweep_log s t
+               end
+  end.
+
+Lemma bsweep_log_once ops : forall s g, BInv s g ->
+  (forall w, In w (bsweep_log s ops) -> view_lastcol s < w) /\ NoDup (bsweep_log s ops).
+Proof.
+  induction ops as [|op t IH]; intros s g Hi; simpl.
+  - split; [intros w [] | constructor].
+  - destruct (step s op) as [[s' out]|] eqn:Es; [|apply (IH s g Hi)].
+    destruct (step_sweeps _ _ _ _ _ Hi Es) as (Hmono & Hev & Hnd).
+    destruct (IH s' _ (step_inv _ _ _ _ _ Hi Es)) as (IH1 & IH2).
+    split.
+    + intros w Hin. apply in_app_or in Hin. destruct Hin as [Hin|Hin]; [apply (Hev _ Hin) | specialize (IH1 _ Hin); lia].
+    + apply NoDup_app_disjoint; [exact Hnd | exact IH2|].
+      intros w Hin Hin2. destruct (Hev _ Hin) as (Hx & _). specialize (IH1 _ Hin2). lia.
+Qed.
+
+(** ------------------------------------------------------------------ reachable states: pool, leftover, conservation *)
+Lemma reach_pool epoch ops w :
+  let s := fst (bgrun (init_b epoch, bg0) ops) in let g := snd (bgrun (init_b epoch, bg0) ops) in
+  0 <= view_acc s w /\ 0 <= view_rem s w /\ 0 <= gpaid g w /\ 0 <= gswept g w /\
+  gcuts g w = view_acc s w + view_rem s w + gpaid g w + gswept g w /\
+  gpaid g w <= gcuts g w /\
+  (view_total_rewards s w <> [] ->
+     view_total_rewards s w = [(RTOK, gcuts g w)] /\ view_acc s w = 0 /\ w < bcur_week s /\
+     view_rem s w = gcuts g w - gpaid g w - gswept g w) /\
+  (bcur_week s - MAXW <= w -> view_total_rewards s w = [] -> view_rem s w = 0 /\ gpaid g w = 0 /\ gswept g w = 0).
+Proof.
+  intros s g. destruct (reach_inv epoch ops) as (_ & _ & _ & _ & M & _). fold s g in M.
+  unfold view_acc, view_rem, view_total_rewards. fold (acc_ (b_h s) w) (rem_ (b_h s) w) (rw_ (b_w s) w).
+  destruct (m_nn _ _ _ _ M w) as (N1 & N2). destruct (m_gnn _ _ _ _ M w) as (G1 & G2). pose proof (m_week _ _ _ _ M w) as Hw.
+  split; [exact N1|]. split; [exact N2|]. split; [exact G1|]. split; [exact G2|]. split; [exact Hw|]. split; [lia|].
+  split.
+  - intros Hne. destruct (m_frozen _ _ _ _ M w Hne) as (F1 & F2). split; [exact F1|]. split; [exact F2|].
+    split; [apply (m_fut _ _ _ _ M w Hne) | lia].
+  - intros Hlo He. destruct (m_win _ _ _ _ M w Hlo He) as (R0 & P0). destruct (m_window_unswept _ _ _ _ w M Hlo) as (S0 & _).
+    repeat split; assumption.
+Qed.
+
+Lemma reach_leftover epoch ops w :
+  let s := fst (bgrun (init_b epoch, bg0) ops) in let g := snd (bgrun (init_b epoch, bg0) ops) in
+  view_und s = g_tswept g /\ 0 <= view_und s /\
+  (1 <= w <= view_lastcol s ->
+     view_acc s w = 0 /\ view_rem s w = 0 /\ gswept g w = gcuts g w - gpaid g w /\ w <= bcur_week s - MAXW - 1) /\
+  (gswept g w <> 0 -> 1 <= w <= view_lastcol s).
+Proof.
+  intros s g. destruct (reach_inv epoch ops) as (_ & Hpos & _ & _ & M & _). fold s g in M, Hpos.
+  destruct (m_und _ _ _ _ M) as (U1 & U2). split; [exact U1|]. split; [exact U2|]. split; [|apply (m_swept _ _ _ _ M w)].
+  intros Hw. destruct (m_done _ _ _ _ M w Hw) as (D1 & D2). pose proof (m_week _ _ _ _ M w) as Hk.
+  destruct (m_lastcol _ _ _ _ M) as (L0 & L1). unfold view_acc, view_rem, view_lastcol in *. fold (acc_ (b_h s) w) (rem_ (b_h s) w).
+  repeat split; try assumption; lia.
+Qed.
+
+Lemma reach_collectable epoch ops w :
+  let s := fst (bgrun (init_b epoch, bg0) ops) in
+  1 <= w <= bcur_week s - MAXW - 1 ->
+  exists s' out, step s (BCollect ADMIN) = Ok (s', out) /\ w <= view_lastcol s' /\
+                 (view_lastcol s < w -> In w (map fst (o_swept out))).
+Proof.
+  intros s Hw. destruct (reach_inv epoch ops) as (Htime & _). fold s in Htime.
+  destruct (collect_total s Htime) as (s' & out & Hc); [lia|]. exists s', out. split; [exact Hc|].
+  destruct (collect_char _ _ _ _ Hc) as (_ & _ & _ & _ & _ & _ & _ & _ & _ & _ & _ & _ & [(Hlt & -> & _)|(Hle & Hl & Hsw & _)]).
+  - split; [lia | intros; lia].
+  - split; [lia|]. intros Hgt. rewrite Hsw, map_map. simpl. rewrite map_id. apply zseq_in. lia.
+Qed.
+
+Lemma reach_conservation epoch ops :
+  let s := fst (bgrun (init_b epoch, bg0) ops) in let g := snd (bgrun (init_b epoch, bg0) ops) in
+  asum (bh_acc (b_h s)) + asum (bh_rem (b_h s)) + view_und s + g_tpaid g = g_tcuts g /\
+  view_und s = g_tswept g /\ NoDup (akeys (bh_acc (b_h s))) /\ NoDup (akeys (bh_rem (b_h s))).
+Proof.
+  intros s g. destruct (reach_inv epoch ops) as (_ & _ & _ & _ & M & _). fold s g in M.
+  pose proof (m_glob _ _ _ _ M) as Hg. destruct (m_und _ _ _ _ M) as (U1 & _). destruct (m_nd _ _ _ _ M) as (N1 & N2).
+  unfold msum, view_und in *. repeat split; assumption.
+Qed.
+
+(** the ghost totals are what the operations handed out *)
+Fixpoint out_log (s : bst) (ops : list bop) : list bout :=
+  match ops with
+  | [] => []
+  | op :: t => match step s op with
+               | Ok (s', out) => out :: out_log s' t
+               | Err _ => out_log s t
+               end
+  end.
+Definition zsum_of (f : bout -> Z) (l : list bout) : Z := fold_right (fun o acc => f o + acc) 0 l.
+
+Lemma ghost_totals ops : forall s g,
+  let g' := snd (bgrun (s, g) ops) in
+  g_tcuts g' = g_tcuts g + zsum_of o_cut (out_log s ops) /\
+  g_tpaid g' = g_tpaid g + zsum_of o_b (out_log s ops) /\
+  g_tswept g' = g_tswept g + zsum_of (fun o => total (o_swept o)) (out_log s ops).
+Proof.
+  unfold bgrun. induction ops as [|op t IH]; intros s g; simpl; [repeat split; lia|].
+  unfold bgstep at 2 4 6. simpl. destruct (step s op) as [[s' out]|] eqn:Es; simpl.
+  - destruct (IH s' (gupd g op (bcur_week s) out)) as (I1 & I2 & I3). simpl in *. rewrite I1, I2, I3. repeat split; lia.
+  - apply IH.
+Qed.
+
+(** ------------------------------------------------------------------ freezing of a week's pool, per operation *)
+Lemma step_rewards s g op s' out :
+  BInv s g -> step s op = Ok (s', out) ->
+  let cw := bcur_week s in
+  forall w,
+    (view_total_rewards s w <> [] -> cw - MAXW <= w -> view_total_rewards s' w = view_total_rewards s w) /\
+    (view_total_rewards s w = [] -> view_total_rewards s' w <> [] ->
+       (exists u cur pos, claim_of op = Some (u, cur, pos)) /\ cw - MAXW <= w < cw /\
+       view_total_rewards s' w = [(RTOK, view_acc s w)] /\ view_acc s' w = 0 /\
+       view_rem s' w = view_acc s w - wpaid (o_det out) w) /\
+    (w <> cw -> view_acc s' w = view_acc s w \/ view_acc s' w = 0).
+Proof.
+  intros Hi Hs cw w. pose proof Hi as (Htime & Hpos & HT & HC & HM & Hpct). fold cw in Hpos, HT, HC, HM.
+  pose proof max_weeks_nonneg as HMX.
+  unfold view_total_rewards, view_acc, view_rem.
+  fold (rw_ (b_w s) w) (rw_ (b_w s') w) (acc_ (b_h s) w) (acc_ (b_h s') w) (rem_ (b_h s') w).
+  destruct (claim_of op) as [[[u cur] pos]|] eqn:Ec.
+  - destruct (step_claim_decomp _ _ _ _ _ _ _ Hs Ec) as (h0 & h1 & w1 & _ & _ & Hrel & Hcb & _ & _ & _ & _ & D1 & _ & _ & D4 & D5 & _).
+    fold cw in Hrel, Hcb, D4, D5. destruct Hrel as (r1 & _ & _ & _ & _ & _ & r7).
+    assert (Hwf : forall p, pfind (w_prog (b_w s)) u = Some p -> 0 <= en_tok (pr_en p)) by (intros p Hp; apply (BInv_wf _ _ _ _ Hi Hp)).
+    assert (Hfin : rw_ (b_w s') w = rw_ w1 w \/ (rw_ (b_w s') w = [] /\ w = cleared_week cw)) by apply D5.
+    assert (Hacc' : w <> cw -> acc_ (b_h s') w = acc_ h1 w) by (intros Hw; apply (D4 w Hw)).
+    assert (Hrem' : rem_ (b_h s') w = rem_ h1 w) by (unfold rem_; rewrite D1; reflexivity).
+    assert (Hacc0 : w <> cw -> acc_ h0 w = acc_ (b_h s) w) by (intros Hw; apply (r7 w Hw)).
+    assert (Hrem0 : rem_ h0 w = rem_ (b_h s) w) by (unfold rem_; rewrite r1; reflexivity).
+    destruct (claim_boosted_summary _ _ _ _ _ _ _ _ _ Hwf Hcb) as
+        [(_ & -> & -> & Hd)|(c & cfg & s1 & _ & _ & _ & _ & _ & _ & Hm & (_ & _ & _ & _ & _ & _ & Sout & Sin & _))].
+    + split; [|split].
+      * intros Hne Hlo. destruct Hfin as [E|(_ & E)]; [exact E | unfold cleared_week in E; lia].
+      * intros He Hne. destruct Hfin as [E|(E & _)]; [rewrite E in Hne; contradiction | contradiction].
+      * intros Hw. left. rewrite (Hacc' Hw). apply (Hacc0 Hw).
+    + set (rng := match pfind (w_prog (b_w s)) u with Some p => claim_range p cw | None => [] end) in *.
+      assert (Hrng : forall x, In x rng -> cw - MAXW <= x < cw).
+      { intros x Hin. unfold rng in Hin. destruct (pfind (w_prog (b_w s)) u) as [p|]; [|destruct Hin].
+        destruct Hm as (Hle & _). apply (claim_range_window _ _ _ Hle Hin). }
+      destruct (in_dec Z.eq_dec w rng) as [Hin|Hn].
+      * destruct (Hrng w Hin) as (Hlo & Hhi). assert (Hwc : w <> cw) by lia.
+        assert (Hncl : w <> cleared_week cw) by (unfold cleared_week; lia).
+        assert (Hfin' : rw_ (b_w s') w = rw_ w1 w) by (destruct Hfin as [E|(_ & E)]; [exact E | contradiction]).
+        destruct (Sin w Hin) as (_ & W2 & W3 & W4 & W5 & _).
+        split; [|split].
+        -- intros Hne _. rewrite Hfin'. destruct W2 as [E|(E & _)]; [exact E | contradiction].
+        -- intros He Hne. split; [exists u, cur, pos; reflexivity|]. split; [lia|].
+           rewrite Hfin' in *. destruct W2 as [E|(_ & E1 & E2)]; [rewrite E in Hne; contradiction|].
+           rewrite (Hacc0 Hwc) in E1. split; [exact E1|]. split; [rewrite (Hacc' Hwc); exact E2|].
+           assert (Hr0 : rw_ (b_w s) w = [] -> rem_ h0 w = 0).
+           { intros _. rewrite Hrem0. apply (m_win _ _ _ _ HM w Hlo He). }
+           specialize (W5 Hr0). rewrite Hrem', <- (Hacc0 Hwc). rewrite E2 in W5. rewrite (Hr0 He) in W5. lia.
+        -- intros _. rewrite (Hacc' Hwc), <- (Hacc0 Hwc).
+           destruct W2 as [E|(_ & _ & E2)]; [|right; exact E2]. left.
+           destruct (rw_ (b_w s) w) as [|x l] eqn:Er; [apply W4; rewrite E; reflexivity | apply W3; discriminate].
+      * destruct (Sout w Hn) as (A1 & _ & _ & A4).
+        split; [|split].
+        -- intros Hne Hlo. destruct Hfin as [E|(_ & E)]; [|unfold cleared_week in E; lia].
+           rewrite E. destruct A4 as [E2|(_ & E2)]; [exact E2 | unfold cleared_week in E2; lia].
+        -- intros He Hne. exfalso. destruct Hfin as [E|(E & _)]; [|contradiction]. rewrite E in Hne.
+           destruct A4 as [E2|(E2 & _)]; [rewrite E2 in Hne | ]; contradiction.
+        -- intros Hw. left. rewrite (Hacc' Hw), A1. apply (Hacc0 Hw).
+  - destruct (step_noclaim _ _ _ _ Hs Ec) as (_ & _ & Hwk & Hcase). fold cw in Hwk, Hcase.
+    split; [|split].
+    + intros Hne Hlo. destruct (Hwk w) as [E|(_ & E)]; [exact E | unfold cleared_week in E; lia].
+    + intros He Hne. exfalso. destruct (Hwk w) as [E|(E & _)]; [rewrite E in Hne|]; contradiction.
+    + intros Hw. destruct Hcase as [(c & -> & Hc)|(_ & _ & _ & _ & Ha)]; [|left; apply (Ha w Hw)].
+      destruct (collect_char _ _ _ _ Hc) as (_ & _ & _ & _ & _ & _ & _ & _ & _ & _ & _ & _ & [(_ & -> & _)|(_ & _ & _ & _ & Hz & Hsame)]).
+      * left. reflexivity.
+      * unfold view_acc in *. fold (acc_ (b_h s) w) (acc_ (b_h s') w) in *.
+        destruct (Z_le_gt_dec (view_lastcol s + 1) w) as [H1|H1];
+          [destruct (Z_le_gt_dec w (bcur_week s - (MAXW + 1))) as [H2|H2]|].
+        -- right. apply (Hz w). lia.
+        -- left. apply (Hsame w). lia.
+        -- left. apply (Hsame w). lia.
+Qed.
+
+(** ------------------------------------------------------------------ the slice: this operation's cut and the running week *)
+Definition full_of (op : bop) : option Z :=
+  match op with
+  | BEnter _ _ _ _ full _ | BClaim _ _ _ _ full _ | BCompound _ _ _ _ full _ | BExit _ _ _ _ _ full _
+  | BClaimBoosted _ _ _ _ full _ | BSettle _ full | BSetPct _ _ full => Some full
+  | _ => None
+  end.
+
+Definition expected_cut (s : bst) (full : Z) : Z :=
+  if (view_pct s =? 0) || (match bh_cfg (b_h s) with None => true | Some _ => false end) then 0
+  else full * view_pct s / BOOSTED_MAX_PERCENT.
+
+Lemma claim_cfg_presence h w u pos cw cur h' w' det :
+  (forall p, pfind (w_prog w) u = Some p -> 0 <= en_tok (pr_en p)) ->
+  claim_boosted h w u pos cw cur = Ok (h', w', det) ->
+  bh_pct h' = bh_pct h /\ (bh_cfg h = None <-> bh_cfg h' = None).
+Proof.
+  intros Hwf Hc. destruct (claim_boosted_summary _ _ _ _ _ _ _ _ _ Hwf Hc) as
+      [(_ & -> & _)|(c & cfg & s1 & Hcfg & _ & _ & _ & _ & _ & _ & (_ & _ & _ & _ & S5 & S6 & _))]; [split; [reflexivity | tauto]|].
+  split; [exact S5|]. rewrite Hcfg. split; [discriminate|]. intros Hn.
+  exfalso. apply (S6 (fun oc => oc <> None)); [intros; discriminate | rewrite Hcfg; discriminate | exact Hn].
+Qed.
+
+Lemma step_cut s g op s' out :
+  BInv s g -> step s op = Ok (s', out) ->
+  0 <= o_cut out /\ o_cut out = match full_of op with Some full => expected_cut s full | None => 0 end.
+Proof.
+  intros Hi Hs. pose proof Hi as (_ & _ & _ & _ & _ & Hpct).
+  assert (Hsl : forall h full h1 b cut, bh_pct h = bh_pct (b_h s) -> (bh_cfg h = None <-> bh_cfg (b_h s) = None) -> 0 <= full ->
+            take_reward_slice h (bcur_week s) full = Ok (h1, b, cut) -> 0 <= cut /\ cut = expected_cut s full).
+  { intros h full h1 b cut Hp Hc Hf Ht. assert (Hp0 : 0 <= bh_pct h) by (rewrite Hp; lia).
+    destruct (slice_spec _ _ _ _ _ _ Hf Hp0 Ht) as (C1 & C2 & _). split; [exact C1|]. rewrite C2. unfold expected_cut, view_pct. rewrite Hp.
+    destruct (bh_cfg h) as [c|] eqn:E1; destruct (bh_cfg (b_h s)) as [c2|] eqn:E2; try reflexivity.
+    - exfalso. destruct Hc as (_ & Hc). specialize (Hc eq_refl). discriminate.
+    - exfalso. destruct Hc as (Hc & _). specialize (Hc eq_refl). discriminate. }
+  destruct op; simpl in Hs; simpl full_of.
+  - unfold ep_advance in Hs. destruct (0 <=? n); [|discriminate]. inversion Hs; subst. simpl. split; [lia | reflexivity].
+  - unfold ep_enter in Hs. destruct pre; [|discriminate]. destruct (wf_in cur pos full supply) eqn:Ew; [|discriminate].
+    apply wf_in_ok in Ew. destruct Ew as (W1 & W2 & W3 & W4).
+    apply bind_ok in Hs. destruct Hs as (cw & Hcw & Hs). destruct (current_week_b _ _ Hcw) as (-> & _).
+    apply bind_ok in Hs. destruct Hs as ([[h1 w1] det] & Hc & Hs).
+    apply bind_ok in Hs. destruct Hs as ([[h2 bs] cut] & Hsl1 & Hs).
+    apply bind_ok in Hs. destruct Hs as (w2 & Hu & Hs). inversion Hs; subst; clear Hs. simpl.
+    assert (Hwf : forall p, pfind (w_prog (b_w s)) u = Some p -> 0 <= en_tok (pr_en p)) by (intros p Hp; apply (BInv_wf _ _ _ _ Hi Hp)).
+    destruct (claim_cfg_presence _ _ _ _ _ _ _ _ _ Hwf Hc) as (P1 & P2).
+    apply (Hsl h1 full h2 bs cut P1); [tauto | exact W3 | exact Hsl1].
+  - unfold ep_claim in Hs. destruct pre; [|discriminate]. destruct (wf_in cur pos full supply) eqn:Ew; [|discriminate].
+    apply wf_in_ok in Ew. destruct Ew as (W1 & W2 & W3 & W4).
+    apply bind_ok in Hs. destruct Hs as (cw & Hcw & Hs). destruct (current_week_b _ _ Hcw) as (-> & _).
+    apply bind_ok in Hs. destruct Hs as ([[h1 bs] cut] & Hsl1 & Hs).
+    apply bind_ok in Hs. destruct Hs as ([[h2 w1] det] & Hc & Hs). inversion Hs; subst; clear Hs. simpl.
+    apply (Hsl (b_h s) full h1 bs cut eq_refl); [tauto | exact W3 | exact Hsl1].
+  - unfold ep_compound in Hs. destruct pre; [|discriminate]. destruct (wf_in cur pos full supply) eqn:Ew; [|discriminate].
+    apply wf_in_ok in Ew. destruct Ew as (W1 & W2 & W3 & W4).
+    apply bind_ok in Hs. destruct Hs as (cw & Hcw & Hs). destruct (current_week_b _ _ Hcw) as (-> & _).
+    apply bind_ok in Hs. destruct Hs as ([[h1 bs] cut] & Hsl1 & Hs).
+    apply bind_ok in Hs. destruct Hs as ([[h2 w1] det] & Hc & Hs).
+    apply bind_ok in Hs. destruct Hs as (w2 & Hu & Hs). inversion Hs; subst; clear Hs. simpl.
+    apply (Hsl (b_h s) full h1 bs cut eq_refl); [tauto | exact W3 | exact Hsl1].
+  - unfold ep_exit in Hs. destruct pre; [|discriminate]. destruct (wf_in cur pos full supply && (0 <=? posa)) eqn:Ew; [|discriminate].
+    apply andb_true_iff in Ew. destruct Ew as (Ew & _). apply wf_in_ok in Ew. destruct Ew as (W1 & W2 & W3 & W4).
+    apply bind_ok in Hs. destruct Hs as (cw & Hcw & Hs). destruct (current_week_b _ _ Hcw) as (-> & _).
+    apply bind_ok in Hs. destruct Hs as ([[h1 bs] cut] & Hsl1 & Hs).
+    apply bind_ok in Hs. destruct Hs as ([[h2 w1] det] & Hc & Hs).
+    apply bind_ok in Hs. destruct Hs as (w2 & Hu & Hs). inversion Hs; subst; clear Hs. simpl.
+    apply (Hsl (b_h s) full h1 bs cut eq_refl); [tauto | exact W3 | exact Hsl1].
+  - unfold ep_merge in Hs. destruct pre; [|discriminate]. destruct (wf_in cur pos 0 0); [|discriminate].
+    apply bind_ok in Hs. destruct Hs as (cw & Hcw & Hs).
+    apply bind_ok in Hs. destruct Hs as ([[h1 w1] det] & Hc & Hs). inversion Hs; subst; clear Hs. simpl. split; [lia | reflexivity].
+  - unfold ep_claim_boosted in Hs. destruct pre; [|discriminate]. destruct (wf_in cur pos full supply) eqn:Ew; [|discriminate].
+    apply wf_in_ok in Ew. destruct Ew as (W1 & W2 & W3 & W4). destruct (negb (pos =? 0)); [|discriminate].
+    apply bind_ok in Hs. destruct Hs as (cw & Hcw & Hs). destruct (current_week_b _ _ Hcw) as (-> & _).
+    apply bind_ok in Hs. destruct Hs as ([[h1 bs] cut] & Hsl1 & Hs).
+    apply bind_ok in Hs. destruct Hs as ([[h2 w1] det] & Hc & Hs). inversion Hs; subst; clear Hs. simpl.
+    apply (Hsl (b_h s) full h1 bs cut eq_refl); [tauto | exact W3 | exact Hsl1].
+  - unfold ep_settle in Hs. destruct pre; [|discriminate]. destruct (0 <=? full) eqn:Ef; [|discriminate]. apply Z.leb_le in Ef.
+    apply bind_ok in Hs. destruct Hs as (cw & Hcw & Hs). destruct (current_week_b _ _ Hcw) as (-> & _).
+    apply bind_ok in Hs. destruct Hs as ([[h1 bs] cut] & Hsl1 & Hs). inversion Hs; subst; clear Hs. simpl.
+    apply (Hsl (b_h s) full h1 bs cut eq_refl); [tauto | exact Ef | exact Hsl1].
+  - unfold ep_set_pct in Hs. destruct (admin c); [|discriminate]. destruct ((0 <=? p) && (p <=? BOOSTED_MAX_PERCENT)); [|discriminate].
+    destruct (0 <=? full) eqn:Ef; [|discriminate]. apply Z.leb_le in Ef.
+    apply bind_ok in Hs. destruct Hs as (cw & Hcw & Hs). destruct (current_week_b _ _ Hcw) as (-> & _).
+    apply bind_ok in Hs. destruct Hs as ([[h1 bs] cut] & Hsl1 & Hs). inversion Hs; subst; clear Hs. simpl.
+    apply (Hsl (b_h s) full h1 bs cut eq_refl); [tauto | exact Ef | exact Hsl1].
+  - unfold ep_set_factors in Hs. destruct (admin c); [|discriminate].
+    destruct ((0 <=? fa_max f) && (0 <=? fa_ce f) && (0 <=? fa_cf f)); [|discriminate].
+    destruct ((0 <? fa_mine f) && (0 <? fa_minf f)); [|discriminate].
+    apply bind_ok in Hs. destruct Hs as (cw & Hcw & Hs).
+    apply bind_ok in Hs. destruct Hs as (c' & Hu & Hs). inversion Hs; subst; clear Hs. simpl. split; [lia | reflexivity].
+  - destruct (collect_char _ _ _ _ Hs) as (_ & _ & _ & _ & _ & _ & _ & _ & _ & _ & _ & -> & _). split; [lia | reflexivity].
+  - unfold ep_update_energy in Hs. destruct (0 <=? en_tok cur); [|discriminate].
+    apply bind_ok in Hs. destruct Hs as (cw & Hcw & Hs).
+    apply bind_ok in Hs. destruct Hs as (w' & Hu & Hs). inversion Hs; subst; clear Hs. simpl. split; [lia | reflexivity].
+Qed.
+
+(** ------------------------------------------------------------------ time *)
+Lemma step_time s op s' out : step s op = Ok (s', out) ->
+  b_first s' = b_first s /\
+  ((b_epoch s' = b_epoch s /\ forall n, op <> BAdvance n) \/ (exists n, op = BAdvance n /\ 0 <= n /\ b_epoch s' = b_epoch s + n)).
+Proof.
+  intros Hs. destruct (claim_of op) as [[[u cur] pos]|] eqn:Ec.
+  - destruct (step_claim_decomp _ _ _ _ _ _ _ Hs Ec) as (h0 & h1 & w1 & _ & _ & _ & _ & _ & _ & T1 & T2 & _).
+    split; [exact T1|]. left. split; [exact T2|]. intros n ->. discriminate.
+  - destruct op; try discriminate; simpl in Hs.
+    + unfold ep_advance in Hs. destruct (0 <=? n) eqn:En; [|discriminate]. apply Z.leb_le in En. inversion Hs; subst; simpl.
+      split; [reflexivity|]. right. exists n. repeat split. exact En.
+    + unfold ep_settle in Hs. destruct pre; [|discriminate]. destruct (0 <=? full); [|discriminate].
+      apply bind_ok in Hs. destruct Hs as (cw & Hcw & Hs).
+      apply bind_ok in Hs. destruct Hs as ([[h1 bs] cut] & Hsl & Hs). inversion Hs; subst; simpl.
+      split; [reflexivity|]. left. split; [reflexivity | discriminate].
+    + unfold ep_set_pct in Hs. destruct (admin c); [|discriminate]. destruct ((0 <=? p) && (p <=? BOOSTED_MAX_PERCENT)); [|discriminate].
+      destruct (0 <=? full); [|discriminate].
+      apply bind_ok in Hs. destruct Hs as (cw & Hcw & Hs).
+      apply bind_ok in Hs. destruct Hs as ([[h1 bs] cut] & Hsl & Hs). inversion Hs; subst; simpl.
+      split; [reflexivity|]. left. split; [reflexivity | discriminate].
+    + unfold ep_set_factors in Hs. destruct (admin c); [|discriminate].
+      destruct ((0 <=? fa_max f) && (0 <=? fa_ce f) && (0 <=? fa_cf f)); [|discriminate].
+      destruct ((0 <? fa_mine f) && (0 <? fa_minf f)); [|discriminate].
+      apply bind_ok in Hs. destruct Hs as (cw & Hcw & Hs).
+      apply bind_ok in Hs. destruct Hs as (c' & Hu & Hs). inversion Hs; subst; simpl.
+      split; [reflexivity|]. left. split; [reflexivity | discriminate].
+    + destruct (collect_char _ _ _ _ Hs) as (_ & _ & _ & _ & T1 & T2 & _). split; [exact T1|]. left. split; [exact T2 | discriminate].
+    + unfold ep_update_energy in Hs. destruct (0 <=? en_tok cur); [|discriminate].
+      apply bind_ok in Hs. destruct Hs as (cw & Hcw & Hs).
+      apply bind_ok in Hs. destruct Hs as (w' & Hu & Hs). inversion Hs; subst; simpl.
+      split; [reflexivity|]. left. split; [reflexivity | discriminate].
+Qed.
+
+Lemma step_week s op s' out : step s op = Ok (s', out) ->
+  bcur_week s <= bcur_week s' /\ ((forall n, op <> BAdvance n) -> bcur_week s' = bcur_week s).
+Proof.
+  intros Hs. destruct (step_time _ _ _ _ Hs) as (T1 & [(T2 & _)|(n & -> & Hn & T2)]); unfold bcur_week; rewrite T1, T2.
+  - split; [lia | reflexivity].
+  - split; [|intros Hx; exfalso; apply (Hx n); reflexivity].
+    pose proof week_pos. pose proof (Z.div_le_mono (b_epoch s - b_first s) (b_epoch s + n - b_first s) WK). lia.
+Qed.
+
+(** the pool of the running week is exactly its cuts: nothing of it is frozen, paid or swept *)
+Lemma running_week_pool cw h rw g : MInv cw h rw g -> 0 <= MAXW ->
+  acc_ h cw = gcuts g cw /\ rem_ h cw = 0 /\ gpaid g cw = 0 /\ gswept g cw = 0 /\ rw cw = [].
+Proof.
+  intros M HMX. assert (Hrw : rw cw = []).
+  { destruct (rw cw) as [|x l] eqn:E; [reflexivity|]. assert (Hne : rw cw <> []) by (rewrite E; discriminate).
+    pose proof (m_fut _ _ _ _ M cw Hne). lia. }
+  assert (Hlo : cw - MAXW <= cw) by lia.
+  destruct (m_win _ _ _ _ M cw Hlo Hrw) as (R0 & P0). destruct (m_window_unswept _ _ _ _ cw M Hlo) as (S0 & _).
+  pose proof (m_week _ _ _ _ M cw). repeat split; try assumption. lia.
+Qed.
+
+Lemma step_running_week s g op s' out :
+  BInv s g -> step s op = Ok (s', out) -> (forall n, op <> BAdvance n) ->
+  view_acc s' (bcur_week s) = view_acc s (bcur_week s) + o_cut out /\ view_rem s' (bcur_week s) = 0.
+Proof.
+  intros Hi Hs Hna. pose proof (step_inv _ _ _ _ _ Hi Hs) as Hi'.
+  destruct (step_week _ _ _ _ Hs) as (_ & Hw). specialize (Hw Hna).
+  destruct Hi as (_ & _ & _ & _ & M & _). destruct Hi' as (_ & _ & _ & _ & M' & _). rewrite Hw in M'.
+  pose proof max_weeks_nonneg as HMX.
+  destruct (running_week_pool _ _ _ _ M HMX) as (A1 & _). destruct (running_week_pool _ _ _ _ M' HMX) as (A2 & R2 & _).
+  unfold view_acc, view_rem. fold (acc_ (b_h s') (bcur_week s)) (acc_ (b_h s) (bcur_week s)) (rem_ (b_h s') (bcur_week s)).
+  split; [|exact R2]. rewrite A1, A2. unfold gcuts; simpl. rewrite aget_add_at, Z.eqb_refl. reflexivity.
+Qed.
+
+(** ------------------------------------------------------------------ the factors of a week, in reachable states *)
+Lemma reach_factors epoch ops :
+  let s := fst (bgrun (init_b epoch, bg0) ops) in let g := snd (bgrun (init_b epoch, bg0) ops) in
+  let cw := bcur_week s in
+  match bh_cfg (b_h s), g_fac g with
+  | None, None => True
+  | Some c, Some (f0, log) =>
+      c_last c <= cw /\ Forall (fun ev => fst ev <= cw) log /\
+      view_factors s = Some (fac_at f0 log cw) /\
+      exists cfg, cfg_update c cw None = Ok cfg /\
+        forall w, (cw - NSLOTS < w < cw -> get_factors_for_week cfg w = Ok (fac_at f0 log w)) /\
+                  (forall fa, get_factors_for_week cfg w = Ok fa -> cw - NSLOTS < w < cw /\ fa = fac_at f0 log w)
+  | _, _ => False
+  end.
+Proof.
+  intros s g cw. destruct (reach_inv epoch ops) as (_ & _ & _ & HC & _). fold s g cw in HC. unfold CI in HC.
+  destruct (bh_cfg (b_h s)) as [c|] eqn:Ec; destruct (g_fac g) as [[f0 log]|]; try exact HC.
+  destruct HC as (Hi & Hle). split; [exact Hle|].
+  pose proof Hi as (_ & Hall & Hsl).
+  split; [eapply Forall_impl; [|exact Hall]; simpl; intros; lia|].
+  pose proof nslots_pos as HN.
+  split.
+  - unfold view_factors. rewrite Ec. f_equal. rewrite last_slot_slot, Hsl by lia. rewrite Z.sub_0_r.
+    symmetry. apply fac_at_late; [exact Hall | exact Hle].
+  - assert (Hu : exists cfg, cfg_update c cw None = Ok cfg).
+    { unfold cfg_update. assert (E : (c_last c <=? cw) = true) by (apply Z.leb_le; exact Hle). rewrite E.
+      destruct (Z.min (cw - c_last c) NSLOTS =? 0); eexists; reflexivity. }
+    destruct Hu as (cfg & Hu). exists cfg. split; [exact Hu|].
+    destruct (cfg_update_inv _ _ _ _ _ _ Hi Hu) as (_ & Hl & Hi'). intros w. rewrite <- Hl.
+    apply (get_factors_spec _ _ _ w Hi').
+Qed.
+
+(** the ghost log of accepted factor settings is exactly the successful setBoostedYieldsFactors calls *)
+Fixpoint fac_calls (s : bst) (ops : list bop) : list (Z * factors) :=
+  match ops with
+  | [] => []
+  | op :: t => match step s op with
+               | Ok (s', _) => (match op with BSetFactors _ f => [(bcur_week s, f)] | _ => [] end) ++ fac_calls s' t
+               | Err _ => fac_calls s t
+               end
+  end.
+
+Lemma fac_log_is_calls ops : forall s g,
+  match g_fac (snd (bgrun (s, g) ops)), g_fac g with
+  | Some (f0, log), Some (f0', log') => f0 = f0' /\ log = log' ++ fac_calls s ops
+  | Some (f0, log), None => exists cw0 rest, fac_calls s ops = (cw0, f0) :: rest /\ log = rest
+  | None, None => fac_calls s ops = []
+  | None, Some _ => False
+  end.
+Proof.
+  unfold bgrun. induction ops as [|op t IH]; intros s g; simpl.
+  - destruct (g_fac g) as [[f0 log]|]; [split; [reflexivity | rewrite app_nil_r; reflexivity] | reflexivity].
+  - unfold bgstep at 2. simpl. destruct (step s op) as [[s' out]|] eqn:Es; simpl; [|apply IH].
+    specialize (IH s' (gupd g op (bcur_week s) out)). simpl in IH.
+    destruct (g_fac (snd (fold_left bgstep t (s', gupd g op (bcur_week s) out)))) as [[f1 log1]|];
+      destruct op; simpl in IH |- *; destruct (g_fac g) as [[f0 log0]|]; simpl in IH |- *; try exact IH;
+      try (destruct IH as (-> & ->); split; [reflexivity | rewrite <- app_assoc; reflexivity]);
+      try (destruct IH as (-> & ->); eexists; eexists; split; reflexivity); try contradiction.
+Qed.
+
+(** setBoostedYieldsFactors accepts exactly: admin caller, both minimums positive (the other arguments are BigUints) *)
+Lemma set_factors_guard s g c f :
+  BInv s g ->
+  ((exists s' out, ep_set_factors s c f = Ok (s', out)) <->
+   (c = ADMIN /\ 0 <= fa_max f /\ 0 <= fa_ce f /\ 0 <= fa_cf f /\ 0 < fa_mine f /\ 0 < fa_minf f)).
+Proof.
+  intros (Htime & _ & _ & HC & _). unfold ep_set_factors, admin. split.
+  - intros (s' & out & Hs). destruct (c =? ADMIN) eqn:Ec; [|discriminate]. apply Z.eqb_eq in Ec.
+    destruct ((0 <=? fa_max f) && (0 <=? fa_ce f) && (0 <=? fa_cf f)) eqn:E1; [|discriminate].
+    destruct ((0 <? fa_mine f) && (0 <? fa_minf f)) eqn:E2; [|discriminate].
+    rewrite !andb_true_iff, !Z.leb_le in E1. rewrite andb_true_iff, !Z.ltb_lt in E2. tauto.
+  - intros (-> & H1 & H2 & H3 & H4 & H5). rewrite Z.eqb_refl.
+    assert (E1 : (0 <=? fa_max f) && (0 <=? fa_ce f) && (0 <=? fa_cf f) = true) by (rewrite !andb_true_iff, !Z.leb_le; tauto).
+    assert (E2 : (0 <? fa_mine f) && (0 <? fa_minf f) = true) by (rewrite andb_true_iff, !Z.ltb_lt; tauto).
+    rewrite E1, E2. unfold current_week, week_for_epoch.
+    assert (Ele : (b_first s <=? b_epoch s) = true) by (apply Z.leb_le; exact Htime). rewrite Ele. simpl bind.
+    fold (bcur_week s). unfold CI in HC. destruct (bh_cfg (b_h s)) as [cfg|]; [|eexists; eexists; reflexivity].
+    destruct (g_fac g) as [[f0 log]|]; [|contradiction]. destruct HC as (_ & Hle).
+    unfold cfg_update. assert (E : (c_last cfg <=? bcur_week s) = true) by (apply Z.leb_le; exact Hle). rewrite E.
+    destruct (Z.min (bcur_week s - c_last cfg) NSLOTS =? 0); eexists; eexists; reflexivity.
+Qed.
+
+Lemma set_factors_perm s c f : c <> ADMIN -> ep_set_factors s c f = Err EPerm.
+Proof. intros Hc. unfold ep_set_factors, admin. destruct (c =? ADMIN) eqn:E; [apply Z.eqb_eq in E; contradiction | reflexivity]. Qed.
